@@ -16,1767 +16,1628 @@ Definition terms (ts : list tok) (t : pt) : string :=
   digest (show_toks (Some ts)) ++ " " ++ digest (show_pt (Some t)) ++ " " ++ digest (show_pt (parse ts)).
 Definition terms_full (ts : list tok) (t : pt) : string :=
   show_toks (Some ts) ++ nl ++ show_pt (Some t) ++ nl ++ show_pt (parse ts).
-Eval vm_compute in ("<<<M25>>>" ++ check (runes_of_ascii "root packet
-    metadata// " ++ [128512]%N ++ runes_of_ascii " emoji
-{ } packet // c
-u
-{@leftPad (
-) repeat char[  4294967296 ] A
-`a\`  ,
-}
-")).
-Eval vm_compute in ("<<<M57>>>" ++ check (runes_of_ascii "// " ++ [27880; 37322]%N ++ runes_of_ascii "
-options { u8x
-=false}	packet crc
-{ @leftPad
-    ( // `tick` ""quote"" 'q'
-'\x00'
-)@calculatedFrom( ""a\""b"" ) char[] u@lengthOf(
-    x ), stringy
-charz	`" ++ [233]%N ++ runes_of_ascii "`
-// c
-// c
-,
-} packet
-// c
-//x
-tag {
-    string T,zchar[ 7
-    ] leftPad ,// `tick` ""quote"" 'q'
-}
-")).
-Eval vm_compute in ("<<<M89>>>" ++ check (runes_of_ascii "
-MetaData f32a { char[ 42
-    ] zchar
-, //x
-}")).
-Eval vm_compute in ("<<<M121>>>" ++ check (runes_of_ascii "packet string_ { trueish
-{options1 @lengthOf( Z9_ ) `// not a comment` , // c
-_x
-    //	t
-    @lengthOf( u128), /// triple
-match packetx as charz{[
-1 , 3 ,
-""a\\"" //x
-,10 ] : lengthOf ,
-""" ++ [28040; 24687]%N ++ runes_of_ascii """
-:float	""CRC32"" : // a // b
-calculatedFrom
-, """ ++ [128512]%N ++ runes_of_ascii """ : tag , 00
-:
-rootA, }
-    ,} ,}")).
-Eval vm_compute in ("<<<M153>>>" ++ check (runes_of_ascii "root packet	BodyLength
-    {
-    // " ++ [27880; 37322]%N ++ runes_of_ascii "
-    @lengthOf( asx) repeat char[ 007
-] matchKey ,char[]
-MetaDataX @lengthOf(
-Foo) `tab	here` ,
-repeat uint64 //	t
-f32a
-, }")).
-Eval vm_compute in ("<<<T153>>>" ++ terms [mkTok 34 "root" 1 0 false; mkTok 35 "packet" 1 5 false; mkTok 42 "BodyLength" 1 12 false; mkTok 2 "{" 2 4 false; mkTok 44 (string_of_bytes [47; 47; 32; 230; 179; 168; 233; 135; 138]%N) 3 4 true; mkTok 7 "@lengthOf(" 4 4 false; mkTok 42 "asx" 4 15 false; mkTok 6 ")" 4 18 false; mkTok 36 "repeat" 4 20 false; mkTok 12 "char[" 4 27 false; mkTok 30 "007" 4 33 false; mkTok 13 "]" 5 0 false; mkTok 42 "matchKey" 5 2 false; mkTok 40 "," 5 11 false; mkTok 16 "char[]" 5 12 false; mkTok 42 "MetaDataX" 6 0 false; mkTok 7 "@lengthOf(" 6 10 false; mkTok 42 "Foo" 7 0 false; mkTok 6 ")" 7 3 false; mkTok 43 (string_of_bytes [96; 116; 97; 98; 9; 104; 101; 114; 101; 96]%N) 7 5 false; mkTok 40 "," 7 16 false; mkTok 36 "repeat" 8 0 false; mkTok 23 "uint64" 8 7 false; mkTok 44 (string_of_bytes [47; 47; 9; 116]%N) 8 14 true; mkTok 42 "f32a" 9 0 false; mkTok 40 "," 10 0 false; mkTok 3 "}" 10 2 false; mkTok 0 "<EOF>" 10 3 false] (mkPacket (mkPtok 34 "root" 1 0 0) (Some (mkPtok 3 "}" 10 2 26)) [(DPacket (mkPacketDef (mkSpan (mkPtok 34 "root" 1 0 0) (mkPtok 3 "}" 10 2 26)) (Some (mkPtok 34 "root" 1 0 0)) (mkPtok 35 "packet" 1 5 1) (mkPtok 42 "BodyLength" 1 12 2) (mkPtok 2 "{" 2 4 3) [(mkFieldWithAttr (mkSpan (mkPtok 7 "@lengthOf(" 4 4 5) (mkPtok 40 "," 5 11 13)) [(FALengthOf (mkSpan (mkPtok 7 "@lengthOf(" 4 4 5) (mkPtok 6 ")" 4 18 7)) (mkLengthOf (mkSpan (mkPtok 7 "@lengthOf(" 4 4 5) (mkPtok 6 ")" 4 18 7)) (mkPtok 7 "@lengthOf(" 4 4 5) (mkPtok 42 "asx" 4 15 6) (mkPtok 6 ")" 4 18 7)))] (MetaField (mkSpan (mkPtok 36 "repeat" 4 20 8) (mkPtok 40 "," 5 11 13)) (Some (mkPtok 36 "repeat" 4 20 8)) (mkMetaDecl (mkSpan (mkPtok 12 "char[" 4 27 9) (mkPtok 40 "," 5 11 13)) (TyFixed (mkSpan (mkPtok 12 "char[" 4 27 9) (mkPtok 13 "]" 5 0 11)) (mkFixedString (mkSpan (mkPtok 12 "char[" 4 27 9) (mkPtok 13 "]" 5 0 11)) (mkPtok 12 "char[" 4 27 9) (mkPtok 30 "007" 4 33 10) (mkPtok 13 "]" 5 0 11))) (mkPtok 42 "matchKey" 5 2 12) None (mkPtok 40 "," 5 11 13)))); (mkFieldWithAttr (mkSpan (mkPtok 16 "char[]" 5 12 14) (mkPtok 40 "," 7 16 20)) [] (LengthField (mkSpan (mkPtok 16 "char[]" 5 12 14) (mkPtok 40 "," 7 16 20)) (mkLengthFieldDecl (mkSpan (mkPtok 16 "char[]" 5 12 14) (mkPtok 40 "," 7 16 20)) (Some (TyDynamic (mkSpan (mkPtok 16 "char[]" 5 12 14) (mkPtok 16 "char[]" 5 12 14)) (mkDynamicString (mkSpan (mkPtok 16 "char[]" 5 12 14) (mkPtok 16 "char[]" 5 12 14)) (mkPtok 16 "char[]" 5 12 14)))) (mkPtok 42 "MetaDataX" 6 0 15) (mkLengthOf (mkSpan (mkPtok 7 "@lengthOf(" 6 10 16) (mkPtok 6 ")" 7 3 18)) (mkPtok 7 "@lengthOf(" 6 10 16) (mkPtok 42 "Foo" 7 0 17) (mkPtok 6 ")" 7 3 18)) (Some (mkPtok 43 (string_of_bytes [96; 116; 97; 98; 9; 104; 101; 114; 101; 96]%N) 7 5 19)) (mkPtok 40 "," 7 16 20)))); (mkFieldWithAttr (mkSpan (mkPtok 36 "repeat" 8 0 21) (mkPtok 40 "," 10 0 25)) [] (MetaField (mkSpan (mkPtok 36 "repeat" 8 0 21) (mkPtok 40 "," 10 0 25)) (Some (mkPtok 36 "repeat" 8 0 21)) (mkMetaDecl (mkSpan (mkPtok 23 "uint64" 8 7 22) (mkPtok 40 "," 10 0 25)) (TyBasic (mkSpan (mkPtok 23 "uint64" 8 7 22) (mkPtok 23 "uint64" 8 7 22)) (mkBasicType (mkSpan (mkPtok 23 "uint64" 8 7 22) (mkPtok 23 "uint64" 8 7 22)) (mkPtok 23 "uint64" 8 7 22))) (mkPtok 42 "f32a" 9 0 24) None (mkPtok 40 "," 10 0 25))))] (mkPtok 3 "}" 10 2 26)))])).
-Eval vm_compute in ("<<<M185>>>" ++ check (runes_of_ascii "
-packet
-// packet A { u8 x, }
-// " ++ [27880; 37322]%N ++ runes_of_ascii "
-matchKey {} packet
-    string_ { matchKey @lengthOf(
-asx)
-    ,@rightPad ( ' '
-) metadata
-,
-// a // b
-// @lengthOf(
-o //
-chars ,  uint16 tag `u8 x,` ,
-repeat  float32 Logon  `two words` , /// triple
-matchKey	@calculatedFrom( ""a	b""
-)`doc`
-    ,
-repeat packetx
-a1 ,} MetaData Packet //
-{
-char[]
-    pack, string  zchar ,zchar[
-//	t
-// trailing space 
-1 ] x_y_z, int64
-    charz
-`say ""hi""`, u32
-lengthOf
-    `doc`
-,}
-options
-    { a1
-= int16 ; crc =' ';tag = char[ 42]
-leftPad
-    = true ; }")).
-Eval vm_compute in ("<<<M217>>>" ++ check (runes_of_ascii "packet zchar{
-    uint8x { MetaDataX , match stringy as calculatedFrom { """" : options1,""// no comment""
-: //x
-u
-""\" ++ [233]%N ++ runes_of_ascii """
-:  body
-, [
-""abc""
-    , ""it's"" , // c
-007 ] : packetx
-//	t
-// @lengthOf(
-,65535:
-roots
-, } ,  zchar[	10 ]
-lengthOf`two words`  ,	} // trailing space 
-,
-//
-// packet A { u8 x, }
-} root
-packet Header{repeat f32a o `two words`,
-    @lengthOf(
-    f32a ) char[	42
-]
-    uint8x ,	@tag( 42
-)
-    float@lengthOf(
-MetaDataX  ) , string T	, match _x as leftPad
-    { 0123456789 :
-    stringy, } ,  @leftPad // @lengthOf(
-( )repeat uint8x// c
-{
-string_ { char[ 255] a1 @calculatedFrom( ""abc""
-), metadata @lengthOf(	asx ),
-    } , repeat falsey /// triple
-,
-    Logon { As ,
-repeat char[]// trailing space 
-u
-    , } , },
-    @leftPad
-    (	' '
+Eval vm_compute in ("<<<M25>>>" ++ check (runes_of_ascii "root packet zchar{
+@calculatedFrom( ""\" ++ [233]%N ++ runes_of_ascii """)
+@rightPad (
+    // a // b
     )
-char[ 10
-] charz
-@lengthOf(  float ), @calculatedFrom(
-    """ ++ [233]%N ++ runes_of_ascii "t" ++ [233]%N ++ runes_of_ascii """
-) i64 trueish
-    `two words`
-, } options{ options1	=7
-; u
-    // " ++ [27880; 37322]%N ++ runes_of_ascii "
-    = """" ; } 	 ")).
-Eval vm_compute in ("<<<M249>>>" ++ check (runes_of_ascii "
-packet Header{ char[] body
-//x
-//
-, }
+@rightPad	( '\x00' ) int8 Foo ,
+    } packet calculatedFrom { u8x `doc`
+    , }	MetaData x {
+}options{ repeatCount
+    = ""x y"" ;leftPad = """ ++ [128512]%N ++ runes_of_ascii """
+tag= uint8}
+//	t
 ")).
-Eval vm_compute in ("<<<M281>>>" ++ check (runes_of_ascii "// trailing space 
-packet
-// packet A { u8 x, }
-// packet A { u8 x, }
-o {
-@calculatedFrom(
-""`tick`""
-    //	t
-    )repeat i8 rootA
-, @calculatedFrom( ""`tick`""	)Logon
-body`line1
-line2` , // " ++ [128512]%N ++ runes_of_ascii " emoji
-@lengthOf(crc )@tag( 0
-) repeat
-falsey string_ , @calculatedFrom(
-"""" )
-    lengthOf/// triple
-, u16 calculatedFrom ,
-    i8i8//x
-tag `two words` , @tag( 1)	string rootA`u8 x,`
-,match pack as int { [
-""" ++ [233]%N ++ runes_of_ascii "t" ++ [233]%N ++ runes_of_ascii """
-, ""\" ++ [233]%N ++ runes_of_ascii """	, 10 ,  0,
-4294967296 , ""packet"" ,""" ++ [28040; 24687]%N ++ runes_of_ascii """
-,""" ++ [233]%N ++ runes_of_ascii "t" ++ [233]%N ++ runes_of_ascii """ ] : int
-//x
-// trailing space 
-, 3
-    :zchar , """ ++ [128512]%N ++ runes_of_ascii """
-:
-options1, 00 // c
-:x_y_z , 4294967296 :
-chars , } ,float32 matchKey
-    //x
-    ,
-T
-,}
-")).
-Eval vm_compute in ("<<<M313>>>" ++ check (runes_of_ascii "packet
-As {
-char[ 42	]//
-chars
-@calculatedFrom(
-""a\""b"" ) `it's` ,f32a falsey // trailing space 
-`// not a comment` , // " ++ [128512]%N ++ runes_of_ascii " emoji
-string
+Eval vm_compute in ("<<<M57>>>" ++ check (runes_of_ascii "packet //	t
 trueish
-`" ++ [28040; 24687; 31867; 22411]%N ++ runes_of_ascii "` ,
-@lengthOf(  metadata )@tag(65535 ) @calculatedFrom( ""`tick`"" ) repeat Logon { x_y_z@lengthOf(lengthOf ),uint32  u
-, i64_ @calculatedFrom( ""CRC32""
-    )
-`a\` , asx @calculatedFrom( """" ) `u8 x,` ,	} ,
-u16
-    _x `` , repeat string_
+{/// triple
+string crc`two words`,
+T chars , }
+packet
+asx	{ @leftPad ( '0'
+) match x as u8x { [ ""{,}"" ,
+1 ,
+65535, ""// no comment""	,  7,3 ,// c
+10
+,	42 ]:
+    o ,
+}
+, // c
+@leftPad(	'0'	) //	t
+repeat	int64
+    f32a`doc` ,  @tag( 4294967296)	@rightPad
+    (
+// trailing space 
+//x
+' ') @tag( 3)	o
+`u8 x,` ,} packet	options1//x
+{ // `tick` ""quote"" 'q'
+char crc,
+    rootA
 //
-// `tick` ""quote"" 'q'
-, options1 f32a , @calculatedFrom(""\n""// a // b
-) Packet @lengthOf( zchar
-    ) , }// `tick` ""quote"" 'q'
-options { // a // b
-} packet a1 { @tag( 0123456789)u8
-    uint8x	`{ , }` ,
-    u32// " ++ [27880; 37322]%N ++ runes_of_ascii "
-x_y_z `say ""hi""`
-, }
+// a // b
+`a\` ,
+    }
 ")).
-Eval vm_compute in ("<<<M345>>>" ++ check (runes_of_ascii "root packet calculatedFrom { @lengthOf( asx )	T{
+Eval vm_compute in ("<<<M89>>>" ++ check (runes_of_ascii "packet	i64_ { }
+")).
+Eval vm_compute in ("<<<M121>>>" ++ check (runes_of_ascii "
+packet Pad{ @lengthOf(
+    msg_type)match u8x as u {
+10: msg_type
+// @lengthOf(
+// c
+255 : roots
+    , ""CRC32""
+:
+// " ++ [128512]%N ++ runes_of_ascii " emoji
+// `tick` ""quote"" 'q'
+BodyLength [ 1, ""a\""b""  ] : trueish ,} ,
+//	t
+//	t
+}")).
+Eval vm_compute in ("<<<M153>>>" ++ check (runes_of_ascii "options { options1
+    =
+    // packet A { u8 x, }
+    float64
+    leftPad =
+true ; MetaDataX
+=char[ 00 ] ;roots=false } packet string_{ }
+")).
+Eval vm_compute in ("<<<T153>>>" ++ terms [mkTok 1 "options" 1 0 false; mkTok 2 "{" 1 8 false; mkTok 42 "options1" 1 10 false; mkTok 4 "=" 2 4 false; mkTok 44 "// packet A { u8 x, }" 3 4 true; mkTok 29 "float64" 4 4 false; mkTok 42 "leftPad" 5 4 false; mkTok 4 "=" 5 12 false; mkTok 10 "true" 6 0 false; mkTok 41 ";" 6 5 false; mkTok 42 "MetaDataX" 6 7 false; mkTok 4 "=" 7 0 false; mkTok 12 "char[" 7 1 false; mkTok 30 "00" 7 7 false; mkTok 13 "]" 7 10 false; mkTok 41 ";" 7 12 false; mkTok 42 "roots" 7 13 false; mkTok 4 "=" 7 18 false; mkTok 11 "false" 7 19 false; mkTok 3 "}" 7 25 false; mkTok 35 "packet" 7 27 false; mkTok 42 "string_" 7 34 false; mkTok 2 "{" 7 41 false; mkTok 3 "}" 7 43 false; mkTok 0 "<EOF>" 8 0 false] (mkPacket (mkPtok 1 "options" 1 0 0) (Some (mkPtok 3 "}" 7 43 23)) [(DOption (mkOptionDef (mkSpan (mkPtok 1 "options" 1 0 0) (mkPtok 3 "}" 7 25 19)) (mkPtok 1 "options" 1 0 0) (mkPtok 2 "{" 1 8 1) [(mkOptionDecl (mkSpan (mkPtok 42 "options1" 1 10 2) (mkPtok 29 "float64" 4 4 5)) (mkPtok 42 "options1" 1 10 2) (mkPtok 4 "=" 2 4 3) (VType (mkSpan (mkPtok 29 "float64" 4 4 5) (mkPtok 29 "float64" 4 4 5)) (TyBasic (mkSpan (mkPtok 29 "float64" 4 4 5) (mkPtok 29 "float64" 4 4 5)) (mkBasicType (mkSpan (mkPtok 29 "float64" 4 4 5) (mkPtok 29 "float64" 4 4 5)) (mkPtok 29 "float64" 4 4 5)))) None); (mkOptionDecl (mkSpan (mkPtok 42 "leftPad" 5 4 6) (mkPtok 41 ";" 6 5 9)) (mkPtok 42 "leftPad" 5 4 6) (mkPtok 4 "=" 5 12 7) (VTrue (mkSpan (mkPtok 10 "true" 6 0 8) (mkPtok 10 "true" 6 0 8)) (mkPtok 10 "true" 6 0 8)) (Some (mkPtok 41 ";" 6 5 9))); (mkOptionDecl (mkSpan (mkPtok 42 "MetaDataX" 6 7 10) (mkPtok 41 ";" 7 12 15)) (mkPtok 42 "MetaDataX" 6 7 10) (mkPtok 4 "=" 7 0 11) (VType (mkSpan (mkPtok 12 "char[" 7 1 12) (mkPtok 13 "]" 7 10 14)) (TyFixed (mkSpan (mkPtok 12 "char[" 7 1 12) (mkPtok 13 "]" 7 10 14)) (mkFixedString (mkSpan (mkPtok 12 "char[" 7 1 12) (mkPtok 13 "]" 7 10 14)) (mkPtok 12 "char[" 7 1 12) (mkPtok 30 "00" 7 7 13) (mkPtok 13 "]" 7 10 14)))) (Some (mkPtok 41 ";" 7 12 15))); (mkOptionDecl (mkSpan (mkPtok 42 "roots" 7 13 16) (mkPtok 11 "false" 7 19 18)) (mkPtok 42 "roots" 7 13 16) (mkPtok 4 "=" 7 18 17) (VFalse (mkSpan (mkPtok 11 "false" 7 19 18) (mkPtok 11 "false" 7 19 18)) (mkPtok 11 "false" 7 19 18)) None)] (mkPtok 3 "}" 7 25 19))); (DPacket (mkPacketDef (mkSpan (mkPtok 35 "packet" 7 27 20) (mkPtok 3 "}" 7 43 23)) None (mkPtok 35 "packet" 7 27 20) (mkPtok 42 "string_" 7 34 21) (mkPtok 2 "{" 7 41 22) [] (mkPtok 3 "}" 7 43 23)))])).
+Eval vm_compute in ("<<<M185>>>" ++ check (runes_of_ascii "packet Foo
+    // packet A { u8 x, }
+    { @lengthOf( u128// " ++ [128512]%N ++ runes_of_ascii " emoji
+) // c
+pack
+{
+    match x as string_
+    // " ++ [128512]%N ++ runes_of_ascii " emoji
+    {""" ++ [28040; 24687]%N ++ runes_of_ascii """
+: BodyLength ,} , }// a // b
+,char[ 4294967296 ] i64_ `" ++ [233]%N ++ runes_of_ascii "` ,@lengthOf(u8x
+    ) repeat float64 f32a ,
+// a // b
+// packet A { u8 x, }
+} // 50% %s
+options { MetaDataX=  ""a\\""
+pack =// packet A { u8 x, }
+false;	options1
+    // a // b
+    = char[]  Pad= '0'
+    ;
+u8x =false}
+")).
+Eval vm_compute in ("<<<M217>>>" ++ check (runes_of_ascii "
+packet x
+    { match Foo as stringy  {
+    [
+    ""CRC32"" , //	t
+""{,}"" , ""it's""
+,  ""a\\""
+,
+    // @lengthOf(
+    """ ++ [28040; 24687]%N ++ runes_of_ascii """ , """ ++ [233]%N ++ runes_of_ascii "t" ++ [233]%N ++ runes_of_ascii """]
+// " ++ [27880; 37322]%N ++ runes_of_ascii "
+// @lengthOf(
+: Packet ,} ,
+match Header as
+Foo
+    {
+[ 42
+    , 1
+]: BodyLength , }
+    // `tick` ""quote"" 'q'
+    , i64_ @calculatedFrom(
+    ""it's"" ) `{ , }` ,
+    } root // `tick` ""quote"" 'q'
+packet	stringy { zchar[ 42 ]
+    asx
+`doc` ,
+// packet A { u8 x, }
+//x
+}
+    packet Z9_ { uint8
+// " ++ [27880; 37322]%N ++ runes_of_ascii "
+// " ++ [27880; 37322]%N ++ runes_of_ascii "
+charz @calculatedFrom( ""CRC32"" ) `it's` , match stringy
+    as  u128 { 42 : i8i8// trailing space 
+, 0123456789 : charz ,
+[00
+, ""\" ++ [233]%N ++ runes_of_ascii """ , """ ++ [128512]%N ++ runes_of_ascii """ ,""\n"" , 10 , 42 ,	10 ] :
+falsey	, 10 : pack
+    ,	} , @tag( 10 ) repeat trueish
+{ x_y_z MetaDataX `100% of %d` , } , tag
+@calculatedFrom( ""`tick`"" ) ,
+// c
+// @lengthOf(
+@calculatedFrom(""x y"" ) len // 50% %s
+`
+` ,@calculatedFrom( // " ++ [27880; 37322]%N ++ runes_of_ascii "
+""`tick`""
+    )repeat // a // b
+pack { MetaDataX`" ++ [28040; 24687; 31867; 22411]%N ++ runes_of_ascii "` // `tick` ""quote"" 'q'
+,repeat char[
+007
+    ]
+Header // " ++ [128512]%N ++ runes_of_ascii " emoji
+,}
+, match msg_type as uint8x{ ""a\""b"" :uint8x 00: i64_,
+10 : Header""packet"" :
+f32a ,} , repeat string_ i8i8 , int32
+    charz `// not a comment` ,@rightPad
+( ) // 50% %s
+match T
+    as charz
+{ [""\n""
+    , """" , 10 , 10
+,10 ,
+10 , 4294967296 ]
+:crc// packet A { u8 x, }
+, ""a	b"" : a1
+,	""\" ++ [233]%N ++ runes_of_ascii """  : // @lengthOf(
+len
+, 255
+    // c
+    :
+x
+    } ,}options { // " ++ [128512]%N ++ runes_of_ascii " emoji
+packetx =false } packet u {
+    //x
+    @calculatedFrom( """ ++ [28040; 24687]%N ++ runes_of_ascii """ )repeat
+// packet A { u8 x, }
+// a // b
+char[ 7 ]	Logon, }
+
+")).
+Eval vm_compute in ("<<<M249>>>" ++ check (runes_of_ascii "packet pack{ repeat charz , @leftPad ()  roots @lengthOf( Packet
+)
+    `it's`  , //	t
+}
+")).
+Eval vm_compute in ("<<<M281>>>" ++ check (runes_of_ascii "options { Header
+=
+    ""a\\"" }packet x{ } packet repeatCount{zchar[ 00 ] asx,
+@calculatedFrom( ""// no comment"" ) match body as Logon
+{ ""abc""
+:	chars
+42	: A
+,
+""// no comment"":
+crc , [ """"
+]: f32a , 4294967296 : falsey ""x y""	: u8x },	@rightPad(
+    ' ' ) u32
+stringy @lengthOf(	lengthOf) ,  Foo `say ""hi""`// packet A { u8 x, }
+,
+crc `100% of %d` , @leftPad( '\x00' )
+u8x o , zchar[
+255	]
+tag `u8 x,`	,} packet f32a { }
+// @lengthOf(
+// @lengthOf(
+root packet
+// packet A { u8 x, }
+// 50% %s
+msg_type {
+@calculatedFrom(  ""`tick`""
+    )char[]crc
+, int	options1
+, //
+asx ,}
+")).
+Eval vm_compute in ("<<<M313>>>" ++ check (runes_of_ascii "MetaData
+i64_ {// a // b
+int16
+tag// c
+`" ++ [28040; 24687; 31867; 22411]%N ++ runes_of_ascii "` , }
+
+")).
+Eval vm_compute in ("<<<M345>>>" ++ check (runes_of_ascii "MetaData Foo/// triple
+{ uint32
+calculatedFrom `tab	here` ,//x
+options1
+//
+//x
+i64_ , // 50% %s
+string packetx `it's` // " ++ [128512]%N ++ runes_of_ascii " emoji
+, u32 Packet`
+` ,
+    zchar[
+1  ]
+int  `" ++ [233]%N ++ runes_of_ascii "` ,
+}
+    // `tick` ""quote"" 'q'
+    packet x_y_z	{ T ,
+    match BodyLength// @lengthOf(
+as
+    //
+    charz { [
+    ""// no comment"" , """ ++ [233]%N ++ runes_of_ascii "t" ++ [233]%N ++ runes_of_ascii """
+    ,
+""`tick`"" ,
+0123456789 ]
+    :
+Z9_ ""1"" : MetaDataX [ ""\n""
+    ]
+    :
+    matchKey , } ,
+    stringy	{ repeat uint16 float
+, zchar[ 1 ] Packet , }
+    , //
+match metadata
+as	o // " ++ [27880; 37322]%N ++ runes_of_ascii "
+{
+10 : Header ,7 : crc
+""it's"" // 50% %s
+:falsey 3: leftPad , [ 00
+, 1 // trailing space 
+, 255  , 007 // " ++ [27880; 37322]%N ++ runes_of_ascii "
+, 255
+    ] :
+    charz 4294967296 : metadata}
+    ,
+    }
+")).
+Eval vm_compute in ("<<<M377>>>" ++ check (runes_of_ascii "packet x {@rightPad ( '\x00'  ) char[ 10 // a // b
+]
+_x ,
+    u32 trueish
+// c
+// packet A { u8 x, }
+@lengthOf( As) `a\` ,@calculatedFrom(
+    // c
+    ""\" ++ [233]%N ++ runes_of_ascii """ ) char
+//
+// a // b
+rootA @calculatedFrom( ""\n"" ) ,
+}
+")).
+Eval vm_compute in ("<<<T377>>>" ++ terms [mkTok 35 "packet" 1 0 false; mkTok 42 "x" 1 7 false; mkTok 2 "{" 1 9 false; mkTok 32 "@rightPad" 1 10 false; mkTok 8 "(" 1 20 false; mkTok 33 "'\x00'" 1 22 false; mkTok 6 ")" 1 30 false; mkTok 12 "char[" 1 32 false; mkTok 30 "10" 1 38 false; mkTok 44 "// a // b" 1 41 true; mkTok 13 "]" 2 0 false; mkTok 42 "_x" 3 0 false; mkTok 40 "," 3 3 false; mkTok 22 "u32" 4 4 false; mkTok 42 "trueish" 4 8 false; mkTok 44 "// c" 5 0 true; mkTok 44 "// packet A { u8 x, }" 6 0 true; mkTok 7 "@lengthOf(" 7 0 false; mkTok 42 "As" 7 11 false; mkTok 6 ")" 7 13 false; mkTok 43 "`a\`" 7 15 false; mkTok 40 "," 7 20 false; mkTok 5 "@calculatedFrom(" 7 21 false; mkTok 44 "// c" 8 4 true; mkTok 31 (string_of_bytes [34; 92; 195; 169; 34]%N) 9 4 false; mkTok 6 ")" 9 9 false; mkTok 19 "char" 9 11 false; mkTok 44 "//" 10 0 true; mkTok 44 "// a // b" 11 0 true; mkTok 42 "rootA" 12 0 false; mkTok 5 "@calculatedFrom(" 12 6 false; mkTok 31 """\n""" 12 23 false; mkTok 6 ")" 12 28 false; mkTok 40 "," 12 30 false; mkTok 3 "}" 13 0 false; mkTok 0 "<EOF>" 14 0 false] (mkPacket (mkPtok 35 "packet" 1 0 0) (Some (mkPtok 3 "}" 13 0 34)) [(DPacket (mkPacketDef (mkSpan (mkPtok 35 "packet" 1 0 0) (mkPtok 3 "}" 13 0 34)) None (mkPtok 35 "packet" 1 0 0) (mkPtok 42 "x" 1 7 1) (mkPtok 2 "{" 1 9 2) [(mkFieldWithAttr (mkSpan (mkPtok 32 "@rightPad" 1 10 3) (mkPtok 40 "," 3 3 12)) [(FAPadding (mkSpan (mkPtok 32 "@rightPad" 1 10 3) (mkPtok 6 ")" 1 30 6)) (mkPaddingAttr (mkSpan (mkPtok 32 "@rightPad" 1 10 3) (mkPtok 6 ")" 1 30 6)) (mkPtok 32 "@rightPad" 1 10 3) (mkPtok 8 "(" 1 20 4) (Some (mkPtok 33 "'\x00'" 1 22 5)) (mkPtok 6 ")" 1 30 6)))] (MetaField (mkSpan (mkPtok 12 "char[" 1 32 7) (mkPtok 40 "," 3 3 12)) None (mkMetaDecl (mkSpan (mkPtok 12 "char[" 1 32 7) (mkPtok 40 "," 3 3 12)) (TyFixed (mkSpan (mkPtok 12 "char[" 1 32 7) (mkPtok 13 "]" 2 0 10)) (mkFixedString (mkSpan (mkPtok 12 "char[" 1 32 7) (mkPtok 13 "]" 2 0 10)) (mkPtok 12 "char[" 1 32 7) (mkPtok 30 "10" 1 38 8) (mkPtok 13 "]" 2 0 10))) (mkPtok 42 "_x" 3 0 11) None (mkPtok 40 "," 3 3 12)))); (mkFieldWithAttr (mkSpan (mkPtok 22 "u32" 4 4 13) (mkPtok 40 "," 7 20 21)) [] (LengthField (mkSpan (mkPtok 22 "u32" 4 4 13) (mkPtok 40 "," 7 20 21)) (mkLengthFieldDecl (mkSpan (mkPtok 22 "u32" 4 4 13) (mkPtok 40 "," 7 20 21)) (Some (TyBasic (mkSpan (mkPtok 22 "u32" 4 4 13) (mkPtok 22 "u32" 4 4 13)) (mkBasicType (mkSpan (mkPtok 22 "u32" 4 4 13) (mkPtok 22 "u32" 4 4 13)) (mkPtok 22 "u32" 4 4 13)))) (mkPtok 42 "trueish" 4 8 14) (mkLengthOf (mkSpan (mkPtok 7 "@lengthOf(" 7 0 17) (mkPtok 6 ")" 7 13 19)) (mkPtok 7 "@lengthOf(" 7 0 17) (mkPtok 42 "As" 7 11 18) (mkPtok 6 ")" 7 13 19)) (Some (mkPtok 43 "`a\`" 7 15 20)) (mkPtok 40 "," 7 20 21)))); (mkFieldWithAttr (mkSpan (mkPtok 5 "@calculatedFrom(" 7 21 22) (mkPtok 40 "," 12 30 33)) [(FACalculatedFrom (mkSpan (mkPtok 5 "@calculatedFrom(" 7 21 22) (mkPtok 6 ")" 9 9 25)) (mkCalculatedFrom (mkSpan (mkPtok 5 "@calculatedFrom(" 7 21 22) (mkPtok 6 ")" 9 9 25)) (mkPtok 5 "@calculatedFrom(" 7 21 22) (mkPtok 31 (string_of_bytes [34; 92; 195; 169; 34]%N) 9 4 24) (mkPtok 6 ")" 9 9 25)))] (CheckSumField (mkSpan (mkPtok 19 "char" 9 11 26) (mkPtok 40 "," 12 30 33)) (mkChecksumFieldDecl (mkSpan (mkPtok 19 "char" 9 11 26) (mkPtok 40 "," 12 30 33)) (Some (TyBasic (mkSpan (mkPtok 19 "char" 9 11 26) (mkPtok 19 "char" 9 11 26)) (mkBasicType (mkSpan (mkPtok 19 "char" 9 11 26) (mkPtok 19 "char" 9 11 26)) (mkPtok 19 "char" 9 11 26)))) (mkPtok 42 "rootA" 12 0 29) (mkCalculatedFrom (mkSpan (mkPtok 5 "@calculatedFrom(" 12 6 30) (mkPtok 6 ")" 12 28 32)) (mkPtok 5 "@calculatedFrom(" 12 6 30) (mkPtok 31 """\n""" 12 23 31) (mkPtok 6 ")" 12 28 32)) None (mkPtok 40 "," 12 30 33))))] (mkPtok 3 "}" 13 0 34)))])).
+Eval vm_compute in ("<<<M409>>>" ++ check (runes_of_ascii "options { // a // b
+_x = ' ' ;}MetaData // `tick` ""quote"" 'q'
+u8x
+    { char crc // a // b
+`doc`
+// c
+//	t
+, u body ,
+zchar[  3 ] lengthOf
+,
+    x_y_z options1 ,
+    }
+    options // 50% %s
+{ } packet calculatedFrom {	@leftPad
+(
+// @lengthOf(
+// a // b
+' '
+    // a // b
+    ) char pack`" ++ [233]%N ++ runes_of_ascii "`
+,@calculatedFrom(""a	b"") match msg_type
+as A{ [ 0123456789  , 007 , /// triple
+""`tick`"", ""\" ++ [233]%N ++ runes_of_ascii """] : o	,42:
+    i64_
+} , x  @calculatedFrom( ""it's""  ),pack , chars {  uint8x
+, i8i8 @calculatedFrom(
+""abc"")
+    , tag {repeat falsey// " ++ [27880; 37322]%N ++ runes_of_ascii "
+`say ""hi""`, // " ++ [27880; 37322]%N ++ runes_of_ascii "
 repeat
+    metadata roots,match
+    lengthOf
+as
+// @lengthOf(
+/// triple
+asx	{[ 0123456789
+// " ++ [27880; 37322]%N ++ runes_of_ascii "
+// `tick` ""quote"" 'q'
+, 65535 ] :
+charz //	t
+, 1 : // `tick` ""quote"" 'q'
+chars, 7 : As ,
+    3 :
+    BodyLength  , ""x y""
+:
+Packet , ""a	b""  : trueish,
+}
+// " ++ [27880; 37322]%N ++ runes_of_ascii "
+// a // b
+,
+    // c
+    } // " ++ [128512]%N ++ runes_of_ascii " emoji
+,
+    float64
+i8i8  `
+`// packet A { u8 x, }
+,
+    } ,
+    @calculatedFrom(	""abc"" )
+    @tag( 255 )	@calculatedFrom( ""`tick`"" ) zchar[ 7 ] body
+@lengthOf( leftPad )
+    ,len
+{
+asx
+    A
+,
+} ,
+    @tag( 7
+    ) @calculatedFrom(""{,}"" )f64
+    MetaDataX ``	,	} root packet metadata
+    {
+repeat//	t
+char[ 0]
+    uint8x , }
+
+")).
+Eval vm_compute in ("<<<M441>>>" ++ check (runes_of_ascii "
+
+// 50% %s
+")).
+Eval vm_compute in ("<<<M473>>>" ++ check (runes_of_ascii "options {
+BodyLength	=	'0'lengthOf//	t
+=""abc"";
+} packet
+    u8x { tag zchar ,/// triple
+} //")).
+Eval vm_compute in ("<<<M505>>>" ++ check (runes_of_ascii "
+packet // a // b
+rootA
+{
+} options {	} MetaData body { //x
+i8i8 //
+A, i16 Header ,
+calculatedFrom
+T,	char[] packetx
+`say ""hi""` ,
+    Foo uint8x , int64 Header`doc`
+    ,
+} MetaData
+packetx{ i64 string_ `say ""hi""`
+    ,uint8 calculatedFrom ,
+    a1
+MetaDataX
+,MetaDataX tag ,f64 u8x,  f64
+    asx, } // `tick` ""quote"" 'q'")).
+Eval vm_compute in ("<<<M537>>>" ++ check (runes_of_ascii "root packet // @lengthOf(
+Foo { @lengthOf(
+    Logon )	@calculatedFrom(  ""{,}"" )
+@calculatedFrom( ""`tick`""
+) match
+    roots as charz { 7 :
+// a // b
+/// triple
+string_ } , u64 u @calculatedFrom( //x
+""\" ++ [233]%N ++ runes_of_ascii """ ),
+@tag(  007 ) @lengthOf( zchar) match body// 50% %s
+as trueish{ [	10
+,// @lengthOf(
+""packet""
+, 3//	t
+,0 ,
+    00 , """" ]
+    //	t
+    :  repeatCount , [4294967296 ]	: Logon
+[ ""CRC32""  ,""it's""  ] :
+    x_y_z ,}
+    , }	packet/// triple
+repeatCount	{matchKey{
+    repeat  char crc
+    ,char[  10 ]u8x @calculatedFrom(
+""1""
+    ) ,	char[]matchKey
+    @lengthOf( o ) , } , i32 T @lengthOf(	crc
+    )`" ++ [233]%N ++ runes_of_ascii "` , @lengthOf( Foo )calculatedFrom
+// trailing space 
+// @lengthOf(
+@lengthOf(
+options1 ),	Packet //x
+@lengthOf(
+repeatCount )
+,
+}")).
+Eval vm_compute in ("<<<M569>>>" ++ check (runes_of_ascii "root packet Packet { u128 x_y_z,	zchar[007]
+    i64_	@lengthOf( Pad
+) `a\` , // 50% %s
+uint8 charz	,@lengthOf(
+i8i8 )zchar
+,@rightPad() //x
+zchar[ 65535] i64_@lengthOf(  metadata )
+    ,
+@calculatedFrom( """" //	t
+) char[ 4294967296 ]lengthOf @calculatedFrom(
+    ""// no comment""  ) // " ++ [128512]%N ++ runes_of_ascii " emoji
+, // c
+@leftPad
+    (
+    ' '
+    )zchar[007 ] options1
+    , i64_  { f64 msg_type
+    , u8x {
+    repeat// " ++ [128512]%N ++ runes_of_ascii " emoji
+f32a
+    //	t
+    { roots@calculatedFrom( ""{,}"" )`tab	here` // " ++ [128512]%N ++ runes_of_ascii " emoji
+, }
+//x
+//x
+,/// triple
+} // a // b
+, u64 // " ++ [128512]%N ++ runes_of_ascii " emoji
+Logon
+, }// c
+, // trailing space 
+@lengthOf( i64_) char[ 3	] u8x  @lengthOf( // packet A { u8 x, }
+stringy
+) `two words`,
+// " ++ [128512]%N ++ runes_of_ascii " emoji
+//
+} MetaData f32a {}")).
+Eval vm_compute in ("<<<M601>>>" ++ check (runes_of_ascii "packet
+trueish { repeat matchKey // " ++ [27880; 37322]%N ++ runes_of_ascii "
+As `doc` , @calculatedFrom(""a\""b""	) Packet  Logon, // @lengthOf(
+i16 Z9_ // packet A { u8 x, }
+,  x_y_z { char charz
+@calculatedFrom(
+// @lengthOf(
+//	t
+""""
+)// a // b
+, repeat rootA repeatCount
+    ,
+repeat u128
+    f32a
+    `100% of %d` //	t
+, }	, match
+leftPad
+as // c
+string_ //
+{
+    // " ++ [128512]%N ++ runes_of_ascii " emoji
+    [
+    ""packet"" , ""x y""
+//x
+// packet A { u8 x, }
+,255 , ""abc""
+, 0123456789
+,	255 ,
+7
+] :	a1 ,
+}  , uint64 options1
+    @lengthOf( u8x ) `it's` , @leftPad( '0'// 50% %s
+)repeat
+    Header `say ""hi""` ,
+trueish zchar , @leftPad(
+    // c
+    '\x00'
+    )// " ++ [128512]%N ++ runes_of_ascii " emoji
+A // c
+@lengthOf(	crc	)
+//
+// " ++ [27880; 37322]%N ++ runes_of_ascii "
+, }
+    root
+    packet
+    i64_
+    { i64_
+    // trailing space 
+    `// not a comment`
+,
+string
+    i8i8 @calculatedFrom(
+""\" ++ [233]%N ++ runes_of_ascii """ // a // b
+)`doc` ,
+    }
+    packet Logon//	t
+{ @lengthOf( leftPad )
+u64 u128`" ++ [28040; 24687; 31867; 22411]%N ++ runes_of_ascii "` , }
+
+")).
+Eval vm_compute in ("<<<T601>>>" ++ terms [mkTok 35 "packet" 1 0 false; mkTok 42 "trueish" 2 0 false; mkTok 2 "{" 2 8 false; mkTok 36 "repeat" 2 10 false; mkTok 42 "matchKey" 2 17 false; mkTok 44 (string_of_bytes [47; 47; 32; 230; 179; 168; 233; 135; 138]%N) 2 26 true; mkTok 42 "As" 3 0 false; mkTok 43 "`doc`" 3 3 false; mkTok 40 "," 3 9 false; mkTok 5 "@calculatedFrom(" 3 11 false; mkTok 31 """a\""b""" 3 27 false; mkTok 6 ")" 3 34 false; mkTok 42 "Packet" 3 36 false; mkTok 42 "Logon" 3 44 false; mkTok 40 "," 3 49 false; mkTok 44 "// @lengthOf(" 3 51 true; mkTok 25 "i16" 4 0 false; mkTok 42 "Z9_" 4 4 false; mkTok 44 "// packet A { u8 x, }" 4 8 true; mkTok 40 "," 5 0 false; mkTok 42 "x_y_z" 5 3 false; mkTok 2 "{" 5 9 false; mkTok 19 "char" 5 11 false; mkTok 42 "charz" 5 16 false; mkTok 5 "@calculatedFrom(" 6 0 false; mkTok 44 "// @lengthOf(" 7 0 true; mkTok 44 (string_of_bytes [47; 47; 9; 116]%N) 8 0 true; mkTok 31 """""" 9 0 false; mkTok 6 ")" 10 0 false; mkTok 44 "// a // b" 10 1 true; mkTok 40 "," 11 0 false; mkTok 36 "repeat" 11 2 false; mkTok 42 "rootA" 11 9 false; mkTok 42 "repeatCount" 11 15 false; mkTok 40 "," 12 4 false; mkTok 36 "repeat" 13 0 false; mkTok 42 "u128" 13 7 false; mkTok 42 "f32a" 14 4 false; mkTok 43 "`100% of %d`" 15 4 false; mkTok 44 (string_of_bytes [47; 47; 9; 116]%N) 15 17 true; mkTok 40 "," 16 0 false; mkTok 3 "}" 16 2 false; mkTok 40 "," 16 4 false; mkTok 38 "match" 16 6 false; mkTok 42 "leftPad" 17 0 false; mkTok 17 "as" 18 0 false; mkTok 44 "// c" 18 3 true; mkTok 42 "string_" 19 0 false; mkTok 44 "//" 19 8 true; mkTok 2 "{" 20 0 false; mkTok 44 (string_of_bytes [47; 47; 32; 240; 159; 152; 128; 32; 101; 109; 111; 106; 105]%N) 21 4 true; mkTok 18 "[" 22 4 false; mkTok 31 """packet""" 23 4 false; mkTok 40 "," 23 13 false; mkTok 31 """x y""" 23 15 false; mkTok 44 "//x" 24 0 true; mkTok 44 "// packet A { u8 x, }" 25 0 true; mkTok 40 "," 26 0 false; mkTok 30 "255" 26 1 false; mkTok 40 "," 26 5 false; mkTok 31 """abc""" 26 7 false; mkTok 40 "," 27 0 false; mkTok 30 "0123456789" 27 2 false; mkTok 40 "," 28 0 false; mkTok 30 "255" 28 2 false; mkTok 40 "," 28 6 false; mkTok 30 "7" 29 0 false; mkTok 13 "]" 30 0 false; mkTok 39 ":" 30 2 false; mkTok 42 "a1" 30 4 false; mkTok 40 "," 30 7 false; mkTok 3 "}" 31 0 false; mkTok 40 "," 31 3 false; mkTok 23 "uint64" 31 5 false; mkTok 42 "options1" 31 12 false; mkTok 7 "@lengthOf(" 32 4 false; mkTok 42 "u8x" 32 15 false; mkTok 6 ")" 32 19 false; mkTok 43 "`it's`" 32 21 false; mkTok 40 "," 32 28 false; mkTok 32 "@leftPad" 32 30 false; mkTok 8 "(" 32 38 false; mkTok 33 "'0'" 32 40 false; mkTok 44 "// 50% %s" 32 43 true; mkTok 6 ")" 33 0 false; mkTok 36 "repeat" 33 1 false; mkTok 42 "Header" 34 4 false; mkTok 43 "`say ""hi""`" 34 11 false; mkTok 40 "," 34 22 false; mkTok 42 "trueish" 35 0 false; mkTok 42 "zchar" 35 8 false; mkTok 40 "," 35 14 false; mkTok 32 "@leftPad" 35 16 false; mkTok 8 "(" 35 24 false; mkTok 44 "// c" 36 4 true; mkTok 33 "'\x00'" 37 4 false; mkTok 6 ")" 38 4 false; mkTok 44 (string_of_bytes [47; 47; 32; 240; 159; 152; 128; 32; 101; 109; 111; 106; 105]%N) 38 5 true; mkTok 42 "A" 39 0 false; mkTok 44 "// c" 39 2 true; mkTok 7 "@lengthOf(" 40 0 false; mkTok 42 "crc" 40 11 false; mkTok 6 ")" 40 15 false; mkTok 44 "//" 41 0 true; mkTok 44 (string_of_bytes [47; 47; 32; 230; 179; 168; 233; 135; 138]%N) 42 0 true; mkTok 40 "," 43 0 false; mkTok 3 "}" 43 2 false; mkTok 34 "root" 44 4 false; mkTok 35 "packet" 45 4 false; mkTok 42 "i64_" 46 4 false; mkTok 2 "{" 47 4 false; mkTok 42 "i64_" 47 6 false; mkTok 44 "// trailing space " 48 4 true; mkTok 43 "`// not a comment`" 49 4 false; mkTok 40 "," 50 0 false; mkTok 15 "string" 51 0 false; mkTok 42 "i8i8" 52 4 false; mkTok 5 "@calculatedFrom(" 52 9 false; mkTok 31 (string_of_bytes [34; 92; 195; 169; 34]%N) 53 0 false; mkTok 44 "// a // b" 53 5 true; mkTok 6 ")" 54 0 false; mkTok 43 "`doc`" 54 1 false; mkTok 40 "," 54 7 false; mkTok 3 "}" 55 4 false; mkTok 35 "packet" 56 4 false; mkTok 42 "Logon" 56 11 false; mkTok 44 (string_of_bytes [47; 47; 9; 116]%N) 56 16 true; mkTok 2 "{" 57 0 false; mkTok 7 "@lengthOf(" 57 2 false; mkTok 42 "leftPad" 57 13 false; mkTok 6 ")" 57 21 false; mkTok 23 "u64" 58 0 false; mkTok 42 "u128" 58 4 false; mkTok 43 (string_of_bytes [96; 230; 182; 136; 230; 129; 175; 231; 177; 187; 229; 158; 139; 96]%N) 58 8 false; mkTok 40 "," 58 15 false; mkTok 3 "}" 58 17 false; mkTok 0 "<EOF>" 60 0 false] (mkPacket (mkPtok 35 "packet" 1 0 0) (Some (mkPtok 3 "}" 58 17 135)) [(DPacket (mkPacketDef (mkSpan (mkPtok 35 "packet" 1 0 0) (mkPtok 3 "}" 43 2 106)) None (mkPtok 35 "packet" 1 0 0) (mkPtok 42 "trueish" 2 0 1) (mkPtok 2 "{" 2 8 2) [(mkFieldWithAttr (mkSpan (mkPtok 36 "repeat" 2 10 3) (mkPtok 40 "," 3 9 8)) [] (ObjectField (mkSpan (mkPtok 36 "repeat" 2 10 3) (mkPtok 40 "," 3 9 8)) (Some (mkPtok 36 "repeat" 2 10 3)) (mkPtok 42 "matchKey" 2 17 4) (Some (mkPtok 42 "As" 3 0 6)) (Some (mkPtok 43 "`doc`" 3 3 7)) (mkPtok 40 "," 3 9 8))); (mkFieldWithAttr (mkSpan (mkPtok 5 "@calculatedFrom(" 3 11 9) (mkPtok 40 "," 3 49 14)) [(FACalculatedFrom (mkSpan (mkPtok 5 "@calculatedFrom(" 3 11 9) (mkPtok 6 ")" 3 34 11)) (mkCalculatedFrom (mkSpan (mkPtok 5 "@calculatedFrom(" 3 11 9) (mkPtok 6 ")" 3 34 11)) (mkPtok 5 "@calculatedFrom(" 3 11 9) (mkPtok 31 """a\""b""" 3 27 10) (mkPtok 6 ")" 3 34 11)))] (ObjectField (mkSpan (mkPtok 42 "Packet" 3 36 12) (mkPtok 40 "," 3 49 14)) None (mkPtok 42 "Packet" 3 36 12) (Some (mkPtok 42 "Logon" 3 44 13)) None (mkPtok 40 "," 3 49 14))); (mkFieldWithAttr (mkSpan (mkPtok 25 "i16" 4 0 16) (mkPtok 40 "," 5 0 19)) [] (MetaField (mkSpan (mkPtok 25 "i16" 4 0 16) (mkPtok 40 "," 5 0 19)) None (mkMetaDecl (mkSpan (mkPtok 25 "i16" 4 0 16) (mkPtok 40 "," 5 0 19)) (TyBasic (mkSpan (mkPtok 25 "i16" 4 0 16) (mkPtok 25 "i16" 4 0 16)) (mkBasicType (mkSpan (mkPtok 25 "i16" 4 0 16) (mkPtok 25 "i16" 4 0 16)) (mkPtok 25 "i16" 4 0 16))) (mkPtok 42 "Z9_" 4 4 17) None (mkPtok 40 "," 5 0 19)))); (mkFieldWithAttr (mkSpan (mkPtok 42 "x_y_z" 5 3 20) (mkPtok 40 "," 16 4 42)) [] (InerObjectField (mkSpan (mkPtok 42 "x_y_z" 5 3 20) (mkPtok 40 "," 16 4 42)) None (InerObjectDecl (mkSpan (mkPtok 42 "x_y_z" 5 3 20) (mkPtok 3 "}" 16 2 41)) (mkPtok 42 "x_y_z" 5 3 20) (mkPtok 2 "{" 5 9 21) [(CheckSumField (mkSpan (mkPtok 19 "char" 5 11 22) (mkPtok 40 "," 11 0 30)) (mkChecksumFieldDecl (mkSpan (mkPtok 19 "char" 5 11 22) (mkPtok 40 "," 11 0 30)) (Some (TyBasic (mkSpan (mkPtok 19 "char" 5 11 22) (mkPtok 19 "char" 5 11 22)) (mkBasicType (mkSpan (mkPtok 19 "char" 5 11 22) (mkPtok 19 "char" 5 11 22)) (mkPtok 19 "char" 5 11 22)))) (mkPtok 42 "charz" 5 16 23) (mkCalculatedFrom (mkSpan (mkPtok 5 "@calculatedFrom(" 6 0 24) (mkPtok 6 ")" 10 0 28)) (mkPtok 5 "@calculatedFrom(" 6 0 24) (mkPtok 31 """""" 9 0 27) (mkPtok 6 ")" 10 0 28)) None (mkPtok 40 "," 11 0 30))); (ObjectField (mkSpan (mkPtok 36 "repeat" 11 2 31) (mkPtok 40 "," 12 4 34)) (Some (mkPtok 36 "repeat" 11 2 31)) (mkPtok 42 "rootA" 11 9 32) (Some (mkPtok 42 "repeatCount" 11 15 33)) None (mkPtok 40 "," 12 4 34)); (ObjectField (mkSpan (mkPtok 36 "repeat" 13 0 35) (mkPtok 40 "," 16 0 40)) (Some (mkPtok 36 "repeat" 13 0 35)) (mkPtok 42 "u128" 13 7 36) (Some (mkPtok 42 "f32a" 14 4 37)) (Some (mkPtok 43 "`100% of %d`" 15 4 38)) (mkPtok 40 "," 16 0 40))] (mkPtok 3 "}" 16 2 41)) (mkPtok 40 "," 16 4 42))); (mkFieldWithAttr (mkSpan (mkPtok 38 "match" 16 6 43) (mkPtok 40 "," 31 3 72)) [] (MatchField (mkSpan (mkPtok 38 "match" 16 6 43) (mkPtok 40 "," 31 3 72)) (mkMatchFieldDecl (mkSpan (mkPtok 38 "match" 16 6 43) (mkPtok 3 "}" 31 0 71)) (mkPtok 38 "match" 16 6 43) (mkPtok 42 "leftPad" 17 0 44) (mkPtok 17 "as" 18 0 45) (mkPtok 42 "string_" 19 0 47) (mkPtok 2 "{" 20 0 49) [(mkMatchPair (mkSpan (mkPtok 18 "[" 22 4 51) (mkPtok 40 "," 30 7 70)) (MKList (mkKeyList (mkSpan (mkPtok 18 "[" 22 4 51) (mkPtok 13 "]" 30 0 67)) (mkPtok 18 "[" 22 4 51) (mkPtok 31 """packet""" 23 4 52) [((mkPtok 40 "," 23 13 53), (mkPtok 31 """x y""" 23 15 54)); ((mkPtok 40 "," 26 0 57), (mkPtok 30 "255" 26 1 58)); ((mkPtok 40 "," 26 5 59), (mkPtok 31 """abc""" 26 7 60)); ((mkPtok 40 "," 27 0 61), (mkPtok 30 "0123456789" 27 2 62)); ((mkPtok 40 "," 28 0 63), (mkPtok 30 "255" 28 2 64)); ((mkPtok 40 "," 28 6 65), (mkPtok 30 "7" 29 0 66))] (mkPtok 13 "]" 30 0 67))) (mkPtok 39 ":" 30 2 68) (mkPtok 42 "a1" 30 4 69) (Some (mkPtok 40 "," 30 7 70)))] (mkPtok 3 "}" 31 0 71)) (mkPtok 40 "," 31 3 72))); (mkFieldWithAttr (mkSpan (mkPtok 23 "uint64" 31 5 73) (mkPtok 40 "," 32 28 79)) [] (LengthField (mkSpan (mkPtok 23 "uint64" 31 5 73) (mkPtok 40 "," 32 28 79)) (mkLengthFieldDecl (mkSpan (mkPtok 23 "uint64" 31 5 73) (mkPtok 40 "," 32 28 79)) (Some (TyBasic (mkSpan (mkPtok 23 "uint64" 31 5 73) (mkPtok 23 "uint64" 31 5 73)) (mkBasicType (mkSpan (mkPtok 23 "uint64" 31 5 73) (mkPtok 23 "uint64" 31 5 73)) (mkPtok 23 "uint64" 31 5 73)))) (mkPtok 42 "options1" 31 12 74) (mkLengthOf (mkSpan (mkPtok 7 "@lengthOf(" 32 4 75) (mkPtok 6 ")" 32 19 77)) (mkPtok 7 "@lengthOf(" 32 4 75) (mkPtok 42 "u8x" 32 15 76) (mkPtok 6 ")" 32 19 77)) (Some (mkPtok 43 "`it's`" 32 21 78)) (mkPtok 40 "," 32 28 79)))); (mkFieldWithAttr (mkSpan (mkPtok 32 "@leftPad" 32 30 80) (mkPtok 40 "," 34 22 88)) [(FAPadding (mkSpan (mkPtok 32 "@leftPad" 32 30 80) (mkPtok 6 ")" 33 0 84)) (mkPaddingAttr (mkSpan (mkPtok 32 "@leftPad" 32 30 80) (mkPtok 6 ")" 33 0 84)) (mkPtok 32 "@leftPad" 32 30 80) (mkPtok 8 "(" 32 38 81) (Some (mkPtok 33 "'0'" 32 40 82)) (mkPtok 6 ")" 33 0 84)))] (ObjectField (mkSpan (mkPtok 36 "repeat" 33 1 85) (mkPtok 40 "," 34 22 88)) (Some (mkPtok 36 "repeat" 33 1 85)) (mkPtok 42 "Header" 34 4 86) None (Some (mkPtok 43 "`say ""hi""`" 34 11 87)) (mkPtok 40 "," 34 22 88))); (mkFieldWithAttr (mkSpan (mkPtok 42 "trueish" 35 0 89) (mkPtok 40 "," 35 14 91)) [] (ObjectField (mkSpan (mkPtok 42 "trueish" 35 0 89) (mkPtok 40 "," 35 14 91)) None (mkPtok 42 "trueish" 35 0 89) (Some (mkPtok 42 "zchar" 35 8 90)) None (mkPtok 40 "," 35 14 91))); (mkFieldWithAttr (mkSpan (mkPtok 32 "@leftPad" 35 16 92) (mkPtok 40 "," 43 0 105)) [(FAPadding (mkSpan (mkPtok 32 "@leftPad" 35 16 92) (mkPtok 6 ")" 38 4 96)) (mkPaddingAttr (mkSpan (mkPtok 32 "@leftPad" 35 16 92) (mkPtok 6 ")" 38 4 96)) (mkPtok 32 "@leftPad" 35 16 92) (mkPtok 8 "(" 35 24 93) (Some (mkPtok 33 "'\x00'" 37 4 95)) (mkPtok 6 ")" 38 4 96)))] (LengthField (mkSpan (mkPtok 42 "A" 39 0 98) (mkPtok 40 "," 43 0 105)) (mkLengthFieldDecl (mkSpan (mkPtok 42 "A" 39 0 98) (mkPtok 40 "," 43 0 105)) None (mkPtok 42 "A" 39 0 98) (mkLengthOf (mkSpan (mkPtok 7 "@lengthOf(" 40 0 100) (mkPtok 6 ")" 40 15 102)) (mkPtok 7 "@lengthOf(" 40 0 100) (mkPtok 42 "crc" 40 11 101) (mkPtok 6 ")" 40 15 102)) None (mkPtok 40 "," 43 0 105))))] (mkPtok 3 "}" 43 2 106))); (DPacket (mkPacketDef (mkSpan (mkPtok 34 "root" 44 4 107) (mkPtok 3 "}" 55 4 123)) (Some (mkPtok 34 "root" 44 4 107)) (mkPtok 35 "packet" 45 4 108) (mkPtok 42 "i64_" 46 4 109) (mkPtok 2 "{" 47 4 110) [(mkFieldWithAttr (mkSpan (mkPtok 42 "i64_" 47 6 111) (mkPtok 40 "," 50 0 114)) [] (ObjectField (mkSpan (mkPtok 42 "i64_" 47 6 111) (mkPtok 40 "," 50 0 114)) None (mkPtok 42 "i64_" 47 6 111) None (Some (mkPtok 43 "`// not a comment`" 49 4 113)) (mkPtok 40 "," 50 0 114))); (mkFieldWithAttr (mkSpan (mkPtok 15 "string" 51 0 115) (mkPtok 40 "," 54 7 122)) [] (CheckSumField (mkSpan (mkPtok 15 "string" 51 0 115) (mkPtok 40 "," 54 7 122)) (mkChecksumFieldDecl (mkSpan (mkPtok 15 "string" 51 0 115) (mkPtok 40 "," 54 7 122)) (Some (TyDynamic (mkSpan (mkPtok 15 "string" 51 0 115) (mkPtok 15 "string" 51 0 115)) (mkDynamicString (mkSpan (mkPtok 15 "string" 51 0 115) (mkPtok 15 "string" 51 0 115)) (mkPtok 15 "string" 51 0 115)))) (mkPtok 42 "i8i8" 52 4 116) (mkCalculatedFrom (mkSpan (mkPtok 5 "@calculatedFrom(" 52 9 117) (mkPtok 6 ")" 54 0 120)) (mkPtok 5 "@calculatedFrom(" 52 9 117) (mkPtok 31 (string_of_bytes [34; 92; 195; 169; 34]%N) 53 0 118) (mkPtok 6 ")" 54 0 120)) (Some (mkPtok 43 "`doc`" 54 1 121)) (mkPtok 40 "," 54 7 122))))] (mkPtok 3 "}" 55 4 123))); (DPacket (mkPacketDef (mkSpan (mkPtok 35 "packet" 56 4 124) (mkPtok 3 "}" 58 17 135)) None (mkPtok 35 "packet" 56 4 124) (mkPtok 42 "Logon" 56 11 125) (mkPtok 2 "{" 57 0 127) [(mkFieldWithAttr (mkSpan (mkPtok 7 "@lengthOf(" 57 2 128) (mkPtok 40 "," 58 15 134)) [(FALengthOf (mkSpan (mkPtok 7 "@lengthOf(" 57 2 128) (mkPtok 6 ")" 57 21 130)) (mkLengthOf (mkSpan (mkPtok 7 "@lengthOf(" 57 2 128) (mkPtok 6 ")" 57 21 130)) (mkPtok 7 "@lengthOf(" 57 2 128) (mkPtok 42 "leftPad" 57 13 129) (mkPtok 6 ")" 57 21 130)))] (MetaField (mkSpan (mkPtok 23 "u64" 58 0 131) (mkPtok 40 "," 58 15 134)) None (mkMetaDecl (mkSpan (mkPtok 23 "u64" 58 0 131) (mkPtok 40 "," 58 15 134)) (TyBasic (mkSpan (mkPtok 23 "u64" 58 0 131) (mkPtok 23 "u64" 58 0 131)) (mkBasicType (mkSpan (mkPtok 23 "u64" 58 0 131) (mkPtok 23 "u64" 58 0 131)) (mkPtok 23 "u64" 58 0 131))) (mkPtok 42 "u128" 58 4 132) (Some (mkPtok 43 (string_of_bytes [96; 230; 182; 136; 230; 129; 175; 231; 177; 187; 229; 158; 139; 96]%N) 58 8 133)) (mkPtok 40 "," 58 15 134))))] (mkPtok 3 "}" 58 17 135)))])).
+Eval vm_compute in ("<<<M633>>>" ++ check (runes_of_ascii "packet calculatedFrom
+{ }
+    MetaData Z9_{
+int8 Packet `100% of %d`
+    ,
+    }
+    MetaData T {
+i8i8
+    u128 `crlf
+line`
+    ,
+zchar[ 10
+] asx `u8 x,` , }")).
+Eval vm_compute in ("<<<M665>>>" ++ check (runes_of_ascii "
+MetaData float  {int16 options1 , int8 u128
+    `{ , }`, }")).
+Eval vm_compute in ("<<<M697>>>" ++ check (runes_of_ascii "options { Foo
+=zchar[ 42 ]	;
+uint8x= i32 ;
+_x= '\x00' // a // b
+metadata=u32 ;// " ++ [27880; 37322]%N ++ runes_of_ascii "
+}
+")).
+Eval vm_compute in ("<<<M729>>>" ++ check (@nil rune)).
+Eval vm_compute in ("<<<M761>>>" ++ check (runes_of_ascii "packet falsey{ u16 // " ++ [128512]%N ++ runes_of_ascii " emoji
+float
+// trailing space 
+//x
+, string body@lengthOf( stringy
+    ) `u8 x,` ,// " ++ [27880; 37322]%N ++ runes_of_ascii "
+@calculatedFrom( ""a\""b""
+//
+//
+)	MetaDataX @calculatedFrom( ""CRC32"" ) `it's` , @rightPad ( '0'
+) @leftPad ( '0' )@lengthOf( Foo )i8i8  calculatedFrom , //
+}
+    //	t
+    options
+{  x_y_z
+    //
+    = '0'	; } packet string_ { @rightPad
+(
+'0' )
+    repeat i8 // 50% %s
+leftPad ,leftPad roots , zchar[ 7 //
+] charz @calculatedFrom( ""1"" ) ,
+match
+Header as	leftPad { 10 :
+    falsey ,
+4294967296  : stringy 3: o[ 7 ,
+4294967296 , 007 , ""`tick`"" , 0123456789// 50% %s
+, 0123456789
 /// triple
 //x
-packetx A  ,
-match // " ++ [27880; 37322]%N ++ runes_of_ascii "
-string_ as msg_type { [""abc""] :
-As 0123456789 :  repeatCount
-    , ""a\""b"" :
-roots, } , },uint8x BodyLength `{ , }`
-, string  BodyLength,@leftPad(
-    '\x00'
-) repeat calculatedFrom { uint32 //	t
-trueish ,/// triple
-}, // c
-} // a // b")).
-Eval vm_compute in ("<<<M377>>>" ++ check (runes_of_ascii "packet	matchKey { } packet rootA {} root packet lengthOf { // trailing space 
-@tag(
-0 //x
-)uint16 repeatCount
-    , //x
-uint32 rootA @calculatedFrom(""it's""
-// packet A { u8 x, }
-// `tick` ""quote"" 'q'
-)
-,
-//	t
-// a // b
-string uint8x /// triple
-,  u128@calculatedFrom(
-""" ++ [28040; 24687]%N ++ runes_of_ascii """ ) ,@leftPad
-( '\x00' ) u  `a\` , @leftPad( ' ' ) @calculatedFrom(
-""1"" ) @lengthOf( int )match msg_type
-// " ++ [128512]%N ++ runes_of_ascii " emoji
-// a // b
-as Pad{
-""abc""// " ++ [27880; 37322]%N ++ runes_of_ascii "
-: asx }
-    , options1 {
-    char[]  metadata // trailing space 
-, Logon@lengthOf( zchar ) , repeatCount {
-zchar[255 ] tag
-    ,x_y_z msg_type,// `tick` ""quote"" 'q'
-pack, MetaDataX @lengthOf(  falsey )
-    , }
-, zchar  @lengthOf( Header  )
-,  } ,@tag( 42 ) char[
-    007 ] i64_
-,
-// trailing space 
-//	t
-@lengthOf( As
-) match crc  as/// triple
-MetaDataX {65535 :leftPad
-""a\""b"" : BodyLength , 42:	crc
+,""1""
+,""a\""b""
+] : rootA // " ++ [128512]%N ++ runes_of_ascii " emoji
+,""a\""b"" : MetaDataX
+    , },	int16 u8x
+@calculatedFrom(	""" ++ [233]%N ++ runes_of_ascii "t" ++ [233]%N ++ runes_of_ascii """ ) ,
+char
+//x
+// " ++ [27880; 37322]%N ++ runes_of_ascii "
+leftPad , zchar[
+0123456789
+] Packet  @calculatedFrom(	""\" ++ [233]%N ++ runes_of_ascii """) , f32a x	, // a // b
+string i8i8  @lengthOf( len
+    ) ,
+    } MetaData // " ++ [128512]%N ++ runes_of_ascii " emoji
+msg_type { len trueish, i16 msg_type`it's`, char[] falsey`` ,
+    // trailing space 
+    string
+tag , }	packet trueish  { int32 Packet@lengthOf(
+    chars ) `doc` , i8i8 { repeat //
+packetx uint8x
+    ,repeat uint64// 50% %s
+Header `say ""hi""`, } , @calculatedFrom( ""packet""
+) tag
+    // 50% %s
     ,
-    // " ++ [27880; 37322]%N ++ runes_of_ascii "
-    0123456789: body , ""abc""
-:	stringy
-,	""CRC32"":
-    x_y_z,} ,
-    //
-    int32 Header @lengthOf(
+    @lengthOf( rootA  )
+@lengthOf(
+trueish ) match	trueish
+as options1 { 42
+    : matchKey  ,} , i64 u8x
+    ,@rightPad// packet A { u8 x, }
+(
+' ' ) char[	3 ] MetaDataX
+@calculatedFrom(""" ++ [28040; 24687]%N ++ runes_of_ascii """ )
+    , @lengthOf( len	)@tag( 10 )char[] As @lengthOf( Header
+)
+    // @lengthOf(
+    `` ,@tag( 42	) Logon { repeat u32 a1, stringy @calculatedFrom(""" ++ [233]%N ++ runes_of_ascii "t" ++ [233]%N ++ runes_of_ascii """	) ,
+repeat len, }
+//x
 // @lengthOf(
-//
-asx // " ++ [27880; 37322]%N ++ runes_of_ascii "
-) , } packet packetx
-{	}root packet
-float//	t
-{ @tag( 1 ) @lengthOf(
-_x) @leftPad ( '0'
-    )
-repeat // c
-i64_ ,}
+,
+    u128 // trailing space 
+u128  , }")).
+Eval vm_compute in ("<<<M793>>>" ++ check (runes_of_ascii "packet As {}root packet f32a { }
 ")).
-Eval vm_compute in ("<<<T377>>>" ++ terms [mkTok 35 "packet" 1 0 false; mkTok 42 "matchKey" 1 7 false; mkTok 2 "{" 1 16 false; mkTok 3 "}" 1 18 false; mkTok 35 "packet" 1 20 false; mkTok 42 "rootA" 1 27 false; mkTok 2 "{" 1 33 false; mkTok 3 "}" 1 34 false; mkTok 34 "root" 1 36 false; mkTok 35 "packet" 1 41 false; mkTok 42 "lengthOf" 1 48 false; mkTok 2 "{" 1 57 false; mkTok 44 "// trailing space " 1 59 true; mkTok 9 "@tag(" 2 0 false; mkTok 30 "0" 3 0 false; mkTok 44 "//x" 3 2 true; mkTok 6 ")" 4 0 false; mkTok 21 "uint16" 4 1 false; mkTok 42 "repeatCount" 4 8 false; mkTok 40 "," 5 4 false; mkTok 44 "//x" 5 6 true; mkTok 22 "uint32" 6 0 false; mkTok 42 "rootA" 6 7 false; mkTok 5 "@calculatedFrom(" 6 13 false; mkTok 31 """it's""" 6 29 false; mkTok 44 "// packet A { u8 x, }" 7 0 true; mkTok 44 "// `tick` ""quote"" 'q'" 8 0 true; mkTok 6 ")" 9 0 false; mkTok 40 "," 10 0 false; mkTok 44 (string_of_bytes [47; 47; 9; 116]%N) 11 0 true; mkTok 44 "// a // b" 12 0 true; mkTok 15 "string" 13 0 false; mkTok 42 "uint8x" 13 7 false; mkTok 44 "/// triple" 13 14 true; mkTok 40 "," 14 0 false; mkTok 42 "u128" 14 3 false; mkTok 5 "@calculatedFrom(" 14 7 false; mkTok 31 (string_of_bytes [34; 230; 182; 136; 230; 129; 175; 34]%N) 15 0 false; mkTok 6 ")" 15 5 false; mkTok 40 "," 15 7 false; mkTok 32 "@leftPad" 15 8 false; mkTok 8 "(" 16 0 false; mkTok 33 "'\x00'" 16 2 false; mkTok 6 ")" 16 9 false; mkTok 42 "u" 16 11 false; mkTok 43 "`a\`" 16 14 false; mkTok 40 "," 16 19 false; mkTok 32 "@leftPad" 16 21 false; mkTok 8 "(" 16 29 false; mkTok 33 "' '" 16 31 false; mkTok 6 ")" 16 35 false; mkTok 5 "@calculatedFrom(" 16 37 false; mkTok 31 """1""" 17 0 false; mkTok 6 ")" 17 4 false; mkTok 7 "@lengthOf(" 17 6 false; mkTok 42 "int" 17 17 false; mkTok 6 ")" 17 21 false; mkTok 38 "match" 17 22 false; mkTok 42 "msg_type" 17 28 false; mkTok 44 (string_of_bytes [47; 47; 32; 240; 159; 152; 128; 32; 101; 109; 111; 106; 105]%N) 18 0 true; mkTok 44 "// a // b" 19 0 true; mkTok 17 "as" 20 0 false; mkTok 42 "Pad" 20 3 false; mkTok 2 "{" 20 6 false; mkTok 31 """abc""" 21 0 false; mkTok 44 (string_of_bytes [47; 47; 32; 230; 179; 168; 233; 135; 138]%N) 21 5 true; mkTok 39 ":" 22 0 false; mkTok 42 "asx" 22 2 false; mkTok 3 "}" 22 6 false; mkTok 40 "," 23 4 false; mkTok 42 "options1" 23 6 false; mkTok 2 "{" 23 15 false; mkTok 16 "char[]" 24 4 false; mkTok 42 "metadata" 24 12 false; mkTok 44 "// trailing space " 24 21 true; mkTok 40 "," 25 0 false; mkTok 42 "Logon" 25 2 false; mkTok 7 "@lengthOf(" 25 7 false; mkTok 42 "zchar" 25 18 false; mkTok 6 ")" 25 24 false; mkTok 40 "," 25 26 false; mkTok 42 "repeatCount" 25 28 false; mkTok 2 "{" 25 40 false; mkTok 14 "zchar[" 26 0 false; mkTok 30 "255" 26 6 false; mkTok 13 "]" 26 10 false; mkTok 42 "tag" 26 12 false; mkTok 40 "," 27 4 false; mkTok 42 "x_y_z" 27 5 false; mkTok 42 "msg_type" 27 11 false; mkTok 40 "," 27 19 false; mkTok 44 "// `tick` ""quote"" 'q'" 27 20 true; mkTok 42 "pack" 28 0 false; mkTok 40 "," 28 4 false; mkTok 42 "MetaDataX" 28 6 false; mkTok 7 "@lengthOf(" 28 16 false; mkTok 42 "falsey" 28 28 false; mkTok 6 ")" 28 35 false; mkTok 40 "," 29 4 false; mkTok 3 "}" 29 6 false; mkTok 40 "," 30 0 false; mkTok 42 "zchar" 30 2 false; mkTok 7 "@lengthOf(" 30 9 false; mkTok 42 "Header" 30 20 false; mkTok 6 ")" 30 28 false; mkTok 40 "," 31 0 false; mkTok 3 "}" 31 3 false; mkTok 40 "," 31 5 false; mkTok 9 "@tag(" 31 6 false; mkTok 30 "42" 31 12 false; mkTok 6 ")" 31 15 false; mkTok 12 "char[" 31 17 false; mkTok 30 "007" 32 4 false; mkTok 13 "]" 32 8 false; mkTok 42 "i64_" 32 10 false; mkTok 40 "," 33 0 false; mkTok 44 "// trailing space " 34 0 true; mkTok 44 (string_of_bytes [47; 47; 9; 116]%N) 35 0 true; mkTok 7 "@lengthOf(" 36 0 false; mkTok 42 "As" 36 11 false; mkTok 6 ")" 37 0 false; mkTok 38 "match" 37 2 false; mkTok 42 "crc" 37 8 false; mkTok 17 "as" 37 13 false; mkTok 44 "/// triple" 37 15 true; mkTok 42 "MetaDataX" 38 0 false; mkTok 2 "{" 38 10 false; mkTok 30 "65535" 38 11 false; mkTok 39 ":" 38 17 false; mkTok 42 "leftPad" 38 18 false; mkTok 31 """a\""b""" 39 0 false; mkTok 39 ":" 39 7 false; mkTok 42 "BodyLength" 39 9 false; mkTok 40 "," 39 20 false; mkTok 30 "42" 39 22 false; mkTok 39 ":" 39 24 false; mkTok 42 "crc" 39 26 false; mkTok 40 "," 40 4 false; mkTok 44 (string_of_bytes [47; 47; 32; 230; 179; 168; 233; 135; 138]%N) 41 4 true; mkTok 30 "0123456789" 42 4 false; mkTok 39 ":" 42 14 false; mkTok 42 "body" 42 16 false; mkTok 40 "," 42 21 false; mkTok 31 """abc""" 42 23 false; mkTok 39 ":" 43 0 false; mkTok 42 "stringy" 43 2 false; mkTok 40 "," 44 0 false; mkTok 31 """CRC32""" 44 2 false; mkTok 39 ":" 44 9 false; mkTok 42 "x_y_z" 45 4 false; mkTok 40 "," 45 9 false; mkTok 3 "}" 45 10 false; mkTok 40 "," 45 12 false; mkTok 44 "//" 46 4 true; mkTok 26 "int32" 47 4 false; mkTok 42 "Header" 47 10 false; mkTok 7 "@lengthOf(" 47 17 false; mkTok 44 "// @lengthOf(" 48 0 true; mkTok 44 "//" 49 0 true; mkTok 42 "asx" 50 0 false; mkTok 44 (string_of_bytes [47; 47; 32; 230; 179; 168; 233; 135; 138]%N) 50 4 true; mkTok 6 ")" 51 0 false; mkTok 40 "," 51 2 false; mkTok 3 "}" 51 4 false; mkTok 35 "packet" 51 6 false; mkTok 42 "packetx" 51 13 false; mkTok 2 "{" 52 0 false; mkTok 3 "}" 52 2 false; mkTok 34 "root" 52 3 false; mkTok 35 "packet" 52 8 false; mkTok 42 "float" 53 0 false; mkTok 44 (string_of_bytes [47; 47; 9; 116]%N) 53 5 true; mkTok 2 "{" 54 0 false; mkTok 9 "@tag(" 54 2 false; mkTok 30 "1" 54 8 false; mkTok 6 ")" 54 10 false; mkTok 7 "@lengthOf(" 54 12 false; mkTok 42 "_x" 55 0 false; mkTok 6 ")" 55 2 false; mkTok 32 "@leftPad" 55 4 false; mkTok 8 "(" 55 13 false; mkTok 33 "'0'" 55 15 false; mkTok 6 ")" 56 4 false; mkTok 36 "repeat" 57 0 false; mkTok 44 "// c" 57 7 true; mkTok 42 "i64_" 58 0 false; mkTok 40 "," 58 5 false; mkTok 3 "}" 58 6 false; mkTok 0 "<EOF>" 59 0 false] (mkPacket (mkPtok 35 "packet" 1 0 0) (Some (mkPtok 3 "}" 58 6 187)) [(DPacket (mkPacketDef (mkSpan (mkPtok 35 "packet" 1 0 0) (mkPtok 3 "}" 1 18 3)) None (mkPtok 35 "packet" 1 0 0) (mkPtok 42 "matchKey" 1 7 1) (mkPtok 2 "{" 1 16 2) [] (mkPtok 3 "}" 1 18 3))); (DPacket (mkPacketDef (mkSpan (mkPtok 35 "packet" 1 20 4) (mkPtok 3 "}" 1 34 7)) None (mkPtok 35 "packet" 1 20 4) (mkPtok 42 "rootA" 1 27 5) (mkPtok 2 "{" 1 33 6) [] (mkPtok 3 "}" 1 34 7))); (DPacket (mkPacketDef (mkSpan (mkPtok 34 "root" 1 36 8) (mkPtok 3 "}" 51 4 163)) (Some (mkPtok 34 "root" 1 36 8)) (mkPtok 35 "packet" 1 41 9) (mkPtok 42 "lengthOf" 1 48 10) (mkPtok 2 "{" 1 57 11) [(mkFieldWithAttr (mkSpan (mkPtok 9 "@tag(" 2 0 13) (mkPtok 40 "," 5 4 19)) [(FATag (mkSpan (mkPtok 9 "@tag(" 2 0 13) (mkPtok 6 ")" 4 0 16)) (mkTagAttr (mkSpan (mkPtok 9 "@tag(" 2 0 13) (mkPtok 6 ")" 4 0 16)) (mkPtok 9 "@tag(" 2 0 13) (mkPtok 30 "0" 3 0 14) (mkPtok 6 ")" 4 0 16)))] (MetaField (mkSpan (mkPtok 21 "uint16" 4 1 17) (mkPtok 40 "," 5 4 19)) None (mkMetaDecl (mkSpan (mkPtok 21 "uint16" 4 1 17) (mkPtok 40 "," 5 4 19)) (TyBasic (mkSpan (mkPtok 21 "uint16" 4 1 17) (mkPtok 21 "uint16" 4 1 17)) (mkBasicType (mkSpan (mkPtok 21 "uint16" 4 1 17) (mkPtok 21 "uint16" 4 1 17)) (mkPtok 21 "uint16" 4 1 17))) (mkPtok 42 "repeatCount" 4 8 18) None (mkPtok 40 "," 5 4 19)))); (mkFieldWithAttr (mkSpan (mkPtok 22 "uint32" 6 0 21) (mkPtok 40 "," 10 0 28)) [] (CheckSumField (mkSpan (mkPtok 22 "uint32" 6 0 21) (mkPtok 40 "," 10 0 28)) (mkChecksumFieldDecl (mkSpan (mkPtok 22 "uint32" 6 0 21) (mkPtok 40 "," 10 0 28)) (Some (TyBasic (mkSpan (mkPtok 22 "uint32" 6 0 21) (mkPtok 22 "uint32" 6 0 21)) (mkBasicType (mkSpan (mkPtok 22 "uint32" 6 0 21) (mkPtok 22 "uint32" 6 0 21)) (mkPtok 22 "uint32" 6 0 21)))) (mkPtok 42 "rootA" 6 7 22) (mkCalculatedFrom (mkSpan (mkPtok 5 "@calculatedFrom(" 6 13 23) (mkPtok 6 ")" 9 0 27)) (mkPtok 5 "@calculatedFrom(" 6 13 23) (mkPtok 31 """it's""" 6 29 24) (mkPtok 6 ")" 9 0 27)) None (mkPtok 40 "," 10 0 28)))); (mkFieldWithAttr (mkSpan (mkPtok 15 "string" 13 0 31) (mkPtok 40 "," 14 0 34)) [] (MetaField (mkSpan (mkPtok 15 "string" 13 0 31) (mkPtok 40 "," 14 0 34)) None (mkMetaDecl (mkSpan (mkPtok 15 "string" 13 0 31) (mkPtok 40 "," 14 0 34)) (TyDynamic (mkSpan (mkPtok 15 "string" 13 0 31) (mkPtok 15 "string" 13 0 31)) (mkDynamicString (mkSpan (mkPtok 15 "string" 13 0 31) (mkPtok 15 "string" 13 0 31)) (mkPtok 15 "string" 13 0 31))) (mkPtok 42 "uint8x" 13 7 32) None (mkPtok 40 "," 14 0 34)))); (mkFieldWithAttr (mkSpan (mkPtok 42 "u128" 14 3 35) (mkPtok 40 "," 15 7 39)) [] (CheckSumField (mkSpan (mkPtok 42 "u128" 14 3 35) (mkPtok 40 "," 15 7 39)) (mkChecksumFieldDecl (mkSpan (mkPtok 42 "u128" 14 3 35) (mkPtok 40 "," 15 7 39)) None (mkPtok 42 "u128" 14 3 35) (mkCalculatedFrom (mkSpan (mkPtok 5 "@calculatedFrom(" 14 7 36) (mkPtok 6 ")" 15 5 38)) (mkPtok 5 "@calculatedFrom(" 14 7 36) (mkPtok 31 (string_of_bytes [34; 230; 182; 136; 230; 129; 175; 34]%N) 15 0 37) (mkPtok 6 ")" 15 5 38)) None (mkPtok 40 "," 15 7 39)))); (mkFieldWithAttr (mkSpan (mkPtok 32 "@leftPad" 15 8 40) (mkPtok 40 "," 16 19 46)) [(FAPadding (mkSpan (mkPtok 32 "@leftPad" 15 8 40) (mkPtok 6 ")" 16 9 43)) (mkPaddingAttr (mkSpan (mkPtok 32 "@leftPad" 15 8 40) (mkPtok 6 ")" 16 9 43)) (mkPtok 32 "@leftPad" 15 8 40) (mkPtok 8 "(" 16 0 41) (Some (mkPtok 33 "'\x00'" 16 2 42)) (mkPtok 6 ")" 16 9 43)))] (ObjectField (mkSpan (mkPtok 42 "u" 16 11 44) (mkPtok 40 "," 16 19 46)) None (mkPtok 42 "u" 16 11 44) None (Some (mkPtok 43 "`a\`" 16 14 45)) (mkPtok 40 "," 16 19 46))); (mkFieldWithAttr (mkSpan (mkPtok 32 "@leftPad" 16 21 47) (mkPtok 40 "," 23 4 69)) [(FAPadding (mkSpan (mkPtok 32 "@leftPad" 16 21 47) (mkPtok 6 ")" 16 35 50)) (mkPaddingAttr (mkSpan (mkPtok 32 "@leftPad" 16 21 47) (mkPtok 6 ")" 16 35 50)) (mkPtok 32 "@leftPad" 16 21 47) (mkPtok 8 "(" 16 29 48) (Some (mkPtok 33 "' '" 16 31 49)) (mkPtok 6 ")" 16 35 50))); (FACalculatedFrom (mkSpan (mkPtok 5 "@calculatedFrom(" 16 37 51) (mkPtok 6 ")" 17 4 53)) (mkCalculatedFrom (mkSpan (mkPtok 5 "@calculatedFrom(" 16 37 51) (mkPtok 6 ")" 17 4 53)) (mkPtok 5 "@calculatedFrom(" 16 37 51) (mkPtok 31 """1""" 17 0 52) (mkPtok 6 ")" 17 4 53))); (FALengthOf (mkSpan (mkPtok 7 "@lengthOf(" 17 6 54) (mkPtok 6 ")" 17 21 56)) (mkLengthOf (mkSpan (mkPtok 7 "@lengthOf(" 17 6 54) (mkPtok 6 ")" 17 21 56)) (mkPtok 7 "@lengthOf(" 17 6 54) (mkPtok 42 "int" 17 17 55) (mkPtok 6 ")" 17 21 56)))] (MatchField (mkSpan (mkPtok 38 "match" 17 22 57) (mkPtok 40 "," 23 4 69)) (mkMatchFieldDecl (mkSpan (mkPtok 38 "match" 17 22 57) (mkPtok 3 "}" 22 6 68)) (mkPtok 38 "match" 17 22 57) (mkPtok 42 "msg_type" 17 28 58) (mkPtok 17 "as" 20 0 61) (mkPtok 42 "Pad" 20 3 62) (mkPtok 2 "{" 20 6 63) [(mkMatchPair (mkSpan (mkPtok 31 """abc""" 21 0 64) (mkPtok 42 "asx" 22 2 67)) (MKString (mkPtok 31 """abc""" 21 0 64)) (mkPtok 39 ":" 22 0 66) (mkPtok 42 "asx" 22 2 67) None)] (mkPtok 3 "}" 22 6 68)) (mkPtok 40 "," 23 4 69))); (mkFieldWithAttr (mkSpan (mkPtok 42 "options1" 23 6 70) (mkPtok 40 "," 31 5 107)) [] (InerObjectField (mkSpan (mkPtok 42 "options1" 23 6 70) (mkPtok 40 "," 31 5 107)) None (InerObjectDecl (mkSpan (mkPtok 42 "options1" 23 6 70) (mkPtok 3 "}" 31 3 106)) (mkPtok 42 "options1" 23 6 70) (mkPtok 2 "{" 23 15 71) [(MetaField (mkSpan (mkPtok 16 "char[]" 24 4 72) (mkPtok 40 "," 25 0 75)) None (mkMetaDecl (mkSpan (mkPtok 16 "char[]" 24 4 72) (mkPtok 40 "," 25 0 75)) (TyDynamic (mkSpan (mkPtok 16 "char[]" 24 4 72) (mkPtok 16 "char[]" 24 4 72)) (mkDynamicString (mkSpan (mkPtok 16 "char[]" 24 4 72) (mkPtok 16 "char[]" 24 4 72)) (mkPtok 16 "char[]" 24 4 72))) (mkPtok 42 "metadata" 24 12 73) None (mkPtok 40 "," 25 0 75))); (LengthField (mkSpan (mkPtok 42 "Logon" 25 2 76) (mkPtok 40 "," 25 26 80)) (mkLengthFieldDecl (mkSpan (mkPtok 42 "Logon" 25 2 76) (mkPtok 40 "," 25 26 80)) None (mkPtok 42 "Logon" 25 2 76) (mkLengthOf (mkSpan (mkPtok 7 "@lengthOf(" 25 7 77) (mkPtok 6 ")" 25 24 79)) (mkPtok 7 "@lengthOf(" 25 7 77) (mkPtok 42 "zchar" 25 18 78) (mkPtok 6 ")" 25 24 79)) None (mkPtok 40 "," 25 26 80))); (InerObjectField (mkSpan (mkPtok 42 "repeatCount" 25 28 81) (mkPtok 40 "," 30 0 100)) None (InerObjectDecl (mkSpan (mkPtok 42 "repeatCount" 25 28 81) (mkPtok 3 "}" 29 6 99)) (mkPtok 42 "repeatCount" 25 28 81) (mkPtok 2 "{" 25 40 82) [(MetaField (mkSpan (mkPtok 14 "zchar[" 26 0 83) (mkPtok 40 "," 27 4 87)) None (mkMetaDecl (mkSpan (mkPtok 14 "zchar[" 26 0 83) (mkPtok 40 "," 27 4 87)) (TyFixed (mkSpan (mkPtok 14 "zchar[" 26 0 83) (mkPtok 13 "]" 26 10 85)) (mkFixedString (mkSpan (mkPtok 14 "zchar[" 26 0 83) (mkPtok 13 "]" 26 10 85)) (mkPtok 14 "zchar[" 26 0 83) (mkPtok 30 "255" 26 6 84) (mkPtok 13 "]" 26 10 85))) (mkPtok 42 "tag" 26 12 86) None (mkPtok 40 "," 27 4 87))); (ObjectField (mkSpan (mkPtok 42 "x_y_z" 27 5 88) (mkPtok 40 "," 27 19 90)) None (mkPtok 42 "x_y_z" 27 5 88) (Some (mkPtok 42 "msg_type" 27 11 89)) None (mkPtok 40 "," 27 19 90)); (ObjectField (mkSpan (mkPtok 42 "pack" 28 0 92) (mkPtok 40 "," 28 4 93)) None (mkPtok 42 "pack" 28 0 92) None None (mkPtok 40 "," 28 4 93)); (LengthField (mkSpan (mkPtok 42 "MetaDataX" 28 6 94) (mkPtok 40 "," 29 4 98)) (mkLengthFieldDecl (mkSpan (mkPtok 42 "MetaDataX" 28 6 94) (mkPtok 40 "," 29 4 98)) None (mkPtok 42 "MetaDataX" 28 6 94) (mkLengthOf (mkSpan (mkPtok 7 "@lengthOf(" 28 16 95) (mkPtok 6 ")" 28 35 97)) (mkPtok 7 "@lengthOf(" 28 16 95) (mkPtok 42 "falsey" 28 28 96) (mkPtok 6 ")" 28 35 97)) None (mkPtok 40 "," 29 4 98)))] (mkPtok 3 "}" 29 6 99)) (mkPtok 40 "," 30 0 100)); (LengthField (mkSpan (mkPtok 42 "zchar" 30 2 101) (mkPtok 40 "," 31 0 105)) (mkLengthFieldDecl (mkSpan (mkPtok 42 "zchar" 30 2 101) (mkPtok 40 "," 31 0 105)) None (mkPtok 42 "zchar" 30 2 101) (mkLengthOf (mkSpan (mkPtok 7 "@lengthOf(" 30 9 102) (mkPtok 6 ")" 30 28 104)) (mkPtok 7 "@lengthOf(" 30 9 102) (mkPtok 42 "Header" 30 20 103) (mkPtok 6 ")" 30 28 104)) None (mkPtok 40 "," 31 0 105)))] (mkPtok 3 "}" 31 3 106)) (mkPtok 40 "," 31 5 107))); (mkFieldWithAttr (mkSpan (mkPtok 9 "@tag(" 31 6 108) (mkPtok 40 "," 33 0 115)) [(FATag (mkSpan (mkPtok 9 "@tag(" 31 6 108) (mkPtok 6 ")" 31 15 110)) (mkTagAttr (mkSpan (mkPtok 9 "@tag(" 31 6 108) (mkPtok 6 ")" 31 15 110)) (mkPtok 9 "@tag(" 31 6 108) (mkPtok 30 "42" 31 12 109) (mkPtok 6 ")" 31 15 110)))] (MetaField (mkSpan (mkPtok 12 "char[" 31 17 111) (mkPtok 40 "," 33 0 115)) None (mkMetaDecl (mkSpan (mkPtok 12 "char[" 31 17 111) (mkPtok 40 "," 33 0 115)) (TyFixed (mkSpan (mkPtok 12 "char[" 31 17 111) (mkPtok 13 "]" 32 8 113)) (mkFixedString (mkSpan (mkPtok 12 "char[" 31 17 111) (mkPtok 13 "]" 32 8 113)) (mkPtok 12 "char[" 31 17 111) (mkPtok 30 "007" 32 4 112) (mkPtok 13 "]" 32 8 113))) (mkPtok 42 "i64_" 32 10 114) None (mkPtok 40 "," 33 0 115)))); (mkFieldWithAttr (mkSpan (mkPtok 7 "@lengthOf(" 36 0 118) (mkPtok 40 "," 45 12 152)) [(FALengthOf (mkSpan (mkPtok 7 "@lengthOf(" 36 0 118) (mkPtok 6 ")" 37 0 120)) (mkLengthOf (mkSpan (mkPtok 7 "@lengthOf(" 36 0 118) (mkPtok 6 ")" 37 0 120)) (mkPtok 7 "@lengthOf(" 36 0 118) (mkPtok 42 "As" 36 11 119) (mkPtok 6 ")" 37 0 120)))] (MatchField (mkSpan (mkPtok 38 "match" 37 2 121) (mkPtok 40 "," 45 12 152)) (mkMatchFieldDecl (mkSpan (mkPtok 38 "match" 37 2 121) (mkPtok 3 "}" 45 10 151)) (mkPtok 38 "match" 37 2 121) (mkPtok 42 "crc" 37 8 122) (mkPtok 17 "as" 37 13 123) (mkPtok 42 "MetaDataX" 38 0 125) (mkPtok 2 "{" 38 10 126) [(mkMatchPair (mkSpan (mkPtok 30 "65535" 38 11 127) (mkPtok 42 "leftPad" 38 18 129)) (MKDigits (mkPtok 30 "65535" 38 11 127)) (mkPtok 39 ":" 38 17 128) (mkPtok 42 "leftPad" 38 18 129) None); (mkMatchPair (mkSpan (mkPtok 31 """a\""b""" 39 0 130) (mkPtok 40 "," 39 20 133)) (MKString (mkPtok 31 """a\""b""" 39 0 130)) (mkPtok 39 ":" 39 7 131) (mkPtok 42 "BodyLength" 39 9 132) (Some (mkPtok 40 "," 39 20 133))); (mkMatchPair (mkSpan (mkPtok 30 "42" 39 22 134) (mkPtok 40 "," 40 4 137)) (MKDigits (mkPtok 30 "42" 39 22 134)) (mkPtok 39 ":" 39 24 135) (mkPtok 42 "crc" 39 26 136) (Some (mkPtok 40 "," 40 4 137))); (mkMatchPair (mkSpan (mkPtok 30 "0123456789" 42 4 139) (mkPtok 40 "," 42 21 142)) (MKDigits (mkPtok 30 "0123456789" 42 4 139)) (mkPtok 39 ":" 42 14 140) (mkPtok 42 "body" 42 16 141) (Some (mkPtok 40 "," 42 21 142))); (mkMatchPair (mkSpan (mkPtok 31 """abc""" 42 23 143) (mkPtok 40 "," 44 0 146)) (MKString (mkPtok 31 """abc""" 42 23 143)) (mkPtok 39 ":" 43 0 144) (mkPtok 42 "stringy" 43 2 145) (Some (mkPtok 40 "," 44 0 146))); (mkMatchPair (mkSpan (mkPtok 31 """CRC32""" 44 2 147) (mkPtok 40 "," 45 9 150)) (MKString (mkPtok 31 """CRC32""" 44 2 147)) (mkPtok 39 ":" 44 9 148) (mkPtok 42 "x_y_z" 45 4 149) (Some (mkPtok 40 "," 45 9 150)))] (mkPtok 3 "}" 45 10 151)) (mkPtok 40 "," 45 12 152))); (mkFieldWithAttr (mkSpan (mkPtok 26 "int32" 47 4 154) (mkPtok 40 "," 51 2 162)) [] (LengthField (mkSpan (mkPtok 26 "int32" 47 4 154) (mkPtok 40 "," 51 2 162)) (mkLengthFieldDecl (mkSpan (mkPtok 26 "int32" 47 4 154) (mkPtok 40 "," 51 2 162)) (Some (TyBasic (mkSpan (mkPtok 26 "int32" 47 4 154) (mkPtok 26 "int32" 47 4 154)) (mkBasicType (mkSpan (mkPtok 26 "int32" 47 4 154) (mkPtok 26 "int32" 47 4 154)) (mkPtok 26 "int32" 47 4 154)))) (mkPtok 42 "Header" 47 10 155) (mkLengthOf (mkSpan (mkPtok 7 "@lengthOf(" 47 17 156) (mkPtok 6 ")" 51 0 161)) (mkPtok 7 "@lengthOf(" 47 17 156) (mkPtok 42 "asx" 50 0 159) (mkPtok 6 ")" 51 0 161)) None (mkPtok 40 "," 51 2 162))))] (mkPtok 3 "}" 51 4 163))); (DPacket (mkPacketDef (mkSpan (mkPtok 35 "packet" 51 6 164) (mkPtok 3 "}" 52 2 167)) None (mkPtok 35 "packet" 51 6 164) (mkPtok 42 "packetx" 51 13 165) (mkPtok 2 "{" 52 0 166) [] (mkPtok 3 "}" 52 2 167))); (DPacket (mkPacketDef (mkSpan (mkPtok 34 "root" 52 3 168) (mkPtok 3 "}" 58 6 187)) (Some (mkPtok 34 "root" 52 3 168)) (mkPtok 35 "packet" 52 8 169) (mkPtok 42 "float" 53 0 170) (mkPtok 2 "{" 54 0 172) [(mkFieldWithAttr (mkSpan (mkPtok 9 "@tag(" 54 2 173) (mkPtok 40 "," 58 5 186)) [(FATag (mkSpan (mkPtok 9 "@tag(" 54 2 173) (mkPtok 6 ")" 54 10 175)) (mkTagAttr (mkSpan (mkPtok 9 "@tag(" 54 2 173) (mkPtok 6 ")" 54 10 175)) (mkPtok 9 "@tag(" 54 2 173) (mkPtok 30 "1" 54 8 174) (mkPtok 6 ")" 54 10 175))); (FALengthOf (mkSpan (mkPtok 7 "@lengthOf(" 54 12 176) (mkPtok 6 ")" 55 2 178)) (mkLengthOf (mkSpan (mkPtok 7 "@lengthOf(" 54 12 176) (mkPtok 6 ")" 55 2 178)) (mkPtok 7 "@lengthOf(" 54 12 176) (mkPtok 42 "_x" 55 0 177) (mkPtok 6 ")" 55 2 178))); (FAPadding (mkSpan (mkPtok 32 "@leftPad" 55 4 179) (mkPtok 6 ")" 56 4 182)) (mkPaddingAttr (mkSpan (mkPtok 32 "@leftPad" 55 4 179) (mkPtok 6 ")" 56 4 182)) (mkPtok 32 "@leftPad" 55 4 179) (mkPtok 8 "(" 55 13 180) (Some (mkPtok 33 "'0'" 55 15 181)) (mkPtok 6 ")" 56 4 182)))] (ObjectField (mkSpan (mkPtok 36 "repeat" 57 0 183) (mkPtok 40 "," 58 5 186)) (Some (mkPtok 36 "repeat" 57 0 183)) (mkPtok 42 "i64_" 58 0 185) None None (mkPtok 40 "," 58 5 186)))] (mkPtok 3 "}" 58 6 187)))])).
-Eval vm_compute in ("<<<M409>>>" ++ check (runes_of_ascii "packet lengthOf
-{ }")).
-Eval vm_compute in ("<<<M441>>>" ++ check (runes_of_ascii "
+Eval vm_compute in ("<<<M825>>>" ++ check (runes_of_ascii "options { charz =
+    false
+    ; uint8x =	'0'
+    ; } // " ++ [27880; 37322]%N)).
+Eval vm_compute in ("<<<T825>>>" ++ terms [mkTok 1 "options" 1 0 false; mkTok 2 "{" 1 8 false; mkTok 42 "charz" 1 10 false; mkTok 4 "=" 1 16 false; mkTok 11 "false" 2 4 false; mkTok 41 ";" 3 4 false; mkTok 42 "uint8x" 3 6 false; mkTok 4 "=" 3 13 false; mkTok 33 "'0'" 3 15 false; mkTok 41 ";" 4 4 false; mkTok 3 "}" 4 6 false; mkTok 44 (string_of_bytes [47; 47; 32; 230; 179; 168; 233; 135; 138]%N) 4 8 true; mkTok 0 "<EOF>" 4 13 false] (mkPacket (mkPtok 1 "options" 1 0 0) (Some (mkPtok 3 "}" 4 6 10)) [(DOption (mkOptionDef (mkSpan (mkPtok 1 "options" 1 0 0) (mkPtok 3 "}" 4 6 10)) (mkPtok 1 "options" 1 0 0) (mkPtok 2 "{" 1 8 1) [(mkOptionDecl (mkSpan (mkPtok 42 "charz" 1 10 2) (mkPtok 41 ";" 3 4 5)) (mkPtok 42 "charz" 1 10 2) (mkPtok 4 "=" 1 16 3) (VFalse (mkSpan (mkPtok 11 "false" 2 4 4) (mkPtok 11 "false" 2 4 4)) (mkPtok 11 "false" 2 4 4)) (Some (mkPtok 41 ";" 3 4 5))); (mkOptionDecl (mkSpan (mkPtok 42 "uint8x" 3 6 6) (mkPtok 41 ";" 4 4 9)) (mkPtok 42 "uint8x" 3 6 6) (mkPtok 4 "=" 3 13 7) (VPaddingChar (mkSpan (mkPtok 33 "'0'" 3 15 8) (mkPtok 33 "'0'" 3 15 8)) (mkPtok 33 "'0'" 3 15 8)) (Some (mkPtok 41 ";" 4 4 9)))] (mkPtok 3 "}" 4 6 10)))])).
+Eval vm_compute in ("<<<M857>>>" ++ check (runes_of_ascii "
+packet
+    options1{ zchar[ 255] leftPad	,
+} packet
+    repeatCount { }MetaData	pack
+// " ++ [27880; 37322]%N ++ runes_of_ascii "
+//x
+{
+char[ 00]BodyLength , zchar[//	t
+0123456789
+    ] metadata, zchar[ 65535 ] rootA
+`a\`,
+uint32 msg_type
+, Foo f32a , }")).
+Eval vm_compute in ("<<<M889>>>" ++ check (runes_of_ascii "root
+packet repeatCount
+{string chars
+    // `tick` ""quote"" 'q'
+    , } options	{ matchKey =	""a	b"";}root
+packet repeatCount{ @tag( 0 ) char[ 00 ] T  `" ++ [233]%N ++ runes_of_ascii "` ,
+x @lengthOf(
+chars )
+, @tag(
+// a // b
+// " ++ [27880; 37322]%N ++ runes_of_ascii "
+007)A @calculatedFrom( ""{,}"" ) `line1
+line2` , // @lengthOf(
+@tag( 65535//
+)
+u,@lengthOf( f32a
+)
+char[]
+    A `{ , }` , i64 u@lengthOf(
+zchar
+    //x
+    ) , lengthOf {
+string	chars
+@lengthOf( Foo )
+    `100% of %d`,
+repeat
+i8i8{
+    rootA
+    len	`crlf
+line` , T  @lengthOf(
+T
+) ,// @lengthOf(
+} , string msg_type @calculatedFrom(
+""a	b"" ) , } ,	x_y_z{  char[] uint8x @calculatedFrom(""a\""b""	)  `it's` , x_y_z @lengthOf(
+lengthOf	) , match
+    //	t
+    chars	as  Packet	{[""1"", 007
+] :
+    Header,
+    255 :MetaDataX // " ++ [128512]%N ++ runes_of_ascii " emoji
+,
+    007
+: pack , ""abc"" : As //	t
+, } ,zchar[3]
+tag
+    @calculatedFrom(
+    ""// no comment"" ) `two words` // a // b
+,},}
+")).
+Eval vm_compute in ("<<<M921>>>" ++ check (runes_of_ascii "packet chars {	@calculatedFrom(
+""// no comment"" )	Logon @lengthOf( //x
+rootA )	, match
+    // @lengthOf(
+    T as
+    calculatedFrom
+{[ 0
+]:
+    metadata ,	}
+, @lengthOf( // 50% %s
+string_)
+//
+// packet A { u8 x, }
+repeat
+    uint8x // c
+falsey , @rightPad
+(	'\x00') trueish
+@calculatedFrom(  """ ++ [28040; 24687]%N ++ runes_of_ascii """
+/// triple
+// " ++ [128512]%N ++ runes_of_ascii " emoji
+)`{ , }`, }
+")).
+Eval vm_compute in ("<<<M953>>>" ++ check (runes_of_ascii "MetaData body
+    //x
+    { // c
+} packet matchKey
+{}
+")).
+Eval vm_compute in ("<<<M985>>>" ++ check (runes_of_ascii "packet
+    // " ++ [128512]%N ++ runes_of_ascii " emoji
+    Z9_ // c
+{lengthOf{ char[] u128
+,
+    u32
+o , }, } options
+    {} MetaData len // c
+{ char
+//x
+/// triple
+Logon  ,	repeatCount lengthOf
+    // a // b
+    ,
+Z9_ // `tick` ""quote"" 'q'
+o ,  string MetaDataX `say ""hi""` , char[  1 //
+]
+    calculatedFrom
+    `
+` , u
+//
+/// triple
+tag,
+} //")).
+Eval vm_compute in ("<<<M1017>>>" ++ check (runes_of_ascii "
+options {metadata = 3 u8x
+    =
+    false repeatCount=
+    i64 ;
+Z9_
+    = false}")).
+Eval vm_compute in ("<<<M1049>>>" ++ check (runes_of_ascii "
+packet Pad  {
+    }packet packetx{ //x
+repeatCount	, // packet A { u8 x, }
+@leftPad
+(
+'\x00' ) tag	@lengthOf( u128 ) ,MetaDataX	@calculatedFrom( // a // b
+""\" ++ [233]%N ++ runes_of_ascii """
+    ) `tab	here`, // a // b
+uint16 body
+@calculatedFrom( ""abc"") `say ""hi""` , // trailing space 
+}
+    packet // packet A { u8 x, }
+x{ u16 a1  `crlf
+line` , }root packet Z9_ {
+    @calculatedFrom(""CRC32"" ) repeat
+string pack
+`say ""hi""` ,
+repeat
+zchar[ 3] charz , //	t
+i16 f32a @calculatedFrom(""{,}""
+    )
+, } packet
+len {@lengthOf(//
+crc ) zchar[ 00
+//x
+// packet A { u8 x, }
+] f32a @calculatedFrom( ""it's"" // packet A { u8 x, }
+)
+, // " ++ [128512]%N ++ runes_of_ascii " emoji
+} 	 ")).
+Eval vm_compute in ("<<<T1049>>>" ++ terms [mkTok 35 "packet" 2 0 false; mkTok 42 "Pad" 2 7 false; mkTok 2 "{" 2 12 false; mkTok 3 "}" 3 4 false; mkTok 35 "packet" 3 5 false; mkTok 42 "packetx" 3 12 false; mkTok 2 "{" 3 19 false; mkTok 44 "//x" 3 21 true; mkTok 42 "repeatCount" 4 0 false; mkTok 40 "," 4 12 false; mkTok 44 "// packet A { u8 x, }" 4 14 true; mkTok 32 "@leftPad" 5 0 false; mkTok 8 "(" 6 0 false; mkTok 33 "'\x00'" 7 0 false; mkTok 6 ")" 7 7 false; mkTok 42 "tag" 7 9 false; mkTok 7 "@lengthOf(" 7 13 false; mkTok 42 "u128" 7 24 false; mkTok 6 ")" 7 29 false; mkTok 40 "," 7 31 false; mkTok 42 "MetaDataX" 7 32 false; mkTok 5 "@calculatedFrom(" 7 42 false; mkTok 44 "// a // b" 7 59 true; mkTok 31 (string_of_bytes [34; 92; 195; 169; 34]%N) 8 0 false; mkTok 6 ")" 9 4 false; mkTok 43 (string_of_bytes [96; 116; 97; 98; 9; 104; 101; 114; 101; 96]%N) 9 6 false; mkTok 40 "," 9 16 false; mkTok 44 "// a // b" 9 18 true; mkTok 21 "uint16" 10 0 false; mkTok 42 "body" 10 7 false; mkTok 5 "@calculatedFrom(" 11 0 false; mkTok 31 """abc""" 11 17 false; mkTok 6 ")" 11 22 false; mkTok 43 "`say ""hi""`" 11 24 false; mkTok 40 "," 11 35 false; mkTok 44 "// trailing space " 11 37 true; mkTok 3 "}" 12 0 false; mkTok 35 "packet" 13 4 false; mkTok 44 "// packet A { u8 x, }" 13 11 true; mkTok 42 "x" 14 0 false; mkTok 2 "{" 14 1 false; mkTok 21 "u16" 14 3 false; mkTok 42 "a1" 14 7 false; mkTok 43 (string_of_bytes [96; 99; 114; 108; 102; 13; 10; 108; 105; 110; 101; 96]%N) 14 11 false; mkTok 40 "," 15 6 false; mkTok 3 "}" 15 8 false; mkTok 34 "root" 15 9 false; mkTok 35 "packet" 15 14 false; mkTok 42 "Z9_" 15 21 false; mkTok 2 "{" 15 25 false; mkTok 5 "@calculatedFrom(" 16 4 false; mkTok 31 """CRC32""" 16 20 false; mkTok 6 ")" 16 28 false; mkTok 36 "repeat" 16 30 false; mkTok 15 "string" 17 0 false; mkTok 42 "pack" 17 7 false; mkTok 43 "`say ""hi""`" 18 0 false; mkTok 40 "," 18 11 false; mkTok 36 "repeat" 19 0 false; mkTok 14 "zchar[" 20 0 false; mkTok 30 "3" 20 7 false; mkTok 13 "]" 20 8 false; mkTok 42 "charz" 20 10 false; mkTok 40 "," 20 16 false; mkTok 44 (string_of_bytes [47; 47; 9; 116]%N) 20 18 true; mkTok 25 "i16" 21 0 false; mkTok 42 "f32a" 21 4 false; mkTok 5 "@calculatedFrom(" 21 9 false; mkTok 31 """{,}""" 21 25 false; mkTok 6 ")" 22 4 false; mkTok 40 "," 23 0 false; mkTok 3 "}" 23 2 false; mkTok 35 "packet" 23 4 false; mkTok 42 "len" 24 0 false; mkTok 2 "{" 24 4 false; mkTok 7 "@lengthOf(" 24 5 false; mkTok 44 "//" 24 15 true; mkTok 42 "crc" 25 0 false; mkTok 6 ")" 25 4 false; mkTok 14 "zchar[" 25 6 false; mkTok 30 "00" 25 13 false; mkTok 44 "//x" 26 0 true; mkTok 44 "// packet A { u8 x, }" 27 0 true; mkTok 13 "]" 28 0 false; mkTok 42 "f32a" 28 2 false; mkTok 5 "@calculatedFrom(" 28 7 false; mkTok 31 """it's""" 28 24 false; mkTok 44 "// packet A { u8 x, }" 28 31 true; mkTok 6 ")" 29 0 false; mkTok 40 "," 30 0 false; mkTok 44 (string_of_bytes [47; 47; 32; 240; 159; 152; 128; 32; 101; 109; 111; 106; 105]%N) 30 2 true; mkTok 3 "}" 31 0 false; mkTok 0 "<EOF>" 31 4 false] (mkPacket (mkPtok 35 "packet" 2 0 0) (Some (mkPtok 3 "}" 31 0 91)) [(DPacket (mkPacketDef (mkSpan (mkPtok 35 "packet" 2 0 0) (mkPtok 3 "}" 3 4 3)) None (mkPtok 35 "packet" 2 0 0) (mkPtok 42 "Pad" 2 7 1) (mkPtok 2 "{" 2 12 2) [] (mkPtok 3 "}" 3 4 3))); (DPacket (mkPacketDef (mkSpan (mkPtok 35 "packet" 3 5 4) (mkPtok 3 "}" 12 0 36)) None (mkPtok 35 "packet" 3 5 4) (mkPtok 42 "packetx" 3 12 5) (mkPtok 2 "{" 3 19 6) [(mkFieldWithAttr (mkSpan (mkPtok 42 "repeatCount" 4 0 8) (mkPtok 40 "," 4 12 9)) [] (ObjectField (mkSpan (mkPtok 42 "repeatCount" 4 0 8) (mkPtok 40 "," 4 12 9)) None (mkPtok 42 "repeatCount" 4 0 8) None None (mkPtok 40 "," 4 12 9))); (mkFieldWithAttr (mkSpan (mkPtok 32 "@leftPad" 5 0 11) (mkPtok 40 "," 7 31 19)) [(FAPadding (mkSpan (mkPtok 32 "@leftPad" 5 0 11) (mkPtok 6 ")" 7 7 14)) (mkPaddingAttr (mkSpan (mkPtok 32 "@leftPad" 5 0 11) (mkPtok 6 ")" 7 7 14)) (mkPtok 32 "@leftPad" 5 0 11) (mkPtok 8 "(" 6 0 12) (Some (mkPtok 33 "'\x00'" 7 0 13)) (mkPtok 6 ")" 7 7 14)))] (LengthField (mkSpan (mkPtok 42 "tag" 7 9 15) (mkPtok 40 "," 7 31 19)) (mkLengthFieldDecl (mkSpan (mkPtok 42 "tag" 7 9 15) (mkPtok 40 "," 7 31 19)) None (mkPtok 42 "tag" 7 9 15) (mkLengthOf (mkSpan (mkPtok 7 "@lengthOf(" 7 13 16) (mkPtok 6 ")" 7 29 18)) (mkPtok 7 "@lengthOf(" 7 13 16) (mkPtok 42 "u128" 7 24 17) (mkPtok 6 ")" 7 29 18)) None (mkPtok 40 "," 7 31 19)))); (mkFieldWithAttr (mkSpan (mkPtok 42 "MetaDataX" 7 32 20) (mkPtok 40 "," 9 16 26)) [] (CheckSumField (mkSpan (mkPtok 42 "MetaDataX" 7 32 20) (mkPtok 40 "," 9 16 26)) (mkChecksumFieldDecl (mkSpan (mkPtok 42 "MetaDataX" 7 32 20) (mkPtok 40 "," 9 16 26)) None (mkPtok 42 "MetaDataX" 7 32 20) (mkCalculatedFrom (mkSpan (mkPtok 5 "@calculatedFrom(" 7 42 21) (mkPtok 6 ")" 9 4 24)) (mkPtok 5 "@calculatedFrom(" 7 42 21) (mkPtok 31 (string_of_bytes [34; 92; 195; 169; 34]%N) 8 0 23) (mkPtok 6 ")" 9 4 24)) (Some (mkPtok 43 (string_of_bytes [96; 116; 97; 98; 9; 104; 101; 114; 101; 96]%N) 9 6 25)) (mkPtok 40 "," 9 16 26)))); (mkFieldWithAttr (mkSpan (mkPtok 21 "uint16" 10 0 28) (mkPtok 40 "," 11 35 34)) [] (CheckSumField (mkSpan (mkPtok 21 "uint16" 10 0 28) (mkPtok 40 "," 11 35 34)) (mkChecksumFieldDecl (mkSpan (mkPtok 21 "uint16" 10 0 28) (mkPtok 40 "," 11 35 34)) (Some (TyBasic (mkSpan (mkPtok 21 "uint16" 10 0 28) (mkPtok 21 "uint16" 10 0 28)) (mkBasicType (mkSpan (mkPtok 21 "uint16" 10 0 28) (mkPtok 21 "uint16" 10 0 28)) (mkPtok 21 "uint16" 10 0 28)))) (mkPtok 42 "body" 10 7 29) (mkCalculatedFrom (mkSpan (mkPtok 5 "@calculatedFrom(" 11 0 30) (mkPtok 6 ")" 11 22 32)) (mkPtok 5 "@calculatedFrom(" 11 0 30) (mkPtok 31 """abc""" 11 17 31) (mkPtok 6 ")" 11 22 32)) (Some (mkPtok 43 "`say ""hi""`" 11 24 33)) (mkPtok 40 "," 11 35 34))))] (mkPtok 3 "}" 12 0 36))); (DPacket (mkPacketDef (mkSpan (mkPtok 35 "packet" 13 4 37) (mkPtok 3 "}" 15 8 45)) None (mkPtok 35 "packet" 13 4 37) (mkPtok 42 "x" 14 0 39) (mkPtok 2 "{" 14 1 40) [(mkFieldWithAttr (mkSpan (mkPtok 21 "u16" 14 3 41) (mkPtok 40 "," 15 6 44)) [] (MetaField (mkSpan (mkPtok 21 "u16" 14 3 41) (mkPtok 40 "," 15 6 44)) None (mkMetaDecl (mkSpan (mkPtok 21 "u16" 14 3 41) (mkPtok 40 "," 15 6 44)) (TyBasic (mkSpan (mkPtok 21 "u16" 14 3 41) (mkPtok 21 "u16" 14 3 41)) (mkBasicType (mkSpan (mkPtok 21 "u16" 14 3 41) (mkPtok 21 "u16" 14 3 41)) (mkPtok 21 "u16" 14 3 41))) (mkPtok 42 "a1" 14 7 42) (Some (mkPtok 43 (string_of_bytes [96; 99; 114; 108; 102; 13; 10; 108; 105; 110; 101; 96]%N) 14 11 43)) (mkPtok 40 "," 15 6 44))))] (mkPtok 3 "}" 15 8 45))); (DPacket (mkPacketDef (mkSpan (mkPtok 34 "root" 15 9 46) (mkPtok 3 "}" 23 2 71)) (Some (mkPtok 34 "root" 15 9 46)) (mkPtok 35 "packet" 15 14 47) (mkPtok 42 "Z9_" 15 21 48) (mkPtok 2 "{" 15 25 49) [(mkFieldWithAttr (mkSpan (mkPtok 5 "@calculatedFrom(" 16 4 50) (mkPtok 40 "," 18 11 57)) [(FACalculatedFrom (mkSpan (mkPtok 5 "@calculatedFrom(" 16 4 50) (mkPtok 6 ")" 16 28 52)) (mkCalculatedFrom (mkSpan (mkPtok 5 "@calculatedFrom(" 16 4 50) (mkPtok 6 ")" 16 28 52)) (mkPtok 5 "@calculatedFrom(" 16 4 50) (mkPtok 31 """CRC32""" 16 20 51) (mkPtok 6 ")" 16 28 52)))] (MetaField (mkSpan (mkPtok 36 "repeat" 16 30 53) (mkPtok 40 "," 18 11 57)) (Some (mkPtok 36 "repeat" 16 30 53)) (mkMetaDecl (mkSpan (mkPtok 15 "string" 17 0 54) (mkPtok 40 "," 18 11 57)) (TyDynamic (mkSpan (mkPtok 15 "string" 17 0 54) (mkPtok 15 "string" 17 0 54)) (mkDynamicString (mkSpan (mkPtok 15 "string" 17 0 54) (mkPtok 15 "string" 17 0 54)) (mkPtok 15 "string" 17 0 54))) (mkPtok 42 "pack" 17 7 55) (Some (mkPtok 43 "`say ""hi""`" 18 0 56)) (mkPtok 40 "," 18 11 57)))); (mkFieldWithAttr (mkSpan (mkPtok 36 "repeat" 19 0 58) (mkPtok 40 "," 20 16 63)) [] (MetaField (mkSpan (mkPtok 36 "repeat" 19 0 58) (mkPtok 40 "," 20 16 63)) (Some (mkPtok 36 "repeat" 19 0 58)) (mkMetaDecl (mkSpan (mkPtok 14 "zchar[" 20 0 59) (mkPtok 40 "," 20 16 63)) (TyFixed (mkSpan (mkPtok 14 "zchar[" 20 0 59) (mkPtok 13 "]" 20 8 61)) (mkFixedString (mkSpan (mkPtok 14 "zchar[" 20 0 59) (mkPtok 13 "]" 20 8 61)) (mkPtok 14 "zchar[" 20 0 59) (mkPtok 30 "3" 20 7 60) (mkPtok 13 "]" 20 8 61))) (mkPtok 42 "charz" 20 10 62) None (mkPtok 40 "," 20 16 63)))); (mkFieldWithAttr (mkSpan (mkPtok 25 "i16" 21 0 65) (mkPtok 40 "," 23 0 70)) [] (CheckSumField (mkSpan (mkPtok 25 "i16" 21 0 65) (mkPtok 40 "," 23 0 70)) (mkChecksumFieldDecl (mkSpan (mkPtok 25 "i16" 21 0 65) (mkPtok 40 "," 23 0 70)) (Some (TyBasic (mkSpan (mkPtok 25 "i16" 21 0 65) (mkPtok 25 "i16" 21 0 65)) (mkBasicType (mkSpan (mkPtok 25 "i16" 21 0 65) (mkPtok 25 "i16" 21 0 65)) (mkPtok 25 "i16" 21 0 65)))) (mkPtok 42 "f32a" 21 4 66) (mkCalculatedFrom (mkSpan (mkPtok 5 "@calculatedFrom(" 21 9 67) (mkPtok 6 ")" 22 4 69)) (mkPtok 5 "@calculatedFrom(" 21 9 67) (mkPtok 31 """{,}""" 21 25 68) (mkPtok 6 ")" 22 4 69)) None (mkPtok 40 "," 23 0 70))))] (mkPtok 3 "}" 23 2 71))); (DPacket (mkPacketDef (mkSpan (mkPtok 35 "packet" 23 4 72) (mkPtok 3 "}" 31 0 91)) None (mkPtok 35 "packet" 23 4 72) (mkPtok 42 "len" 24 0 73) (mkPtok 2 "{" 24 4 74) [(mkFieldWithAttr (mkSpan (mkPtok 7 "@lengthOf(" 24 5 75) (mkPtok 40 "," 30 0 89)) [(FALengthOf (mkSpan (mkPtok 7 "@lengthOf(" 24 5 75) (mkPtok 6 ")" 25 4 78)) (mkLengthOf (mkSpan (mkPtok 7 "@lengthOf(" 24 5 75) (mkPtok 6 ")" 25 4 78)) (mkPtok 7 "@lengthOf(" 24 5 75) (mkPtok 42 "crc" 25 0 77) (mkPtok 6 ")" 25 4 78)))] (CheckSumField (mkSpan (mkPtok 14 "zchar[" 25 6 79) (mkPtok 40 "," 30 0 89)) (mkChecksumFieldDecl (mkSpan (mkPtok 14 "zchar[" 25 6 79) (mkPtok 40 "," 30 0 89)) (Some (TyFixed (mkSpan (mkPtok 14 "zchar[" 25 6 79) (mkPtok 13 "]" 28 0 83)) (mkFixedString (mkSpan (mkPtok 14 "zchar[" 25 6 79) (mkPtok 13 "]" 28 0 83)) (mkPtok 14 "zchar[" 25 6 79) (mkPtok 30 "00" 25 13 80) (mkPtok 13 "]" 28 0 83)))) (mkPtok 42 "f32a" 28 2 84) (mkCalculatedFrom (mkSpan (mkPtok 5 "@calculatedFrom(" 28 7 85) (mkPtok 6 ")" 29 0 88)) (mkPtok 5 "@calculatedFrom(" 28 7 85) (mkPtok 31 """it's""" 28 24 86) (mkPtok 6 ")" 29 0 88)) None (mkPtok 40 "," 30 0 89))))] (mkPtok 3 "}" 31 0 91)))])).
+Eval vm_compute in ("<<<M1081>>>" ++ check (runes_of_ascii "// " ++ [27880; 37322]%N ++ runes_of_ascii "
+root
+packet trueish
+{leftPad //x
+x, stringy//
+@lengthOf( leftPad )`a\`
+    ,	@calculatedFrom( ""a	b"" ) As float , zchar[
+7 ] Logon@lengthOf(
+    u)
+    `" ++ [28040; 24687; 31867; 22411]%N ++ runes_of_ascii "`
+, @calculatedFrom( ""\n"")
+    repeat Packet ,//x
+match A as
+i8i8 { 10: int
+,[
+//x
+//
+00 ,	4294967296 ,
+//x
+//	t
+""1"" // trailing space 
+, 007 ]
+: asx
+10
+:u128  ,
+},} options
+    {
+    u128
+=//	t
+'\x00'
+}")).
+Eval vm_compute in ("<<<M1113>>>" ++ check (runes_of_ascii "options {
+string_= ' ' Header
+=
+    // c
+    i8
+;msg_type =
+zchar[ 00// trailing space 
+]
+; float = true string_ = '\x00' ;
+}
+    MetaData zchar //x
+{ zchar chars ,
+} // `tick` ""quote"" 'q'")).
+Eval vm_compute in ("<<<M1145>>>" ++ check (runes_of_ascii "packet A {
+// trailing space 
+// @lengthOf(
+@rightPad ( )float64 crc
+    @lengthOf( //
+packetx )
+    ,
+@tag(
+4294967296 )
+char[	255 ]	f32a @calculatedFrom(""" ++ [28040; 24687]%N ++ runes_of_ascii """
+)// @lengthOf(
+``
+,
+packetx	{
+repeat
+    chars {
+repeat	zchar[
+3 ]charz, // @lengthOf(
+char[ // 50% %s
+007
+]	falsey `u8 x,` , }, metadata `{ , }` , T{ char[]	uint8x
+,
+uint8
+    MetaDataX`100% of %d`// c
+, _x @calculatedFrom( ""a\\""  ) , }	, },
+    // " ++ [27880; 37322]%N ++ runes_of_ascii "
+    repeat i16 metadata `u8 x,`
+    , u8
+stringy
+    @calculatedFrom(
+    """ ++ [233]%N ++ runes_of_ascii "t" ++ [233]%N ++ runes_of_ascii """
+    ) , string u128	@lengthOf(x_y_z  ) `doc`
+    ,}")).
+Eval vm_compute in ("<<<M1177>>>" ++ check (runes_of_ascii "
+packet  stringy {
+}
+")).
+Eval vm_compute in ("<<<M1209>>>" ++ check (runes_of_ascii "
+ //")).
+Eval vm_compute in ("<<<M1241>>>" ++ check (runes_of_ascii "  MetaData asx	{	char[
+1]
+    a1  ,
+zchar[
+0	]  msg_type //x
+`it's`
+    ,
+    } packet a1
+// packet A { u8 x, }
+/// triple
+{ @lengthOf(
+options1) charz
+{repeat matchKey  { i32 Logon `doc`  , string
+options1
+,falsey ,
+    match
+u128 as u{42: calculatedFrom // " ++ [27880; 37322]%N ++ runes_of_ascii "
+, [ """"
+, 0
+    // `tick` ""quote"" 'q'
+    , ""x y""
+, //x
+""1"" ,  4294967296 ]
+/// triple
+// trailing space 
+: f32a
+    , 0123456789
+: metadata , }
+,
+    }
+    // 50% %s
+    , float32 /// triple
+matchKey
+@lengthOf(tag	)`it's`
+,  }
+    , @lengthOf( T ) @lengthOf(
+    // c
+    pack ) @lengthOf( options1
+    ) match u8x
+    // trailing space 
+    as Packet
+    {4294967296:BodyLength,} ,i8 metadata @lengthOf( msg_type	) `" ++ [233]%N ++ runes_of_ascii "`	, char[] lengthOf ,
+string float ,
+    x @calculatedFrom( ""\n""//x
+) `
+`  ,	rootA // a // b
+{
+    // a // b
+    repeat i64_
+    x_y_z	`{ , }`
+    ,repeat uint8 packetx , },  @tag( 10 )@lengthOf( u128) match leftPad as MetaDataX
+    // a // b
+    { [
+""a	b"", 0123456789 , ""x y""] :lengthOf ,
+    """" :
+u // @lengthOf(
+3: lengthOf
+    ,255 :// a // b
+u8x ""packet"" :  metadata
+/// triple
+// " ++ [128512]%N ++ runes_of_ascii " emoji
+,	""a\\""
+:stringy } , @tag(1 ) @tag(
+    3	) @leftPad ( ' '// c
+)char[]
+x, }")).
+Eval vm_compute in ("<<<M1273>>>" ++ check (runes_of_ascii "packet i64_ {
+    @calculatedFrom( """ ++ [128512]%N ++ runes_of_ascii """ ) leftPad
+, }
+packet
+As
+    {@rightPad ( ' '
+    ) repeat	int o `say ""hi""` // " ++ [128512]%N ++ runes_of_ascii " emoji
+, metadata{match crc as matchKey { [""CRC32"" ,	""// no comment"" , ""CRC32"" , 65535 ]
+:
+// " ++ [128512]%N ++ runes_of_ascii " emoji
+// " ++ [128512]%N ++ runes_of_ascii " emoji
+zchar 3
+:
+// " ++ [27880; 37322]%N ++ runes_of_ascii "
+// `tick` ""quote"" 'q'
+i64_ , }
+    //
+    , repeat
+    stringy ,  } ,
+@calculatedFrom( ""\" ++ [233]%N ++ runes_of_ascii """// 50% %s
+) _x crc , i64_@calculatedFrom( ""// no comment"")
+    // a // b
+    ,
+@rightPad (	' ' )i8
+    float @lengthOf( tag ), @tag(
+// " ++ [27880; 37322]%N ++ runes_of_ascii "
+//x
+255 ) match // trailing space 
+rootA as
+A { ""`tick`"" : asx ,
+} ,
+tag
+    // " ++ [27880; 37322]%N ++ runes_of_ascii "
+    { // a // b
+zchar[
+10
+] asx , // trailing space 
+} ,	Header {A @lengthOf(
+len ) ,
+string_ @lengthOf(Logon
+)`tab	here` ,
+i64_, } ,
+    } options
+    {matchKey =""1"" ; }
 options { }
 ")).
-Eval vm_compute in ("<<<M473>>>" ++ check (runes_of_ascii "packet  calculatedFrom { @calculatedFrom( ""a	b"" ) T // packet A { u8 x, }
-{ zchar[ 0123456789 ]
-    falsey `say ""hi""`
-, match o as
-    // " ++ [27880; 37322]%N ++ runes_of_ascii "
-    matchKey {
-    [ ""`tick`""	,
-    //
-    ""it's""
-] :int , 1 :	float // a // b
-, } ,string Foo @calculatedFrom( ""a\\""), // `tick` ""quote"" 'q'
-} ,	}
-")).
-Eval vm_compute in ("<<<M505>>>" ++ check (runes_of_ascii "MetaData
-pack {// " ++ [27880; 37322]%N ++ runes_of_ascii "
-string //	t
-float,
-char[]	options1
-, }
-")).
-Eval vm_compute in ("<<<M537>>>" ++ check (runes_of_ascii "
-packet Z9_ { } // " ++ [27880; 37322]%N ++ runes_of_ascii "
-MetaData packetx
-{ u8 x_y_z
-    `it's` , } packet options1
-    {
-uint16 rootA
-    `" ++ [28040; 24687; 31867; 22411]%N ++ runes_of_ascii "`
-//x
-// `tick` ""quote"" 'q'
-, // " ++ [128512]%N ++ runes_of_ascii " emoji
-repeat string stringy`" ++ [233]%N ++ runes_of_ascii "` ,
-    char[] // @lengthOf(
-repeatCount `" ++ [28040; 24687; 31867; 22411]%N ++ runes_of_ascii "`
-,
-    }")).
-Eval vm_compute in ("<<<M569>>>" ++ check (runes_of_ascii "
-packet
-float
-{ @leftPad ( // packet A { u8 x, }
-'\x00' )
-    i64_ {string Z9_
-,} ,
-    @tag( //x
-0 )char[] u8x @calculatedFrom( ""a	b"" ) ,@lengthOf(	u128)int8
-    u	`two words` ,
-u64 Foo `a\` //x
-, @leftPad// packet A { u8 x, }
-(
-    '0'
-    )
-repeat
-//x
-// " ++ [128512]%N ++ runes_of_ascii " emoji
-repeatCount //x
-{ repeat Pad {repeat  tag {
-    char[
-00 ] //	t
-Logon `it's` , string_, }
-    ,  match // " ++ [128512]%N ++ runes_of_ascii " emoji
-As // c
-as
-    matchKey
-    {
-    7:lengthOf } ,
-    match u128  as tag {
-    [ 7 ]
-    :// " ++ [128512]%N ++ runes_of_ascii " emoji
-Packet
-    //	t
-    , """ ++ [28040; 24687]%N ++ runes_of_ascii """: Foo ,65535 // " ++ [128512]%N ++ runes_of_ascii " emoji
-: calculatedFrom
-//x
-//x
-}/// triple
-, // a // b
-} , // " ++ [128512]%N ++ runes_of_ascii " emoji
-f32
-options1 `doc`// c
-, // trailing space 
-} ,@leftPad ( '0'	) match  rootA // packet A { u8 x, }
-as
-i64_ {3
-// " ++ [128512]%N ++ runes_of_ascii " emoji
-//
-: msg_type , ""abc"": rootA ,
-    //	t
-    [ ""CRC32"" ]
-: float ,10 : pack ,""" ++ [128512]%N ++ runes_of_ascii """
-:	tag } ,
-@rightPad (
-    // trailing space 
-    '\x00')	char[ 65535] _x @calculatedFrom( """ ++ [128512]%N ++ runes_of_ascii """	), char[ 4294967296 ] lengthOf @calculatedFrom(""// no comment"" ) ,@leftPad (  ' ' )zchar[007 ] options1 ,/// triple
-}	packet
-    // " ++ [27880; 37322]%N ++ runes_of_ascii "
-    rootA {
-} packet charz
-    { repeat
-As`` ,} packet f32a {	}
-    MetaData	roots { body matchKey `// not a comment`,
-}
-")).
-Eval vm_compute in ("<<<M601>>>" ++ check (runes_of_ascii "packet
-// `tick` ""quote"" 'q'
-// `tick` ""quote"" 'q'
-trueish {
-    repeat packetx /// triple
-zchar , // " ++ [128512]%N ++ runes_of_ascii " emoji
-zchar[ 1
-]
-    /// triple
-    stringy ,
-    @lengthOf( u8x ) repeat
-    f32 Logon,
-repeat u8x {
-zchar[	007
-    ]crc
-@calculatedFrom( ""a\\"" ) ,}
-,@tag( 255
-) @calculatedFrom(
-""it's"" //	t
-)	@tag( 65535 )repeat x
-{
-    repeat u8x metadata ,
-zchar[
-    //
-    00 ]  stringy@lengthOf( float
-    )
-`two words` , }
-, @lengthOf( A ) @calculatedFrom( ""packet"" )@rightPad ( '0'  )	Header ,msg_type charz , // packet A { u8 x, }
-} packet x
-{ @calculatedFrom( """ ++ [128512]%N ++ runes_of_ascii """ )
-zchar[ 0123456789 ]A
-    // c
-    @calculatedFrom( ""a	b""
-    )
-, @calculatedFrom( // " ++ [128512]%N ++ runes_of_ascii " emoji
-""""
-) repeat BodyLength `
-` ,
-    }packet Foo{  char[
-    7 ] crc // " ++ [27880; 37322]%N ++ runes_of_ascii "
-@lengthOf(
-charz )
-    // @lengthOf(
-    ,
-@lengthOf( float
-) charz ,repeat i8 Foo, uint64 leftPad /// triple
-`{ , }`
-    ,// `tick` ""quote"" 'q'
-falsey
-A,
-repeat u128 x_y_z `// not a comment`
-    // " ++ [128512]%N ++ runes_of_ascii " emoji
-    ,/// triple
-Logon @calculatedFrom( ""a	b"" )	, }
-")).
-Eval vm_compute in ("<<<T601>>>" ++ terms [mkTok 35 "packet" 1 0 false; mkTok 44 "// `tick` ""quote"" 'q'" 2 0 true; mkTok 44 "// `tick` ""quote"" 'q'" 3 0 true; mkTok 42 "trueish" 4 0 false; mkTok 2 "{" 4 8 false; mkTok 36 "repeat" 5 4 false; mkTok 42 "packetx" 5 11 false; mkTok 44 "/// triple" 5 19 true; mkTok 42 "zchar" 6 0 false; mkTok 40 "," 6 6 false; mkTok 44 (string_of_bytes [47; 47; 32; 240; 159; 152; 128; 32; 101; 109; 111; 106; 105]%N) 6 8 true; mkTok 14 "zchar[" 7 0 false; mkTok 30 "1" 7 7 false; mkTok 13 "]" 8 0 false; mkTok 44 "/// triple" 9 4 true; mkTok 42 "stringy" 10 4 false; mkTok 40 "," 10 12 false; mkTok 7 "@lengthOf(" 11 4 false; mkTok 42 "u8x" 11 15 false; mkTok 6 ")" 11 19 false; mkTok 36 "repeat" 11 21 false; mkTok 28 "f32" 12 4 false; mkTok 42 "Logon" 12 8 false; mkTok 40 "," 12 13 false; mkTok 36 "repeat" 13 0 false; mkTok 42 "u8x" 13 7 false; mkTok 2 "{" 13 11 false; mkTok 14 "zchar[" 14 0 false; mkTok 30 "007" 14 7 false; mkTok 13 "]" 15 4 false; mkTok 42 "crc" 15 5 false; mkTok 5 "@calculatedFrom(" 16 0 false; mkTok 31 """a\\""" 16 17 false; mkTok 6 ")" 16 23 false; mkTok 40 "," 16 25 false; mkTok 3 "}" 16 26 false; mkTok 40 "," 17 0 false; mkTok 9 "@tag(" 17 1 false; mkTok 30 "255" 17 7 false; mkTok 6 ")" 18 0 false; mkTok 5 "@calculatedFrom(" 18 2 false; mkTok 31 """it's""" 19 0 false; mkTok 44 (string_of_bytes [47; 47; 9; 116]%N) 19 7 true; mkTok 6 ")" 20 0 false; mkTok 9 "@tag(" 20 2 false; mkTok 30 "65535" 20 8 false; mkTok 6 ")" 20 14 false; mkTok 36 "repeat" 20 15 false; mkTok 42 "x" 20 22 false; mkTok 2 "{" 21 0 false; mkTok 36 "repeat" 22 4 false; mkTok 42 "u8x" 22 11 false; mkTok 42 "metadata" 22 15 false; mkTok 40 "," 22 24 false; mkTok 14 "zchar[" 23 0 false; mkTok 44 "//" 24 4 true; mkTok 30 "00" 25 4 false; mkTok 13 "]" 25 7 false; mkTok 42 "stringy" 25 10 false; mkTok 7 "@lengthOf(" 25 17 false; mkTok 42 "float" 25 28 false; mkTok 6 ")" 26 4 false; mkTok 43 "`two words`" 27 0 false; mkTok 40 "," 27 12 false; mkTok 3 "}" 27 14 false; mkTok 40 "," 28 0 false; mkTok 7 "@lengthOf(" 28 2 false; mkTok 42 "A" 28 13 false; mkTok 6 ")" 28 15 false; mkTok 5 "@calculatedFrom(" 28 17 false; mkTok 31 """packet""" 28 34 false; mkTok 6 ")" 28 43 false; mkTok 32 "@rightPad" 28 44 false; mkTok 8 "(" 28 54 false; mkTok 33 "'0'" 28 56 false; mkTok 6 ")" 28 61 false; mkTok 42 "Header" 28 63 false; mkTok 40 "," 28 70 false; mkTok 42 "msg_type" 28 71 false; mkTok 42 "charz" 28 80 false; mkTok 40 "," 28 86 false; mkTok 44 "// packet A { u8 x, }" 28 88 true; mkTok 3 "}" 29 0 false; mkTok 35 "packet" 29 2 false; mkTok 42 "x" 29 9 false; mkTok 2 "{" 30 0 false; mkTok 5 "@calculatedFrom(" 30 2 false; mkTok 31 (string_of_bytes [34; 240; 159; 152; 128; 34]%N) 30 19 false; mkTok 6 ")" 30 23 false; mkTok 14 "zchar[" 31 0 false; mkTok 30 "0123456789" 31 7 false; mkTok 13 "]" 31 18 false; mkTok 42 "A" 31 19 false; mkTok 44 "// c" 32 4 true; mkTok 5 "@calculatedFrom(" 33 4 false; mkTok 31 (string_of_bytes [34; 97; 9; 98; 34]%N) 33 21 false; mkTok 6 ")" 34 4 false; mkTok 40 "," 35 0 false; mkTok 5 "@calculatedFrom(" 35 2 false; mkTok 44 (string_of_bytes [47; 47; 32; 240; 159; 152; 128; 32; 101; 109; 111; 106; 105]%N) 35 19 true; mkTok 31 """""" 36 0 false; mkTok 6 ")" 37 0 false; mkTok 36 "repeat" 37 2 false; mkTok 42 "BodyLength" 37 9 false; mkTok 43 (string_of_bytes [96; 10; 96]%N) 37 20 false; mkTok 40 "," 38 2 false; mkTok 3 "}" 39 4 false; mkTok 35 "packet" 39 5 false; mkTok 42 "Foo" 39 12 false; mkTok 2 "{" 39 15 false; mkTok 12 "char[" 39 18 false; mkTok 30 "7" 40 4 false; mkTok 13 "]" 40 6 false; mkTok 42 "crc" 40 8 false; mkTok 44 (string_of_bytes [47; 47; 32; 230; 179; 168; 233; 135; 138]%N) 40 12 true; mkTok 7 "@lengthOf(" 41 0 false; mkTok 42 "charz" 42 0 false; mkTok 6 ")" 42 6 false; mkTok 44 "// @lengthOf(" 43 4 true; mkTok 40 "," 44 4 false; mkTok 7 "@lengthOf(" 45 0 false; mkTok 42 "float" 45 11 false; mkTok 6 ")" 46 0 false; mkTok 42 "charz" 46 2 false; mkTok 40 "," 46 8 false; mkTok 36 "repeat" 46 9 false; mkTok 24 "i8" 46 16 false; mkTok 42 "Foo" 46 19 false; mkTok 40 "," 46 22 false; mkTok 23 "uint64" 46 24 false; mkTok 42 "leftPad" 46 31 false; mkTok 44 "/// triple" 46 39 true; mkTok 43 "`{ , }`" 47 0 false; mkTok 40 "," 48 4 false; mkTok 44 "// `tick` ""quote"" 'q'" 48 5 true; mkTok 42 "falsey" 49 0 false; mkTok 42 "A" 50 0 false; mkTok 40 "," 50 1 false; mkTok 36 "repeat" 51 0 false; mkTok 42 "u128" 51 7 false; mkTok 42 "x_y_z" 51 12 false; mkTok 43 "`// not a comment`" 51 18 false; mkTok 44 (string_of_bytes [47; 47; 32; 240; 159; 152; 128; 32; 101; 109; 111; 106; 105]%N) 52 4 true; mkTok 40 "," 53 4 false; mkTok 44 "/// triple" 53 5 true; mkTok 42 "Logon" 54 0 false; mkTok 5 "@calculatedFrom(" 54 6 false; mkTok 31 (string_of_bytes [34; 97; 9; 98; 34]%N) 54 23 false; mkTok 6 ")" 54 29 false; mkTok 40 "," 54 31 false; mkTok 3 "}" 54 33 false; mkTok 0 "<EOF>" 55 0 false] (mkPacket (mkPtok 35 "packet" 1 0 0) (Some (mkPtok 3 "}" 54 33 150)) [(DPacket (mkPacketDef (mkSpan (mkPtok 35 "packet" 1 0 0) (mkPtok 3 "}" 29 0 82)) None (mkPtok 35 "packet" 1 0 0) (mkPtok 42 "trueish" 4 0 3) (mkPtok 2 "{" 4 8 4) [(mkFieldWithAttr (mkSpan (mkPtok 36 "repeat" 5 4 5) (mkPtok 40 "," 6 6 9)) [] (ObjectField (mkSpan (mkPtok 36 "repeat" 5 4 5) (mkPtok 40 "," 6 6 9)) (Some (mkPtok 36 "repeat" 5 4 5)) (mkPtok 42 "packetx" 5 11 6) (Some (mkPtok 42 "zchar" 6 0 8)) None (mkPtok 40 "," 6 6 9))); (mkFieldWithAttr (mkSpan (mkPtok 14 "zchar[" 7 0 11) (mkPtok 40 "," 10 12 16)) [] (MetaField (mkSpan (mkPtok 14 "zchar[" 7 0 11) (mkPtok 40 "," 10 12 16)) None (mkMetaDecl (mkSpan (mkPtok 14 "zchar[" 7 0 11) (mkPtok 40 "," 10 12 16)) (TyFixed (mkSpan (mkPtok 14 "zchar[" 7 0 11) (mkPtok 13 "]" 8 0 13)) (mkFixedString (mkSpan (mkPtok 14 "zchar[" 7 0 11) (mkPtok 13 "]" 8 0 13)) (mkPtok 14 "zchar[" 7 0 11) (mkPtok 30 "1" 7 7 12) (mkPtok 13 "]" 8 0 13))) (mkPtok 42 "stringy" 10 4 15) None (mkPtok 40 "," 10 12 16)))); (mkFieldWithAttr (mkSpan (mkPtok 7 "@lengthOf(" 11 4 17) (mkPtok 40 "," 12 13 23)) [(FALengthOf (mkSpan (mkPtok 7 "@lengthOf(" 11 4 17) (mkPtok 6 ")" 11 19 19)) (mkLengthOf (mkSpan (mkPtok 7 "@lengthOf(" 11 4 17) (mkPtok 6 ")" 11 19 19)) (mkPtok 7 "@lengthOf(" 11 4 17) (mkPtok 42 "u8x" 11 15 18) (mkPtok 6 ")" 11 19 19)))] (MetaField (mkSpan (mkPtok 36 "repeat" 11 21 20) (mkPtok 40 "," 12 13 23)) (Some (mkPtok 36 "repeat" 11 21 20)) (mkMetaDecl (mkSpan (mkPtok 28 "f32" 12 4 21) (mkPtok 40 "," 12 13 23)) (TyBasic (mkSpan (mkPtok 28 "f32" 12 4 21) (mkPtok 28 "f32" 12 4 21)) (mkBasicType (mkSpan (mkPtok 28 "f32" 12 4 21) (mkPtok 28 "f32" 12 4 21)) (mkPtok 28 "f32" 12 4 21))) (mkPtok 42 "Logon" 12 8 22) None (mkPtok 40 "," 12 13 23)))); (mkFieldWithAttr (mkSpan (mkPtok 36 "repeat" 13 0 24) (mkPtok 40 "," 17 0 36)) [] (InerObjectField (mkSpan (mkPtok 36 "repeat" 13 0 24) (mkPtok 40 "," 17 0 36)) (Some (mkPtok 36 "repeat" 13 0 24)) (InerObjectDecl (mkSpan (mkPtok 42 "u8x" 13 7 25) (mkPtok 3 "}" 16 26 35)) (mkPtok 42 "u8x" 13 7 25) (mkPtok 2 "{" 13 11 26) [(CheckSumField (mkSpan (mkPtok 14 "zchar[" 14 0 27) (mkPtok 40 "," 16 25 34)) (mkChecksumFieldDecl (mkSpan (mkPtok 14 "zchar[" 14 0 27) (mkPtok 40 "," 16 25 34)) (Some (TyFixed (mkSpan (mkPtok 14 "zchar[" 14 0 27) (mkPtok 13 "]" 15 4 29)) (mkFixedString (mkSpan (mkPtok 14 "zchar[" 14 0 27) (mkPtok 13 "]" 15 4 29)) (mkPtok 14 "zchar[" 14 0 27) (mkPtok 30 "007" 14 7 28) (mkPtok 13 "]" 15 4 29)))) (mkPtok 42 "crc" 15 5 30) (mkCalculatedFrom (mkSpan (mkPtok 5 "@calculatedFrom(" 16 0 31) (mkPtok 6 ")" 16 23 33)) (mkPtok 5 "@calculatedFrom(" 16 0 31) (mkPtok 31 """a\\""" 16 17 32) (mkPtok 6 ")" 16 23 33)) None (mkPtok 40 "," 16 25 34)))] (mkPtok 3 "}" 16 26 35)) (mkPtok 40 "," 17 0 36))); (mkFieldWithAttr (mkSpan (mkPtok 9 "@tag(" 17 1 37) (mkPtok 40 "," 28 0 65)) [(FATag (mkSpan (mkPtok 9 "@tag(" 17 1 37) (mkPtok 6 ")" 18 0 39)) (mkTagAttr (mkSpan (mkPtok 9 "@tag(" 17 1 37) (mkPtok 6 ")" 18 0 39)) (mkPtok 9 "@tag(" 17 1 37) (mkPtok 30 "255" 17 7 38) (mkPtok 6 ")" 18 0 39))); (FACalculatedFrom (mkSpan (mkPtok 5 "@calculatedFrom(" 18 2 40) (mkPtok 6 ")" 20 0 43)) (mkCalculatedFrom (mkSpan (mkPtok 5 "@calculatedFrom(" 18 2 40) (mkPtok 6 ")" 20 0 43)) (mkPtok 5 "@calculatedFrom(" 18 2 40) (mkPtok 31 """it's""" 19 0 41) (mkPtok 6 ")" 20 0 43))); (FATag (mkSpan (mkPtok 9 "@tag(" 20 2 44) (mkPtok 6 ")" 20 14 46)) (mkTagAttr (mkSpan (mkPtok 9 "@tag(" 20 2 44) (mkPtok 6 ")" 20 14 46)) (mkPtok 9 "@tag(" 20 2 44) (mkPtok 30 "65535" 20 8 45) (mkPtok 6 ")" 20 14 46)))] (InerObjectField (mkSpan (mkPtok 36 "repeat" 20 15 47) (mkPtok 40 "," 28 0 65)) (Some (mkPtok 36 "repeat" 20 15 47)) (InerObjectDecl (mkSpan (mkPtok 42 "x" 20 22 48) (mkPtok 3 "}" 27 14 64)) (mkPtok 42 "x" 20 22 48) (mkPtok 2 "{" 21 0 49) [(ObjectField (mkSpan (mkPtok 36 "repeat" 22 4 50) (mkPtok 40 "," 22 24 53)) (Some (mkPtok 36 "repeat" 22 4 50)) (mkPtok 42 "u8x" 22 11 51) (Some (mkPtok 42 "metadata" 22 15 52)) None (mkPtok 40 "," 22 24 53)); (LengthField (mkSpan (mkPtok 14 "zchar[" 23 0 54) (mkPtok 40 "," 27 12 63)) (mkLengthFieldDecl (mkSpan (mkPtok 14 "zchar[" 23 0 54) (mkPtok 40 "," 27 12 63)) (Some (TyFixed (mkSpan (mkPtok 14 "zchar[" 23 0 54) (mkPtok 13 "]" 25 7 57)) (mkFixedString (mkSpan (mkPtok 14 "zchar[" 23 0 54) (mkPtok 13 "]" 25 7 57)) (mkPtok 14 "zchar[" 23 0 54) (mkPtok 30 "00" 25 4 56) (mkPtok 13 "]" 25 7 57)))) (mkPtok 42 "stringy" 25 10 58) (mkLengthOf (mkSpan (mkPtok 7 "@lengthOf(" 25 17 59) (mkPtok 6 ")" 26 4 61)) (mkPtok 7 "@lengthOf(" 25 17 59) (mkPtok 42 "float" 25 28 60) (mkPtok 6 ")" 26 4 61)) (Some (mkPtok 43 "`two words`" 27 0 62)) (mkPtok 40 "," 27 12 63)))] (mkPtok 3 "}" 27 14 64)) (mkPtok 40 "," 28 0 65))); (mkFieldWithAttr (mkSpan (mkPtok 7 "@lengthOf(" 28 2 66) (mkPtok 40 "," 28 70 77)) [(FALengthOf (mkSpan (mkPtok 7 "@lengthOf(" 28 2 66) (mkPtok 6 ")" 28 15 68)) (mkLengthOf (mkSpan (mkPtok 7 "@lengthOf(" 28 2 66) (mkPtok 6 ")" 28 15 68)) (mkPtok 7 "@lengthOf(" 28 2 66) (mkPtok 42 "A" 28 13 67) (mkPtok 6 ")" 28 15 68))); (FACalculatedFrom (mkSpan (mkPtok 5 "@calculatedFrom(" 28 17 69) (mkPtok 6 ")" 28 43 71)) (mkCalculatedFrom (mkSpan (mkPtok 5 "@calculatedFrom(" 28 17 69) (mkPtok 6 ")" 28 43 71)) (mkPtok 5 "@calculatedFrom(" 28 17 69) (mkPtok 31 """packet""" 28 34 70) (mkPtok 6 ")" 28 43 71))); (FAPadding (mkSpan (mkPtok 32 "@rightPad" 28 44 72) (mkPtok 6 ")" 28 61 75)) (mkPaddingAttr (mkSpan (mkPtok 32 "@rightPad" 28 44 72) (mkPtok 6 ")" 28 61 75)) (mkPtok 32 "@rightPad" 28 44 72) (mkPtok 8 "(" 28 54 73) (Some (mkPtok 33 "'0'" 28 56 74)) (mkPtok 6 ")" 28 61 75)))] (ObjectField (mkSpan (mkPtok 42 "Header" 28 63 76) (mkPtok 40 "," 28 70 77)) None (mkPtok 42 "Header" 28 63 76) None None (mkPtok 40 "," 28 70 77))); (mkFieldWithAttr (mkSpan (mkPtok 42 "msg_type" 28 71 78) (mkPtok 40 "," 28 86 80)) [] (ObjectField (mkSpan (mkPtok 42 "msg_type" 28 71 78) (mkPtok 40 "," 28 86 80)) None (mkPtok 42 "msg_type" 28 71 78) (Some (mkPtok 42 "charz" 28 80 79)) None (mkPtok 40 "," 28 86 80)))] (mkPtok 3 "}" 29 0 82))); (DPacket (mkPacketDef (mkSpan (mkPtok 35 "packet" 29 2 83) (mkPtok 3 "}" 39 4 106)) None (mkPtok 35 "packet" 29 2 83) (mkPtok 42 "x" 29 9 84) (mkPtok 2 "{" 30 0 85) [(mkFieldWithAttr (mkSpan (mkPtok 5 "@calculatedFrom(" 30 2 86) (mkPtok 40 "," 35 0 97)) [(FACalculatedFrom (mkSpan (mkPtok 5 "@calculatedFrom(" 30 2 86) (mkPtok 6 ")" 30 23 88)) (mkCalculatedFrom (mkSpan (mkPtok 5 "@calculatedFrom(" 30 2 86) (mkPtok 6 ")" 30 23 88)) (mkPtok 5 "@calculatedFrom(" 30 2 86) (mkPtok 31 (string_of_bytes [34; 240; 159; 152; 128; 34]%N) 30 19 87) (mkPtok 6 ")" 30 23 88)))] (CheckSumField (mkSpan (mkPtok 14 "zchar[" 31 0 89) (mkPtok 40 "," 35 0 97)) (mkChecksumFieldDecl (mkSpan (mkPtok 14 "zchar[" 31 0 89) (mkPtok 40 "," 35 0 97)) (Some (TyFixed (mkSpan (mkPtok 14 "zchar[" 31 0 89) (mkPtok 13 "]" 31 18 91)) (mkFixedString (mkSpan (mkPtok 14 "zchar[" 31 0 89) (mkPtok 13 "]" 31 18 91)) (mkPtok 14 "zchar[" 31 0 89) (mkPtok 30 "0123456789" 31 7 90) (mkPtok 13 "]" 31 18 91)))) (mkPtok 42 "A" 31 19 92) (mkCalculatedFrom (mkSpan (mkPtok 5 "@calculatedFrom(" 33 4 94) (mkPtok 6 ")" 34 4 96)) (mkPtok 5 "@calculatedFrom(" 33 4 94) (mkPtok 31 (string_of_bytes [34; 97; 9; 98; 34]%N) 33 21 95) (mkPtok 6 ")" 34 4 96)) None (mkPtok 40 "," 35 0 97)))); (mkFieldWithAttr (mkSpan (mkPtok 5 "@calculatedFrom(" 35 2 98) (mkPtok 40 "," 38 2 105)) [(FACalculatedFrom (mkSpan (mkPtok 5 "@calculatedFrom(" 35 2 98) (mkPtok 6 ")" 37 0 101)) (mkCalculatedFrom (mkSpan (mkPtok 5 "@calculatedFrom(" 35 2 98) (mkPtok 6 ")" 37 0 101)) (mkPtok 5 "@calculatedFrom(" 35 2 98) (mkPtok 31 """""" 36 0 100) (mkPtok 6 ")" 37 0 101)))] (ObjectField (mkSpan (mkPtok 36 "repeat" 37 2 102) (mkPtok 40 "," 38 2 105)) (Some (mkPtok 36 "repeat" 37 2 102)) (mkPtok 42 "BodyLength" 37 9 103) None (Some (mkPtok 43 (string_of_bytes [96; 10; 96]%N) 37 20 104)) (mkPtok 40 "," 38 2 105)))] (mkPtok 3 "}" 39 4 106))); (DPacket (mkPacketDef (mkSpan (mkPtok 35 "packet" 39 5 107) (mkPtok 3 "}" 54 33 150)) None (mkPtok 35 "packet" 39 5 107) (mkPtok 42 "Foo" 39 12 108) (mkPtok 2 "{" 39 15 109) [(mkFieldWithAttr (mkSpan (mkPtok 12 "char[" 39 18 110) (mkPtok 40 "," 44 4 119)) [] (LengthField (mkSpan (mkPtok 12 "char[" 39 18 110) (mkPtok 40 "," 44 4 119)) (mkLengthFieldDecl (mkSpan (mkPtok 12 "char[" 39 18 110) (mkPtok 40 "," 44 4 119)) (Some (TyFixed (mkSpan (mkPtok 12 "char[" 39 18 110) (mkPtok 13 "]" 40 6 112)) (mkFixedString (mkSpan (mkPtok 12 "char[" 39 18 110) (mkPtok 13 "]" 40 6 112)) (mkPtok 12 "char[" 39 18 110) (mkPtok 30 "7" 40 4 111) (mkPtok 13 "]" 40 6 112)))) (mkPtok 42 "crc" 40 8 113) (mkLengthOf (mkSpan (mkPtok 7 "@lengthOf(" 41 0 115) (mkPtok 6 ")" 42 6 117)) (mkPtok 7 "@lengthOf(" 41 0 115) (mkPtok 42 "charz" 42 0 116) (mkPtok 6 ")" 42 6 117)) None (mkPtok 40 "," 44 4 119)))); (mkFieldWithAttr (mkSpan (mkPtok 7 "@lengthOf(" 45 0 120) (mkPtok 40 "," 46 8 124)) [(FALengthOf (mkSpan (mkPtok 7 "@lengthOf(" 45 0 120) (mkPtok 6 ")" 46 0 122)) (mkLengthOf (mkSpan (mkPtok 7 "@lengthOf(" 45 0 120) (mkPtok 6 ")" 46 0 122)) (mkPtok 7 "@lengthOf(" 45 0 120) (mkPtok 42 "float" 45 11 121) (mkPtok 6 ")" 46 0 122)))] (ObjectField (mkSpan (mkPtok 42 "charz" 46 2 123) (mkPtok 40 "," 46 8 124)) None (mkPtok 42 "charz" 46 2 123) None None (mkPtok 40 "," 46 8 124))); (mkFieldWithAttr (mkSpan (mkPtok 36 "repeat" 46 9 125) (mkPtok 40 "," 46 22 128)) [] (MetaField (mkSpan (mkPtok 36 "repeat" 46 9 125) (mkPtok 40 "," 46 22 128)) (Some (mkPtok 36 "repeat" 46 9 125)) (mkMetaDecl (mkSpan (mkPtok 24 "i8" 46 16 126) (mkPtok 40 "," 46 22 128)) (TyBasic (mkSpan (mkPtok 24 "i8" 46 16 126) (mkPtok 24 "i8" 46 16 126)) (mkBasicType (mkSpan (mkPtok 24 "i8" 46 16 126) (mkPtok 24 "i8" 46 16 126)) (mkPtok 24 "i8" 46 16 126))) (mkPtok 42 "Foo" 46 19 127) None (mkPtok 40 "," 46 22 128)))); (mkFieldWithAttr (mkSpan (mkPtok 23 "uint64" 46 24 129) (mkPtok 40 "," 48 4 133)) [] (MetaField (mkSpan (mkPtok 23 "uint64" 46 24 129) (mkPtok 40 "," 48 4 133)) None (mkMetaDecl (mkSpan (mkPtok 23 "uint64" 46 24 129) (mkPtok 40 "," 48 4 133)) (TyBasic (mkSpan (mkPtok 23 "uint64" 46 24 129) (mkPtok 23 "uint64" 46 24 129)) (mkBasicType (mkSpan (mkPtok 23 "uint64" 46 24 129) (mkPtok 23 "uint64" 46 24 129)) (mkPtok 23 "uint64" 46 24 129))) (mkPtok 42 "leftPad" 46 31 130) (Some (mkPtok 43 "`{ , }`" 47 0 132)) (mkPtok 40 "," 48 4 133)))); (mkFieldWithAttr (mkSpan (mkPtok 42 "falsey" 49 0 135) (mkPtok 40 "," 50 1 137)) [] (ObjectField (mkSpan (mkPtok 42 "falsey" 49 0 135) (mkPtok 40 "," 50 1 137)) None (mkPtok 42 "falsey" 49 0 135) (Some (mkPtok 42 "A" 50 0 136)) None (mkPtok 40 "," 50 1 137))); (mkFieldWithAttr (mkSpan (mkPtok 36 "repeat" 51 0 138) (mkPtok 40 "," 53 4 143)) [] (ObjectField (mkSpan (mkPtok 36 "repeat" 51 0 138) (mkPtok 40 "," 53 4 143)) (Some (mkPtok 36 "repeat" 51 0 138)) (mkPtok 42 "u128" 51 7 139) (Some (mkPtok 42 "x_y_z" 51 12 140)) (Some (mkPtok 43 "`// not a comment`" 51 18 141)) (mkPtok 40 "," 53 4 143))); (mkFieldWithAttr (mkSpan (mkPtok 42 "Logon" 54 0 145) (mkPtok 40 "," 54 31 149)) [] (CheckSumField (mkSpan (mkPtok 42 "Logon" 54 0 145) (mkPtok 40 "," 54 31 149)) (mkChecksumFieldDecl (mkSpan (mkPtok 42 "Logon" 54 0 145) (mkPtok 40 "," 54 31 149)) None (mkPtok 42 "Logon" 54 0 145) (mkCalculatedFrom (mkSpan (mkPtok 5 "@calculatedFrom(" 54 6 146) (mkPtok 6 ")" 54 29 148)) (mkPtok 5 "@calculatedFrom(" 54 6 146) (mkPtok 31 (string_of_bytes [34; 97; 9; 98; 34]%N) 54 23 147) (mkPtok 6 ")" 54 29 148)) None (mkPtok 40 "," 54 31 149))))] (mkPtok 3 "}" 54 33 150)))])).
-Eval vm_compute in ("<<<M633>>>" ++ check (runes_of_ascii "options { packetx =' '
-}root	packet i64_ {string // trailing space 
-Foo , @tag(// " ++ [27880; 37322]%N ++ runes_of_ascii "
-3	) u128 @calculatedFrom( ""\" ++ [233]%N ++ runes_of_ascii """ )	`
-` , repeat char[//
-00  ] Logon ,repeat crc lengthOf`a\` , }
-")).
-Eval vm_compute in ("<<<M665>>>" ++ check (runes_of_ascii " 	 ")).
-Eval vm_compute in ("<<<M697>>>" ++ check (runes_of_ascii "packet u128{ }
-    // " ++ [128512]%N ++ runes_of_ascii " emoji
-    root
-packet
-rootA{ @tag( // " ++ [27880; 37322]%N ++ runes_of_ascii "
-007 )
-match uint8x as
-    crc {	""a\""b"" :
-    charz ,},
-    // packet A { u8 x, }
-    uint64 repeatCount ,@tag(007//x
+Eval vm_compute in ("<<<T1273>>>" ++ terms [mkTok 35 "packet" 1 0 false; mkTok 42 "i64_" 1 7 false; mkTok 2 "{" 1 12 false; mkTok 5 "@calculatedFrom(" 2 4 false; mkTok 31 (string_of_bytes [34; 240; 159; 152; 128; 34]%N) 2 21 false; mkTok 6 ")" 2 25 false; mkTok 42 "leftPad" 2 27 false; mkTok 40 "," 3 0 false; mkTok 3 "}" 3 2 false; mkTok 35 "packet" 4 0 false; mkTok 42 "As" 5 0 false; mkTok 2 "{" 6 4 false; mkTok 32 "@rightPad" 6 5 false; mkTok 8 "(" 6 15 false; mkTok 33 "' '" 6 17 false; mkTok 6 ")" 7 4 false; mkTok 36 "repeat" 7 6 false; mkTok 42 "int" 7 13 false; mkTok 42 "o" 7 17 false; mkTok 43 "`say ""hi""`" 7 19 false; mkTok 44 (string_of_bytes [47; 47; 32; 240; 159; 152; 128; 32; 101; 109; 111; 106; 105]%N) 7 30 true; mkTok 40 "," 8 0 false; mkTok 42 "metadata" 8 2 false; mkTok 2 "{" 8 10 false; mkTok 38 "match" 8 11 false; mkTok 42 "crc" 8 17 false; mkTok 17 "as" 8 21 false; mkTok 42 "matchKey" 8 24 false; mkTok 2 "{" 8 33 false; mkTok 18 "[" 8 35 false; mkTok 31 """CRC32""" 8 36 false; mkTok 40 "," 8 44 false; mkTok 31 """// no comment""" 8 46 false; mkTok 40 "," 8 62 false; mkTok 31 """CRC32""" 8 64 false; mkTok 40 "," 8 72 false; mkTok 30 "65535" 8 74 false; mkTok 13 "]" 8 80 false; mkTok 39 ":" 9 0 false; mkTok 44 (string_of_bytes [47; 47; 32; 240; 159; 152; 128; 32; 101; 109; 111; 106; 105]%N) 10 0 true; mkTok 44 (string_of_bytes [47; 47; 32; 240; 159; 152; 128; 32; 101; 109; 111; 106; 105]%N) 11 0 true; mkTok 42 "zchar" 12 0 false; mkTok 30 "3" 12 6 false; mkTok 39 ":" 13 0 false; mkTok 44 (string_of_bytes [47; 47; 32; 230; 179; 168; 233; 135; 138]%N) 14 0 true; mkTok 44 "// `tick` ""quote"" 'q'" 15 0 true; mkTok 42 "i64_" 16 0 false; mkTok 40 "," 16 5 false; mkTok 3 "}" 16 7 false; mkTok 44 "//" 17 4 true; mkTok 40 "," 18 4 false; mkTok 36 "repeat" 18 6 false; mkTok 42 "stringy" 19 4 false; mkTok 40 "," 19 12 false; mkTok 3 "}" 19 15 false; mkTok 40 "," 19 17 false; mkTok 5 "@calculatedFrom(" 20 0 false; mkTok 31 (string_of_bytes [34; 92; 195; 169; 34]%N) 20 17 false; mkTok 44 "// 50% %s" 20 21 true; mkTok 6 ")" 21 0 false; mkTok 42 "_x" 21 2 false; mkTok 42 "crc" 21 5 false; mkTok 40 "," 21 9 false; mkTok 42 "i64_" 21 11 false; mkTok 5 "@calculatedFrom(" 21 15 false; mkTok 31 """// no comment""" 21 32 false; mkTok 6 ")" 21 47 false; mkTok 44 "// a // b" 22 4 true; mkTok 40 "," 23 4 false; mkTok 32 "@rightPad" 24 0 false; mkTok 8 "(" 24 10 false; mkTok 33 "' '" 24 12 false; mkTok 6 ")" 24 16 false; mkTok 24 "i8" 24 17 false; mkTok 42 "float" 25 4 false; mkTok 7 "@lengthOf(" 25 10 false; mkTok 42 "tag" 25 21 false; mkTok 6 ")" 25 25 false; mkTok 40 "," 25 26 false; mkTok 9 "@tag(" 25 28 false; mkTok 44 (string_of_bytes [47; 47; 32; 230; 179; 168; 233; 135; 138]%N) 26 0 true; mkTok 44 "//x" 27 0 true; mkTok 30 "255" 28 0 false; mkTok 6 ")" 28 4 false; mkTok 38 "match" 28 6 false; mkTok 44 "// trailing space " 28 12 true; mkTok 42 "rootA" 29 0 false; mkTok 17 "as" 29 6 false; mkTok 42 "A" 30 0 false; mkTok 2 "{" 30 2 false; mkTok 31 """`tick`""" 30 4 false; mkTok 39 ":" 30 13 false; mkTok 42 "asx" 30 15 false; mkTok 40 "," 30 19 false; mkTok 3 "}" 31 0 false; mkTok 40 "," 31 2 false; mkTok 42 "tag" 32 0 false; mkTok 44 (string_of_bytes [47; 47; 32; 230; 179; 168; 233; 135; 138]%N) 33 4 true; mkTok 2 "{" 34 4 false; mkTok 44 "// a // b" 34 6 true; mkTok 14 "zchar[" 35 0 false; mkTok 30 "10" 36 0 false; mkTok 13 "]" 37 0 false; mkTok 42 "asx" 37 2 false; mkTok 40 "," 37 6 false; mkTok 44 "// trailing space " 37 8 true; mkTok 3 "}" 38 0 false; mkTok 40 "," 38 2 false; mkTok 42 "Header" 38 4 false; mkTok 2 "{" 38 11 false; mkTok 42 "A" 38 12 false; mkTok 7 "@lengthOf(" 38 14 false; mkTok 42 "len" 39 0 false; mkTok 6 ")" 39 4 false; mkTok 40 "," 39 6 false; mkTok 42 "string_" 40 0 false; mkTok 7 "@lengthOf(" 40 8 false; mkTok 42 "Logon" 40 18 false; mkTok 6 ")" 41 0 false; mkTok 43 (string_of_bytes [96; 116; 97; 98; 9; 104; 101; 114; 101; 96]%N) 41 1 false; mkTok 40 "," 41 12 false; mkTok 42 "i64_" 42 0 false; mkTok 40 "," 42 4 false; mkTok 3 "}" 42 6 false; mkTok 40 "," 42 8 false; mkTok 3 "}" 43 4 false; mkTok 1 "options" 43 6 false; mkTok 2 "{" 44 4 false; mkTok 42 "matchKey" 44 5 false; mkTok 4 "=" 44 14 false; mkTok 31 """1""" 44 15 false; mkTok 41 ";" 44 19 false; mkTok 3 "}" 44 21 false; mkTok 1 "options" 45 0 false; mkTok 2 "{" 45 8 false; mkTok 3 "}" 45 10 false; mkTok 0 "<EOF>" 46 0 false] (mkPacket (mkPtok 35 "packet" 1 0 0) (Some (mkPtok 3 "}" 45 10 135)) [(DPacket (mkPacketDef (mkSpan (mkPtok 35 "packet" 1 0 0) (mkPtok 3 "}" 3 2 8)) None (mkPtok 35 "packet" 1 0 0) (mkPtok 42 "i64_" 1 7 1) (mkPtok 2 "{" 1 12 2) [(mkFieldWithAttr (mkSpan (mkPtok 5 "@calculatedFrom(" 2 4 3) (mkPtok 40 "," 3 0 7)) [(FACalculatedFrom (mkSpan (mkPtok 5 "@calculatedFrom(" 2 4 3) (mkPtok 6 ")" 2 25 5)) (mkCalculatedFrom (mkSpan (mkPtok 5 "@calculatedFrom(" 2 4 3) (mkPtok 6 ")" 2 25 5)) (mkPtok 5 "@calculatedFrom(" 2 4 3) (mkPtok 31 (string_of_bytes [34; 240; 159; 152; 128; 34]%N) 2 21 4) (mkPtok 6 ")" 2 25 5)))] (ObjectField (mkSpan (mkPtok 42 "leftPad" 2 27 6) (mkPtok 40 "," 3 0 7)) None (mkPtok 42 "leftPad" 2 27 6) None None (mkPtok 40 "," 3 0 7)))] (mkPtok 3 "}" 3 2 8))); (DPacket (mkPacketDef (mkSpan (mkPtok 35 "packet" 4 0 9) (mkPtok 3 "}" 43 4 125)) None (mkPtok 35 "packet" 4 0 9) (mkPtok 42 "As" 5 0 10) (mkPtok 2 "{" 6 4 11) [(mkFieldWithAttr (mkSpan (mkPtok 32 "@rightPad" 6 5 12) (mkPtok 40 "," 8 0 21)) [(FAPadding (mkSpan (mkPtok 32 "@rightPad" 6 5 12) (mkPtok 6 ")" 7 4 15)) (mkPaddingAttr (mkSpan (mkPtok 32 "@rightPad" 6 5 12) (mkPtok 6 ")" 7 4 15)) (mkPtok 32 "@rightPad" 6 5 12) (mkPtok 8 "(" 6 15 13) (Some (mkPtok 33 "' '" 6 17 14)) (mkPtok 6 ")" 7 4 15)))] (ObjectField (mkSpan (mkPtok 36 "repeat" 7 6 16) (mkPtok 40 "," 8 0 21)) (Some (mkPtok 36 "repeat" 7 6 16)) (mkPtok 42 "int" 7 13 17) (Some (mkPtok 42 "o" 7 17 18)) (Some (mkPtok 43 "`say ""hi""`" 7 19 19)) (mkPtok 40 "," 8 0 21))); (mkFieldWithAttr (mkSpan (mkPtok 42 "metadata" 8 2 22) (mkPtok 40 "," 19 17 55)) [] (InerObjectField (mkSpan (mkPtok 42 "metadata" 8 2 22) (mkPtok 40 "," 19 17 55)) None (InerObjectDecl (mkSpan (mkPtok 42 "metadata" 8 2 22) (mkPtok 3 "}" 19 15 54)) (mkPtok 42 "metadata" 8 2 22) (mkPtok 2 "{" 8 10 23) [(MatchField (mkSpan (mkPtok 38 "match" 8 11 24) (mkPtok 40 "," 18 4 50)) (mkMatchFieldDecl (mkSpan (mkPtok 38 "match" 8 11 24) (mkPtok 3 "}" 16 7 48)) (mkPtok 38 "match" 8 11 24) (mkPtok 42 "crc" 8 17 25) (mkPtok 17 "as" 8 21 26) (mkPtok 42 "matchKey" 8 24 27) (mkPtok 2 "{" 8 33 28) [(mkMatchPair (mkSpan (mkPtok 18 "[" 8 35 29) (mkPtok 42 "zchar" 12 0 41)) (MKList (mkKeyList (mkSpan (mkPtok 18 "[" 8 35 29) (mkPtok 13 "]" 8 80 37)) (mkPtok 18 "[" 8 35 29) (mkPtok 31 """CRC32""" 8 36 30) [((mkPtok 40 "," 8 44 31), (mkPtok 31 """// no comment""" 8 46 32)); ((mkPtok 40 "," 8 62 33), (mkPtok 31 """CRC32""" 8 64 34)); ((mkPtok 40 "," 8 72 35), (mkPtok 30 "65535" 8 74 36))] (mkPtok 13 "]" 8 80 37))) (mkPtok 39 ":" 9 0 38) (mkPtok 42 "zchar" 12 0 41) None); (mkMatchPair (mkSpan (mkPtok 30 "3" 12 6 42) (mkPtok 40 "," 16 5 47)) (MKDigits (mkPtok 30 "3" 12 6 42)) (mkPtok 39 ":" 13 0 43) (mkPtok 42 "i64_" 16 0 46) (Some (mkPtok 40 "," 16 5 47)))] (mkPtok 3 "}" 16 7 48)) (mkPtok 40 "," 18 4 50)); (ObjectField (mkSpan (mkPtok 36 "repeat" 18 6 51) (mkPtok 40 "," 19 12 53)) (Some (mkPtok 36 "repeat" 18 6 51)) (mkPtok 42 "stringy" 19 4 52) None None (mkPtok 40 "," 19 12 53))] (mkPtok 3 "}" 19 15 54)) (mkPtok 40 "," 19 17 55))); (mkFieldWithAttr (mkSpan (mkPtok 5 "@calculatedFrom(" 20 0 56) (mkPtok 40 "," 21 9 62)) [(FACalculatedFrom (mkSpan (mkPtok 5 "@calculatedFrom(" 20 0 56) (mkPtok 6 ")" 21 0 59)) (mkCalculatedFrom (mkSpan (mkPtok 5 "@calculatedFrom(" 20 0 56) (mkPtok 6 ")" 21 0 59)) (mkPtok 5 "@calculatedFrom(" 20 0 56) (mkPtok 31 (string_of_bytes [34; 92; 195; 169; 34]%N) 20 17 57) (mkPtok 6 ")" 21 0 59)))] (ObjectField (mkSpan (mkPtok 42 "_x" 21 2 60) (mkPtok 40 "," 21 9 62)) None (mkPtok 42 "_x" 21 2 60) (Some (mkPtok 42 "crc" 21 5 61)) None (mkPtok 40 "," 21 9 62))); (mkFieldWithAttr (mkSpan (mkPtok 42 "i64_" 21 11 63) (mkPtok 40 "," 23 4 68)) [] (CheckSumField (mkSpan (mkPtok 42 "i64_" 21 11 63) (mkPtok 40 "," 23 4 68)) (mkChecksumFieldDecl (mkSpan (mkPtok 42 "i64_" 21 11 63) (mkPtok 40 "," 23 4 68)) None (mkPtok 42 "i64_" 21 11 63) (mkCalculatedFrom (mkSpan (mkPtok 5 "@calculatedFrom(" 21 15 64) (mkPtok 6 ")" 21 47 66)) (mkPtok 5 "@calculatedFrom(" 21 15 64) (mkPtok 31 """// no comment""" 21 32 65) (mkPtok 6 ")" 21 47 66)) None (mkPtok 40 "," 23 4 68)))); (mkFieldWithAttr (mkSpan (mkPtok 32 "@rightPad" 24 0 69) (mkPtok 40 "," 25 26 78)) [(FAPadding (mkSpan (mkPtok 32 "@rightPad" 24 0 69) (mkPtok 6 ")" 24 16 72)) (mkPaddingAttr (mkSpan (mkPtok 32 "@rightPad" 24 0 69) (mkPtok 6 ")" 24 16 72)) (mkPtok 32 "@rightPad" 24 0 69) (mkPtok 8 "(" 24 10 70) (Some (mkPtok 33 "' '" 24 12 71)) (mkPtok 6 ")" 24 16 72)))] (LengthField (mkSpan (mkPtok 24 "i8" 24 17 73) (mkPtok 40 "," 25 26 78)) (mkLengthFieldDecl (mkSpan (mkPtok 24 "i8" 24 17 73) (mkPtok 40 "," 25 26 78)) (Some (TyBasic (mkSpan (mkPtok 24 "i8" 24 17 73) (mkPtok 24 "i8" 24 17 73)) (mkBasicType (mkSpan (mkPtok 24 "i8" 24 17 73) (mkPtok 24 "i8" 24 17 73)) (mkPtok 24 "i8" 24 17 73)))) (mkPtok 42 "float" 25 4 74) (mkLengthOf (mkSpan (mkPtok 7 "@lengthOf(" 25 10 75) (mkPtok 6 ")" 25 25 77)) (mkPtok 7 "@lengthOf(" 25 10 75) (mkPtok 42 "tag" 25 21 76) (mkPtok 6 ")" 25 25 77)) None (mkPtok 40 "," 25 26 78)))); (mkFieldWithAttr (mkSpan (mkPtok 9 "@tag(" 25 28 79) (mkPtok 40 "," 31 2 95)) [(FATag (mkSpan (mkPtok 9 "@tag(" 25 28 79) (mkPtok 6 ")" 28 4 83)) (mkTagAttr (mkSpan (mkPtok 9 "@tag(" 25 28 79) (mkPtok 6 ")" 28 4 83)) (mkPtok 9 "@tag(" 25 28 79) (mkPtok 30 "255" 28 0 82) (mkPtok 6 ")" 28 4 83)))] (MatchField (mkSpan (mkPtok 38 "match" 28 6 84) (mkPtok 40 "," 31 2 95)) (mkMatchFieldDecl (mkSpan (mkPtok 38 "match" 28 6 84) (mkPtok 3 "}" 31 0 94)) (mkPtok 38 "match" 28 6 84) (mkPtok 42 "rootA" 29 0 86) (mkPtok 17 "as" 29 6 87) (mkPtok 42 "A" 30 0 88) (mkPtok 2 "{" 30 2 89) [(mkMatchPair (mkSpan (mkPtok 31 """`tick`""" 30 4 90) (mkPtok 40 "," 30 19 93)) (MKString (mkPtok 31 """`tick`""" 30 4 90)) (mkPtok 39 ":" 30 13 91) (mkPtok 42 "asx" 30 15 92) (Some (mkPtok 40 "," 30 19 93)))] (mkPtok 3 "}" 31 0 94)) (mkPtok 40 "," 31 2 95))); (mkFieldWithAttr (mkSpan (mkPtok 42 "tag" 32 0 96) (mkPtok 40 "," 38 2 107)) [] (InerObjectField (mkSpan (mkPtok 42 "tag" 32 0 96) (mkPtok 40 "," 38 2 107)) None (InerObjectDecl (mkSpan (mkPtok 42 "tag" 32 0 96) (mkPtok 3 "}" 38 0 106)) (mkPtok 42 "tag" 32 0 96) (mkPtok 2 "{" 34 4 98) [(MetaField (mkSpan (mkPtok 14 "zchar[" 35 0 100) (mkPtok 40 "," 37 6 104)) None (mkMetaDecl (mkSpan (mkPtok 14 "zchar[" 35 0 100) (mkPtok 40 "," 37 6 104)) (TyFixed (mkSpan (mkPtok 14 "zchar[" 35 0 100) (mkPtok 13 "]" 37 0 102)) (mkFixedString (mkSpan (mkPtok 14 "zchar[" 35 0 100) (mkPtok 13 "]" 37 0 102)) (mkPtok 14 "zchar[" 35 0 100) (mkPtok 30 "10" 36 0 101) (mkPtok 13 "]" 37 0 102))) (mkPtok 42 "asx" 37 2 103) None (mkPtok 40 "," 37 6 104)))] (mkPtok 3 "}" 38 0 106)) (mkPtok 40 "," 38 2 107))); (mkFieldWithAttr (mkSpan (mkPtok 42 "Header" 38 4 108) (mkPtok 40 "," 42 8 124)) [] (InerObjectField (mkSpan (mkPtok 42 "Header" 38 4 108) (mkPtok 40 "," 42 8 124)) None (InerObjectDecl (mkSpan (mkPtok 42 "Header" 38 4 108) (mkPtok 3 "}" 42 6 123)) (mkPtok 42 "Header" 38 4 108) (mkPtok 2 "{" 38 11 109) [(LengthField (mkSpan (mkPtok 42 "A" 38 12 110) (mkPtok 40 "," 39 6 114)) (mkLengthFieldDecl (mkSpan (mkPtok 42 "A" 38 12 110) (mkPtok 40 "," 39 6 114)) None (mkPtok 42 "A" 38 12 110) (mkLengthOf (mkSpan (mkPtok 7 "@lengthOf(" 38 14 111) (mkPtok 6 ")" 39 4 113)) (mkPtok 7 "@lengthOf(" 38 14 111) (mkPtok 42 "len" 39 0 112) (mkPtok 6 ")" 39 4 113)) None (mkPtok 40 "," 39 6 114))); (LengthField (mkSpan (mkPtok 42 "string_" 40 0 115) (mkPtok 40 "," 41 12 120)) (mkLengthFieldDecl (mkSpan (mkPtok 42 "string_" 40 0 115) (mkPtok 40 "," 41 12 120)) None (mkPtok 42 "string_" 40 0 115) (mkLengthOf (mkSpan (mkPtok 7 "@lengthOf(" 40 8 116) (mkPtok 6 ")" 41 0 118)) (mkPtok 7 "@lengthOf(" 40 8 116) (mkPtok 42 "Logon" 40 18 117) (mkPtok 6 ")" 41 0 118)) (Some (mkPtok 43 (string_of_bytes [96; 116; 97; 98; 9; 104; 101; 114; 101; 96]%N) 41 1 119)) (mkPtok 40 "," 41 12 120))); (ObjectField (mkSpan (mkPtok 42 "i64_" 42 0 121) (mkPtok 40 "," 42 4 122)) None (mkPtok 42 "i64_" 42 0 121) None None (mkPtok 40 "," 42 4 122))] (mkPtok 3 "}" 42 6 123)) (mkPtok 40 "," 42 8 124)))] (mkPtok 3 "}" 43 4 125))); (DOption (mkOptionDef (mkSpan (mkPtok 1 "options" 43 6 126) (mkPtok 3 "}" 44 21 132)) (mkPtok 1 "options" 43 6 126) (mkPtok 2 "{" 44 4 127) [(mkOptionDecl (mkSpan (mkPtok 42 "matchKey" 44 5 128) (mkPtok 41 ";" 44 19 131)) (mkPtok 42 "matchKey" 44 5 128) (mkPtok 4 "=" 44 14 129) (VString (mkSpan (mkPtok 31 """1""" 44 15 130) (mkPtok 31 """1""" 44 15 130)) (mkPtok 31 """1""" 44 15 130)) (Some (mkPtok 41 ";" 44 19 131)))] (mkPtok 3 "}" 44 21 132))); (DOption (mkOptionDef (mkSpan (mkPtok 1 "options" 45 0 133) (mkPtok 3 "}" 45 10 135)) (mkPtok 1 "options" 45 0 133) (mkPtok 2 "{" 45 8 134) [] (mkPtok 3 "}" 45 10 135)))])).
+Eval vm_compute in ("<<<M1305>>>" ++ check (runes_of_ascii "packet msg_type
+{ @lengthOf(i64_
+) @leftPad (
+    ' '
 )
-    uint8 f32a
-, @rightPad (
-' ' ) @leftPad
-( '\x00')  @lengthOf( stringy ) T@lengthOf( charz
-    ), metadata matchKey , }
-    packet msg_type {
-    stringy zchar `" ++ [28040; 24687; 31867; 22411]%N ++ runes_of_ascii "` , }
-")).
-Eval vm_compute in ("<<<M729>>>" ++ check (runes_of_ascii "MetaData float { u8 Packet
-    ,
-    string i64_ `" ++ [28040; 24687; 31867; 22411]%N ++ runes_of_ascii "`
-, charz pack , char
-rootA ,char[0123456789 ] msg_type ,
-    uint8 calculatedFrom , } packet	Pad
-    { }
-    root packet len{ // c
-matchKey
-    @calculatedFrom(""a\""b""
-    ) `u8 x,`
-, //x
-@leftPad
-    ( ) match roots as u128{ [  4294967296
-    // packet A { u8 x, }
-    , 007] :body , } , charz ,
-    // trailing space 
-    }")).
-Eval vm_compute in ("<<<M761>>>" ++ check (runes_of_ascii "root packet //
-Pad {
-    char[
-00
-]
-stringy @calculatedFrom( ""\" ++ [233]%N ++ runes_of_ascii """ ) `it's`,zchar{
-falsey
-Header // @lengthOf(
-`two words` , Packet
-@lengthOf( int ) `` ,charz
-asx , u32 A , }	, string
-    metadata, repeat
-char[
-1 ]	crc`
-`
-, Foo `it's` ,}packet
-    // c
-    rootA
-    { repeat
-    i32 matchKey , repeat x_y_z `// not a comment`, roots
-    @calculatedFrom(
-""\n"" ),
-x_y_z {
-    zchar[ 42]
-// packet A { u8 x, }
-// " ++ [27880; 37322]%N ++ runes_of_ascii "
-charz@lengthOf( u128 ) // " ++ [128512]%N ++ runes_of_ascii " emoji
-, leftPad`line1
-line2` ,}
-, falsey crc`crlf
-line`,
-    repeat
-// " ++ [128512]%N ++ runes_of_ascii " emoji
-// c
-char
-i64_ `a\` , }
-    packet Packet { repeat //	t
-i64_{ repeat metadata  { repeatCount `{ , }`,  int16// c
-o , },
-    //	t
-    repeat uint64	A , float @calculatedFrom(
-""a\""b""
-    )
-, zchar[	7 ]
-T , }
-, @leftPad
-( '\x00')
-    repeatCount	`a\` , } MetaData o // " ++ [27880; 37322]%N ++ runes_of_ascii "
-{
     // a // b
-    int
+    char[1
+    ] float @lengthOf( matchKey
+)
+,} // " ++ [128512]%N ++ runes_of_ascii " emoji")).
+Eval vm_compute in ("<<<M1337>>>" ++ check (runes_of_ascii "packet chars {@tag( //	t
+007 ) roots
+    zchar , } packet
+MetaDataX  { }
+// 50% %s
 // packet A { u8 x, }
-// @lengthOf(
-repeatCount`line1
-line2` ,} options	{ msg_type
-=
-00//x
-}")).
-Eval vm_compute in ("<<<M793>>>" ++ check (runes_of_ascii "
 MetaData
-    A{ calculatedFrom
-falsey `line1
-line2` , //x
-char[ 255 ]T
-    `
-` , float32 Logon ,
-    stringy
-i8i8 ,
-char[]rootA
-`{ , }` , }
+int { }
 ")).
-Eval vm_compute in ("<<<M825>>>" ++ check (runes_of_ascii "options
-    { }
-")).
-Eval vm_compute in ("<<<T825>>>" ++ terms [mkTok 1 "options" 1 0 false; mkTok 2 "{" 2 4 false; mkTok 3 "}" 2 6 false; mkTok 0 "<EOF>" 3 0 false] (mkPacket (mkPtok 1 "options" 1 0 0) (Some (mkPtok 3 "}" 2 6 2)) [(DOption (mkOptionDef (mkSpan (mkPtok 1 "options" 1 0 0) (mkPtok 3 "}" 2 6 2)) (mkPtok 1 "options" 1 0 0) (mkPtok 2 "{" 2 4 1) [] (mkPtok 3 "}" 2 6 2)))])).
-Eval vm_compute in ("<<<M857>>>" ++ check (runes_of_ascii "//	t
-MetaData
-    chars { falsey pack , packetx zchar
-    `
-`	, } // " ++ [128512]%N ++ runes_of_ascii " emoji
-packet u128
-    {@lengthOf(tag ) @tag(
-    // trailing space 
-    1)
-@rightPad
-(
-'\x00'
-    ) i64 T
-,
-}")).
-Eval vm_compute in ("<<<M889>>>" ++ check (runes_of_ascii "options
-{A =
-char ; } MetaData// @lengthOf(
-metadata { crc matchKey `u8 x,` ,
-    }")).
-Eval vm_compute in ("<<<M921>>>" ++ check (runes_of_ascii "packet zchar
-{ }")).
-Eval vm_compute in ("<<<M953>>>" ++ check (runes_of_ascii "
-MetaData
-    //	t
-    u { int8 body
-,
-    string Packet ,} options // `tick` ""quote"" 'q'
-{
-    matchKey =float64
-;
-}
-packet roots	{ // " ++ [128512]%N ++ runes_of_ascii " emoji
-@calculatedFrom(	""abc"")
-match MetaDataX
-// " ++ [27880; 37322]%N ++ runes_of_ascii "
-// c
-as // " ++ [27880; 37322]%N ++ runes_of_ascii "
-_x
-    { 007
-    : o[ 42  , ""x y""
-, 65535 , 1 ,
-65535
-    ,""a	b""	,4294967296 ,
-00 ]:f32a ""CRC32"" : repeatCount  , ""CRC32"" :u128 ,	} ,} options { } MetaData uint8x
-{
-char[] u128 , body
-crc  `
-`,
-    lengthOf rootA ,// " ++ [128512]%N ++ runes_of_ascii " emoji
-i8 crc
-, }
-
-")).
-Eval vm_compute in ("<<<M985>>>" ++ check (runes_of_ascii "MetaData float
-{ // " ++ [27880; 37322]%N ++ runes_of_ascii "
-} root packet	Header {float  {
-i32 u8x @lengthOf( a1 )
-`u8 x,` , }
-, char[] i64_
-@calculatedFrom( ""a\\"" )
-`" ++ [233]%N ++ runes_of_ascii "`,
-    float64	packetx `{ , }`,
-    } // packet A { u8 x, }")).
-Eval vm_compute in ("<<<M1017>>>" ++ check (runes_of_ascii "MetaData	asx { u32
-asx
-    ,
-//
-// a // b
-roots Packet
-    // " ++ [128512]%N ++ runes_of_ascii " emoji
-    , }
-root packet
-pack{ // @lengthOf(
-len @calculatedFrom(""// no comment"" )
-    , match pack as leftPad { [007] // `tick` ""quote"" 'q'
-:	crc
-    //	t
-    ,10 :
-    tag
-    ,7 : packetx
-    ,
-""" ++ [28040; 24687]%N ++ runes_of_ascii """ : stringy ,
-65535
-:
-    i64_ ,1
-: MetaDataX ,
-}	, zchar[
-    /// triple
-    4294967296 ] chars @calculatedFrom(
-    //	t
-    ""\n""
-// `tick` ""quote"" 'q'
-// " ++ [27880; 37322]%N ++ runes_of_ascii "
-) ,
-    }
-")).
-Eval vm_compute in ("<<<M1049>>>" ++ check (runes_of_ascii "
-root packet _x{@lengthOf(
+Eval vm_compute in ("<<<M1369>>>" ++ check (runes_of_ascii "packet stringy { } // c
+MetaData rootA
+{ zchar[
+42 ]	rootA
+`it's`  , Logon i64_  ,
+char[] repeatCount
+`two words`	,
     //
-    options1 ) charz @lengthOf( Foo
-)	,// packet A { u8 x, }
-} packet metadata
-    { }
-    packet
-crc  { stringy@calculatedFrom(  ""packet"" )
-`// not a comment` , @tag(42 )repeat
-leftPad	{body@calculatedFrom( ""a\""b"" ) `two words`, } ,@tag( 1	) repeat uint16 packetx `a\` // trailing space 
-,repeat zchar[ 00]matchKey
-/// triple
-//x
-``
-,@calculatedFrom(	""`tick`"" )//
-@calculatedFrom( ""1""
-) char[ 00]
-u128 @lengthOf(
-    a1 ) , @lengthOf( lengthOf)@rightPad
-    (
-    '0'
-) @lengthOf(u128) rootA, } options
-    { } packet u128 { @tag(
-    // `tick` ""quote"" 'q'
-    3 )
-    @tag(
-    // packet A { u8 x, }
-    255 /// triple
-) @lengthOf(
-_x )	char crc
-    `// not a comment`
-// " ++ [128512]%N ++ runes_of_ascii " emoji
-//	t
-,repeat matchKey
-    repeatCount , repeat
-    T
-    `a\`
-,	@tag( 00 ) repeat rootA`tab	here`, } //	t")).
-Eval vm_compute in ("<<<T1049>>>" ++ terms [mkTok 34 "root" 2 0 false; mkTok 35 "packet" 2 5 false; mkTok 42 "_x" 2 12 false; mkTok 2 "{" 2 14 false; mkTok 7 "@lengthOf(" 2 15 false; mkTok 44 "//" 3 4 true; mkTok 42 "options1" 4 4 false; mkTok 6 ")" 4 13 false; mkTok 42 "charz" 4 15 false; mkTok 7 "@lengthOf(" 4 21 false; mkTok 42 "Foo" 4 32 false; mkTok 6 ")" 5 0 false; mkTok 40 "," 5 2 false; mkTok 44 "// packet A { u8 x, }" 5 3 true; mkTok 3 "}" 6 0 false; mkTok 35 "packet" 6 2 false; mkTok 42 "metadata" 6 9 false; mkTok 2 "{" 7 4 false; mkTok 3 "}" 7 6 false; mkTok 35 "packet" 8 4 false; mkTok 42 "crc" 9 0 false; mkTok 2 "{" 9 5 false; mkTok 42 "stringy" 9 7 false; mkTok 5 "@calculatedFrom(" 9 14 false; mkTok 31 """packet""" 9 32 false; mkTok 6 ")" 9 41 false; mkTok 43 "`// not a comment`" 10 0 false; mkTok 40 "," 10 19 false; mkTok 9 "@tag(" 10 21 false; mkTok 30 "42" 10 26 false; mkTok 6 ")" 10 29 false; mkTok 36 "repeat" 10 30 false; mkTok 42 "leftPad" 11 0 false; mkTok 2 "{" 11 8 false; mkTok 42 "body" 11 9 false; mkTok 5 "@calculatedFrom(" 11 13 false; mkTok 31 """a\""b""" 11 30 false; mkTok 6 ")" 11 37 false; mkTok 43 "`two words`" 11 39 false; mkTok 40 "," 11 50 false; mkTok 3 "}" 11 52 false; mkTok 40 "," 11 54 false; mkTok 9 "@tag(" 11 55 false; mkTok 30 "1" 11 61 false; mkTok 6 ")" 11 63 false; mkTok 36 "repeat" 11 65 false; mkTok 21 "uint16" 11 72 false; mkTok 42 "packetx" 11 79 false; mkTok 43 "`a\`" 11 87 false; mkTok 44 "// trailing space " 11 92 true; mkTok 40 "," 12 0 false; mkTok 36 "repeat" 12 1 false; mkTok 14 "zchar[" 12 8 false; mkTok 30 "00" 12 15 false; mkTok 13 "]" 12 17 false; mkTok 42 "matchKey" 12 18 false; mkTok 44 "/// triple" 13 0 true; mkTok 44 "//x" 14 0 true; mkTok 43 "``" 15 0 false; mkTok 40 "," 16 0 false; mkTok 5 "@calculatedFrom(" 16 1 false; mkTok 31 """`tick`""" 16 18 false; mkTok 6 ")" 16 27 false; mkTok 44 "//" 16 28 true; mkTok 5 "@calculatedFrom(" 17 0 false; mkTok 31 """1""" 17 17 false; mkTok 6 ")" 18 0 false; mkTok 12 "char[" 18 2 false; mkTok 30 "00" 18 8 false; mkTok 13 "]" 18 10 false; mkTok 42 "u128" 19 0 false; mkTok 7 "@lengthOf(" 19 5 false; mkTok 42 "a1" 20 4 false; mkTok 6 ")" 20 7 false; mkTok 40 "," 20 9 false; mkTok 7 "@lengthOf(" 20 11 false; mkTok 42 "lengthOf" 20 22 false; mkTok 6 ")" 20 30 false; mkTok 32 "@rightPad" 20 31 false; mkTok 8 "(" 21 4 false; mkTok 33 "'0'" 22 4 false; mkTok 6 ")" 23 0 false; mkTok 7 "@lengthOf(" 23 2 false; mkTok 42 "u128" 23 12 false; mkTok 6 ")" 23 16 false; mkTok 42 "rootA" 23 18 false; mkTok 40 "," 23 23 false; mkTok 3 "}" 23 25 false; mkTok 1 "options" 23 27 false; mkTok 2 "{" 24 4 false; mkTok 3 "}" 24 6 false; mkTok 35 "packet" 24 8 false; mkTok 42 "u128" 24 15 false; mkTok 2 "{" 24 20 false; mkTok 9 "@tag(" 24 22 false; mkTok 44 "// `tick` ""quote"" 'q'" 25 4 true; mkTok 30 "3" 26 4 false; mkTok 6 ")" 26 6 false; mkTok 9 "@tag(" 27 4 false; mkTok 44 "// packet A { u8 x, }" 28 4 true; mkTok 30 "255" 29 4 false; mkTok 44 "/// triple" 29 8 true; mkTok 6 ")" 30 0 false; mkTok 7 "@lengthOf(" 30 2 false; mkTok 42 "_x" 31 0 false; mkTok 6 ")" 31 3 false; mkTok 19 "char" 31 5 false; mkTok 42 "crc" 31 10 false; mkTok 43 "`// not a comment`" 32 4 false; mkTok 44 (string_of_bytes [47; 47; 32; 240; 159; 152; 128; 32; 101; 109; 111; 106; 105]%N) 33 0 true; mkTok 44 (string_of_bytes [47; 47; 9; 116]%N) 34 0 true; mkTok 40 "," 35 0 false; mkTok 36 "repeat" 35 1 false; mkTok 42 "matchKey" 35 8 false; mkTok 42 "repeatCount" 36 4 false; mkTok 40 "," 36 16 false; mkTok 36 "repeat" 36 18 false; mkTok 42 "T" 37 4 false; mkTok 43 "`a\`" 38 4 false; mkTok 40 "," 39 0 false; mkTok 9 "@tag(" 39 2 false; mkTok 30 "00" 39 8 false; mkTok 6 ")" 39 11 false; mkTok 36 "repeat" 39 13 false; mkTok 42 "rootA" 39 20 false; mkTok 43 (string_of_bytes [96; 116; 97; 98; 9; 104; 101; 114; 101; 96]%N) 39 25 false; mkTok 40 "," 39 35 false; mkTok 3 "}" 39 37 false; mkTok 44 (string_of_bytes [47; 47; 9; 116]%N) 39 39 true; mkTok 0 "<EOF>" 39 43 false] (mkPacket (mkPtok 34 "root" 2 0 0) (Some (mkPtok 3 "}" 39 37 127)) [(DPacket (mkPacketDef (mkSpan (mkPtok 34 "root" 2 0 0) (mkPtok 3 "}" 6 0 14)) (Some (mkPtok 34 "root" 2 0 0)) (mkPtok 35 "packet" 2 5 1) (mkPtok 42 "_x" 2 12 2) (mkPtok 2 "{" 2 14 3) [(mkFieldWithAttr (mkSpan (mkPtok 7 "@lengthOf(" 2 15 4) (mkPtok 40 "," 5 2 12)) [(FALengthOf (mkSpan (mkPtok 7 "@lengthOf(" 2 15 4) (mkPtok 6 ")" 4 13 7)) (mkLengthOf (mkSpan (mkPtok 7 "@lengthOf(" 2 15 4) (mkPtok 6 ")" 4 13 7)) (mkPtok 7 "@lengthOf(" 2 15 4) (mkPtok 42 "options1" 4 4 6) (mkPtok 6 ")" 4 13 7)))] (LengthField (mkSpan (mkPtok 42 "charz" 4 15 8) (mkPtok 40 "," 5 2 12)) (mkLengthFieldDecl (mkSpan (mkPtok 42 "charz" 4 15 8) (mkPtok 40 "," 5 2 12)) None (mkPtok 42 "charz" 4 15 8) (mkLengthOf (mkSpan (mkPtok 7 "@lengthOf(" 4 21 9) (mkPtok 6 ")" 5 0 11)) (mkPtok 7 "@lengthOf(" 4 21 9) (mkPtok 42 "Foo" 4 32 10) (mkPtok 6 ")" 5 0 11)) None (mkPtok 40 "," 5 2 12))))] (mkPtok 3 "}" 6 0 14))); (DPacket (mkPacketDef (mkSpan (mkPtok 35 "packet" 6 2 15) (mkPtok 3 "}" 7 6 18)) None (mkPtok 35 "packet" 6 2 15) (mkPtok 42 "metadata" 6 9 16) (mkPtok 2 "{" 7 4 17) [] (mkPtok 3 "}" 7 6 18))); (DPacket (mkPacketDef (mkSpan (mkPtok 35 "packet" 8 4 19) (mkPtok 3 "}" 23 25 87)) None (mkPtok 35 "packet" 8 4 19) (mkPtok 42 "crc" 9 0 20) (mkPtok 2 "{" 9 5 21) [(mkFieldWithAttr (mkSpan (mkPtok 42 "stringy" 9 7 22) (mkPtok 40 "," 10 19 27)) [] (CheckSumField (mkSpan (mkPtok 42 "stringy" 9 7 22) (mkPtok 40 "," 10 19 27)) (mkChecksumFieldDecl (mkSpan (mkPtok 42 "stringy" 9 7 22) (mkPtok 40 "," 10 19 27)) None (mkPtok 42 "stringy" 9 7 22) (mkCalculatedFrom (mkSpan (mkPtok 5 "@calculatedFrom(" 9 14 23) (mkPtok 6 ")" 9 41 25)) (mkPtok 5 "@calculatedFrom(" 9 14 23) (mkPtok 31 """packet""" 9 32 24) (mkPtok 6 ")" 9 41 25)) (Some (mkPtok 43 "`// not a comment`" 10 0 26)) (mkPtok 40 "," 10 19 27)))); (mkFieldWithAttr (mkSpan (mkPtok 9 "@tag(" 10 21 28) (mkPtok 40 "," 11 54 41)) [(FATag (mkSpan (mkPtok 9 "@tag(" 10 21 28) (mkPtok 6 ")" 10 29 30)) (mkTagAttr (mkSpan (mkPtok 9 "@tag(" 10 21 28) (mkPtok 6 ")" 10 29 30)) (mkPtok 9 "@tag(" 10 21 28) (mkPtok 30 "42" 10 26 29) (mkPtok 6 ")" 10 29 30)))] (InerObjectField (mkSpan (mkPtok 36 "repeat" 10 30 31) (mkPtok 40 "," 11 54 41)) (Some (mkPtok 36 "repeat" 10 30 31)) (InerObjectDecl (mkSpan (mkPtok 42 "leftPad" 11 0 32) (mkPtok 3 "}" 11 52 40)) (mkPtok 42 "leftPad" 11 0 32) (mkPtok 2 "{" 11 8 33) [(CheckSumField (mkSpan (mkPtok 42 "body" 11 9 34) (mkPtok 40 "," 11 50 39)) (mkChecksumFieldDecl (mkSpan (mkPtok 42 "body" 11 9 34) (mkPtok 40 "," 11 50 39)) None (mkPtok 42 "body" 11 9 34) (mkCalculatedFrom (mkSpan (mkPtok 5 "@calculatedFrom(" 11 13 35) (mkPtok 6 ")" 11 37 37)) (mkPtok 5 "@calculatedFrom(" 11 13 35) (mkPtok 31 """a\""b""" 11 30 36) (mkPtok 6 ")" 11 37 37)) (Some (mkPtok 43 "`two words`" 11 39 38)) (mkPtok 40 "," 11 50 39)))] (mkPtok 3 "}" 11 52 40)) (mkPtok 40 "," 11 54 41))); (mkFieldWithAttr (mkSpan (mkPtok 9 "@tag(" 11 55 42) (mkPtok 40 "," 12 0 50)) [(FATag (mkSpan (mkPtok 9 "@tag(" 11 55 42) (mkPtok 6 ")" 11 63 44)) (mkTagAttr (mkSpan (mkPtok 9 "@tag(" 11 55 42) (mkPtok 6 ")" 11 63 44)) (mkPtok 9 "@tag(" 11 55 42) (mkPtok 30 "1" 11 61 43) (mkPtok 6 ")" 11 63 44)))] (MetaField (mkSpan (mkPtok 36 "repeat" 11 65 45) (mkPtok 40 "," 12 0 50)) (Some (mkPtok 36 "repeat" 11 65 45)) (mkMetaDecl (mkSpan (mkPtok 21 "uint16" 11 72 46) (mkPtok 40 "," 12 0 50)) (TyBasic (mkSpan (mkPtok 21 "uint16" 11 72 46) (mkPtok 21 "uint16" 11 72 46)) (mkBasicType (mkSpan (mkPtok 21 "uint16" 11 72 46) (mkPtok 21 "uint16" 11 72 46)) (mkPtok 21 "uint16" 11 72 46))) (mkPtok 42 "packetx" 11 79 47) (Some (mkPtok 43 "`a\`" 11 87 48)) (mkPtok 40 "," 12 0 50)))); (mkFieldWithAttr (mkSpan (mkPtok 36 "repeat" 12 1 51) (mkPtok 40 "," 16 0 59)) [] (MetaField (mkSpan (mkPtok 36 "repeat" 12 1 51) (mkPtok 40 "," 16 0 59)) (Some (mkPtok 36 "repeat" 12 1 51)) (mkMetaDecl (mkSpan (mkPtok 14 "zchar[" 12 8 52) (mkPtok 40 "," 16 0 59)) (TyFixed (mkSpan (mkPtok 14 "zchar[" 12 8 52) (mkPtok 13 "]" 12 17 54)) (mkFixedString (mkSpan (mkPtok 14 "zchar[" 12 8 52) (mkPtok 13 "]" 12 17 54)) (mkPtok 14 "zchar[" 12 8 52) (mkPtok 30 "00" 12 15 53) (mkPtok 13 "]" 12 17 54))) (mkPtok 42 "matchKey" 12 18 55) (Some (mkPtok 43 "``" 15 0 58)) (mkPtok 40 "," 16 0 59)))); (mkFieldWithAttr (mkSpan (mkPtok 5 "@calculatedFrom(" 16 1 60) (mkPtok 40 "," 20 9 74)) [(FACalculatedFrom (mkSpan (mkPtok 5 "@calculatedFrom(" 16 1 60) (mkPtok 6 ")" 16 27 62)) (mkCalculatedFrom (mkSpan (mkPtok 5 "@calculatedFrom(" 16 1 60) (mkPtok 6 ")" 16 27 62)) (mkPtok 5 "@calculatedFrom(" 16 1 60) (mkPtok 31 """`tick`""" 16 18 61) (mkPtok 6 ")" 16 27 62))); (FACalculatedFrom (mkSpan (mkPtok 5 "@calculatedFrom(" 17 0 64) (mkPtok 6 ")" 18 0 66)) (mkCalculatedFrom (mkSpan (mkPtok 5 "@calculatedFrom(" 17 0 64) (mkPtok 6 ")" 18 0 66)) (mkPtok 5 "@calculatedFrom(" 17 0 64) (mkPtok 31 """1""" 17 17 65) (mkPtok 6 ")" 18 0 66)))] (LengthField (mkSpan (mkPtok 12 "char[" 18 2 67) (mkPtok 40 "," 20 9 74)) (mkLengthFieldDecl (mkSpan (mkPtok 12 "char[" 18 2 67) (mkPtok 40 "," 20 9 74)) (Some (TyFixed (mkSpan (mkPtok 12 "char[" 18 2 67) (mkPtok 13 "]" 18 10 69)) (mkFixedString (mkSpan (mkPtok 12 "char[" 18 2 67) (mkPtok 13 "]" 18 10 69)) (mkPtok 12 "char[" 18 2 67) (mkPtok 30 "00" 18 8 68) (mkPtok 13 "]" 18 10 69)))) (mkPtok 42 "u128" 19 0 70) (mkLengthOf (mkSpan (mkPtok 7 "@lengthOf(" 19 5 71) (mkPtok 6 ")" 20 7 73)) (mkPtok 7 "@lengthOf(" 19 5 71) (mkPtok 42 "a1" 20 4 72) (mkPtok 6 ")" 20 7 73)) None (mkPtok 40 "," 20 9 74)))); (mkFieldWithAttr (mkSpan (mkPtok 7 "@lengthOf(" 20 11 75) (mkPtok 40 "," 23 23 86)) [(FALengthOf (mkSpan (mkPtok 7 "@lengthOf(" 20 11 75) (mkPtok 6 ")" 20 30 77)) (mkLengthOf (mkSpan (mkPtok 7 "@lengthOf(" 20 11 75) (mkPtok 6 ")" 20 30 77)) (mkPtok 7 "@lengthOf(" 20 11 75) (mkPtok 42 "lengthOf" 20 22 76) (mkPtok 6 ")" 20 30 77))); (FAPadding (mkSpan (mkPtok 32 "@rightPad" 20 31 78) (mkPtok 6 ")" 23 0 81)) (mkPaddingAttr (mkSpan (mkPtok 32 "@rightPad" 20 31 78) (mkPtok 6 ")" 23 0 81)) (mkPtok 32 "@rightPad" 20 31 78) (mkPtok 8 "(" 21 4 79) (Some (mkPtok 33 "'0'" 22 4 80)) (mkPtok 6 ")" 23 0 81))); (FALengthOf (mkSpan (mkPtok 7 "@lengthOf(" 23 2 82) (mkPtok 6 ")" 23 16 84)) (mkLengthOf (mkSpan (mkPtok 7 "@lengthOf(" 23 2 82) (mkPtok 6 ")" 23 16 84)) (mkPtok 7 "@lengthOf(" 23 2 82) (mkPtok 42 "u128" 23 12 83) (mkPtok 6 ")" 23 16 84)))] (ObjectField (mkSpan (mkPtok 42 "rootA" 23 18 85) (mkPtok 40 "," 23 23 86)) None (mkPtok 42 "rootA" 23 18 85) None None (mkPtok 40 "," 23 23 86)))] (mkPtok 3 "}" 23 25 87))); (DOption (mkOptionDef (mkSpan (mkPtok 1 "options" 23 27 88) (mkPtok 3 "}" 24 6 90)) (mkPtok 1 "options" 23 27 88) (mkPtok 2 "{" 24 4 89) [] (mkPtok 3 "}" 24 6 90))); (DPacket (mkPacketDef (mkSpan (mkPtok 35 "packet" 24 8 91) (mkPtok 3 "}" 39 37 127)) None (mkPtok 35 "packet" 24 8 91) (mkPtok 42 "u128" 24 15 92) (mkPtok 2 "{" 24 20 93) [(mkFieldWithAttr (mkSpan (mkPtok 9 "@tag(" 24 22 94) (mkPtok 40 "," 35 0 111)) [(FATag (mkSpan (mkPtok 9 "@tag(" 24 22 94) (mkPtok 6 ")" 26 6 97)) (mkTagAttr (mkSpan (mkPtok 9 "@tag(" 24 22 94) (mkPtok 6 ")" 26 6 97)) (mkPtok 9 "@tag(" 24 22 94) (mkPtok 30 "3" 26 4 96) (mkPtok 6 ")" 26 6 97))); (FATag (mkSpan (mkPtok 9 "@tag(" 27 4 98) (mkPtok 6 ")" 30 0 102)) (mkTagAttr (mkSpan (mkPtok 9 "@tag(" 27 4 98) (mkPtok 6 ")" 30 0 102)) (mkPtok 9 "@tag(" 27 4 98) (mkPtok 30 "255" 29 4 100) (mkPtok 6 ")" 30 0 102))); (FALengthOf (mkSpan (mkPtok 7 "@lengthOf(" 30 2 103) (mkPtok 6 ")" 31 3 105)) (mkLengthOf (mkSpan (mkPtok 7 "@lengthOf(" 30 2 103) (mkPtok 6 ")" 31 3 105)) (mkPtok 7 "@lengthOf(" 30 2 103) (mkPtok 42 "_x" 31 0 104) (mkPtok 6 ")" 31 3 105)))] (MetaField (mkSpan (mkPtok 19 "char" 31 5 106) (mkPtok 40 "," 35 0 111)) None (mkMetaDecl (mkSpan (mkPtok 19 "char" 31 5 106) (mkPtok 40 "," 35 0 111)) (TyBasic (mkSpan (mkPtok 19 "char" 31 5 106) (mkPtok 19 "char" 31 5 106)) (mkBasicType (mkSpan (mkPtok 19 "char" 31 5 106) (mkPtok 19 "char" 31 5 106)) (mkPtok 19 "char" 31 5 106))) (mkPtok 42 "crc" 31 10 107) (Some (mkPtok 43 "`// not a comment`" 32 4 108)) (mkPtok 40 "," 35 0 111)))); (mkFieldWithAttr (mkSpan (mkPtok 36 "repeat" 35 1 112) (mkPtok 40 "," 36 16 115)) [] (ObjectField (mkSpan (mkPtok 36 "repeat" 35 1 112) (mkPtok 40 "," 36 16 115)) (Some (mkPtok 36 "repeat" 35 1 112)) (mkPtok 42 "matchKey" 35 8 113) (Some (mkPtok 42 "repeatCount" 36 4 114)) None (mkPtok 40 "," 36 16 115))); (mkFieldWithAttr (mkSpan (mkPtok 36 "repeat" 36 18 116) (mkPtok 40 "," 39 0 119)) [] (ObjectField (mkSpan (mkPtok 36 "repeat" 36 18 116) (mkPtok 40 "," 39 0 119)) (Some (mkPtok 36 "repeat" 36 18 116)) (mkPtok 42 "T" 37 4 117) None (Some (mkPtok 43 "`a\`" 38 4 118)) (mkPtok 40 "," 39 0 119))); (mkFieldWithAttr (mkSpan (mkPtok 9 "@tag(" 39 2 120) (mkPtok 40 "," 39 35 126)) [(FATag (mkSpan (mkPtok 9 "@tag(" 39 2 120) (mkPtok 6 ")" 39 11 122)) (mkTagAttr (mkSpan (mkPtok 9 "@tag(" 39 2 120) (mkPtok 6 ")" 39 11 122)) (mkPtok 9 "@tag(" 39 2 120) (mkPtok 30 "00" 39 8 121) (mkPtok 6 ")" 39 11 122)))] (ObjectField (mkSpan (mkPtok 36 "repeat" 39 13 123) (mkPtok 40 "," 39 35 126)) (Some (mkPtok 36 "repeat" 39 13 123)) (mkPtok 42 "rootA" 39 20 124) None (Some (mkPtok 43 (string_of_bytes [96; 116; 97; 98; 9; 104; 101; 114; 101; 96]%N) 39 25 125)) (mkPtok 40 "," 39 35 126)))] (mkPtok 3 "}" 39 37 127)))])).
-Eval vm_compute in ("<<<M1081>>>" ++ check (runes_of_ascii "//x
-options {
-o =//x
-' '
-; }
+    int64 int
+, float64 tag `line1
+line2` , f32 Foo `" ++ [233]%N ++ runes_of_ascii "` , }
 ")).
-Eval vm_compute in ("<<<M1113>>>" ++ check (runes_of_ascii "root packet u128 { }")).
-Eval vm_compute in ("<<<M1145>>>" ++ check (runes_of_ascii "packet i64_{
-@tag( 4294967296
-) As
-{ repeat f32
-BodyLength ,
-// trailing space 
-// a // b
-i64_ @calculatedFrom(""{,}""
-// @lengthOf(
-// a // b
-) ,	repeatCount
-packetx `" ++ [28040; 24687; 31867; 22411]%N ++ runes_of_ascii "`
-    ,}, @lengthOf( _x )
-options1 ,
-    //	t
-    options1 , @rightPad (
-'0') repeat // packet A { u8 x, }
-string Foo
-    ,
-    char[] string_@calculatedFrom(""a	b"" )// c
-`u8 x,` ,
-char[
-// packet A { u8 x, }
-// @lengthOf(
-65535]  x_y_z ,	repeat
-    options1 packetx/// triple
-, @lengthOf(
-matchKey )
-@calculatedFrom( ""\" ++ [233]%N ++ runes_of_ascii """) repeat
-    Logon // trailing space 
-asx , matchKey
-@lengthOf(
-// `tick` ""quote"" 'q'
-//
-lengthOf  )
-`u8 x,`
-    , // packet A { u8 x, }
-}root packet repeatCount{ @rightPad ( '\x00' ) u8 Packet `// not a comment`
-    , @calculatedFrom( ""CRC32""
-) i8i8 , repeat u{// `tick` ""quote"" 'q'
-char[255]u128 , i16
-    Packet `doc`, zchar[
-    3//
-]  BodyLength , char[]
-u
-    `say ""hi""`
-    ,
-} , int32 float ,i8 Logon , @lengthOf( rootA)  zchar[42 ] int @lengthOf( lengthOf ) , //
-repeat	char[ 42 ]
-metadata ,
-} packet falsey{ }
-")).
-Eval vm_compute in ("<<<M1177>>>" ++ check (runes_of_ascii "// " ++ [128512]%N ++ runes_of_ascii " emoji
-packet// @lengthOf(
-string_ {@calculatedFrom(
-""" ++ [233]%N ++ runes_of_ascii "t" ++ [233]%N ++ runes_of_ascii """) repeat
-    i64 MetaDataX  , u64 i8i8
-    `a\`
-,
-    As
-//
-// " ++ [27880; 37322]%N ++ runes_of_ascii "
-, // packet A { u8 x, }
+Eval vm_compute in ("<<<M1401>>>" ++ check (runes_of_ascii "
+root packet i8i8 { metadata `` , }root
+packet zchar { // 50% %s
 }
 ")).
-Eval vm_compute in ("<<<M1209>>>" ++ check (runes_of_ascii "packet
-    Logon
-{Foo , }")).
-Eval vm_compute in ("<<<M1241>>>" ++ check (runes_of_ascii "MetaData // packet A { u8 x, }
-lengthOf
-{ msg_type
-// `tick` ""quote"" 'q'
-// " ++ [128512]%N ++ runes_of_ascii " emoji
-metadata , float32 matchKey`" ++ [28040; 24687; 31867; 22411]%N ++ runes_of_ascii "`//
-,
-int32 body , zchar[ 0123456789
-    ] uint8x  , float32 int , int16 body , } //	t")).
-Eval vm_compute in ("<<<M1273>>>" ++ check (runes_of_ascii "root packet //
-i64_ { }")).
-Eval vm_compute in ("<<<T1273>>>" ++ terms [mkTok 34 "root" 1 0 false; mkTok 35 "packet" 1 5 false; mkTok 44 "//" 1 12 true; mkTok 42 "i64_" 2 0 false; mkTok 2 "{" 2 5 false; mkTok 3 "}" 2 7 false; mkTok 0 "<EOF>" 2 8 false] (mkPacket (mkPtok 34 "root" 1 0 0) (Some (mkPtok 3 "}" 2 7 5)) [(DPacket (mkPacketDef (mkSpan (mkPtok 34 "root" 1 0 0) (mkPtok 3 "}" 2 7 5)) (Some (mkPtok 34 "root" 1 0 0)) (mkPtok 35 "packet" 1 5 1) (mkPtok 42 "i64_" 2 0 3) (mkPtok 2 "{" 2 5 4) [] (mkPtok 3 "}" 2 7 5)))])).
-Eval vm_compute in ("<<<M1305>>>" ++ check (runes_of_ascii "//	t
-options
-    {
-    packetx = '\x00' len =	false // packet A { u8 x, }
-As =
-""a\""b"" ;} packet
-BodyLength {string options1  `crlf
-line`
-, // c
-repeatCount @lengthOf( matchKey
-) , }")).
-Eval vm_compute in ("<<<M1337>>>" ++ check (runes_of_ascii "// a // b
-options
-    { i64_ //
-=
-    false ; BodyLength
-    =
-    10	;} packet msg_type { @lengthOf( msg_type) match rootA as
-    tag { ""1""	:// `tick` ""quote"" 'q'
-u8x ,[""x y""
-    ,// " ++ [128512]%N ++ runes_of_ascii " emoji
-""" ++ [233]%N ++ runes_of_ascii "t" ++ [233]%N ++ runes_of_ascii """, 0123456789
-, 007 , 7, 255 ,	7 , 65535]:matchKey,4294967296 :chars""packet"" : charz
-    ,
-    ""// no comment"": // a // b
-i64_ ,
-10 : MetaDataX  ,} , @lengthOf( metadata )
-MetaDataX@calculatedFrom(""" ++ [233]%N ++ runes_of_ascii "t" ++ [233]%N ++ runes_of_ascii """ ) `
-` , f32a{
-matchKey, } , zchar[10 ]  _x
-`line1
-line2` ,metadata crc ,	@lengthOf( body) char[
-3  ]string_ ,repeat T , trueish// @lengthOf(
-i8i8 ,f32
-Header`
-`,	@leftPad	(' ' ) char[00 ]o , } packet zchar { @lengthOf( Packet
-) @lengthOf( falsey)// " ++ [128512]%N ++ runes_of_ascii " emoji
-repeat rootA `doc`
-    , @leftPad // " ++ [128512]%N ++ runes_of_ascii " emoji
-( ' '
-// @lengthOf(
-// @lengthOf(
-) char[] float @lengthOf(
-roots )
-,
-    }root packet //x
-lengthOf{
-rootA// trailing space 
-@calculatedFrom(
-    ""it's"" ) ,
-} root
-    packet repeatCount// a // b
-{ }
-")).
-Eval vm_compute in ("<<<M1369>>>" ++ check (runes_of_ascii "
-MetaData i64_
-{ A crc`crlf
-line`, } options
-// " ++ [27880; 37322]%N ++ runes_of_ascii "
-// @lengthOf(
-{ int =
-    i8
-    }")).
-Eval vm_compute in ("<<<M1401>>>" ++ check (runes_of_ascii "//	t
-packet crc { } MetaData len  { stringy	body `line1
-line2`	, u16 crc , //
-zchar[007 ] Z9_ , Header T,
-} packet stringy //	t
-{	@lengthOf( u8x )match A as
-// @lengthOf(
-/// triple
-BodyLength
-    {
-""{,}"" : o // " ++ [128512]%N ++ runes_of_ascii " emoji
-} ,repeat
-    //
-    zchar[
-255 ]packetx , A `" ++ [233]%N ++ runes_of_ascii "` , BodyLength	msg_type
-    ,	}
-")).
-Eval vm_compute in ("<<<M1433>>>" ++ check (runes_of_ascii "
-root packet As {	u
-{ tag
-    a1
-, repeat charz `a\` , } ,match float
-    as
-u128 {""a\\"" : msg_type
-    ,""`tick`"": packetx, } , repeat
-char[
-    255 ] falsey `two words` ,
-f32
-    packetx  , zchar[0 //	t
-] options1 `{ , }`, repeat rootA
-    `
-` , }
-MetaData Header {
-u32 Header `` , }
-//x
-//x
-MetaData matchKey{ msg_type Z9_ ,
-}")).
-Eval vm_compute in ("<<<M1465>>>" ++ check (runes_of_ascii "packet float {  @lengthOf(
-matchKey )	int64	options1 @calculatedFrom( ""{,}"" )`it's`, repeat
-i32 msg_type `a\` ,  options1  @calculatedFrom(""it's""
-)  `// not a comment`, @lengthOf( roots) u8 repeatCount
-`say ""hi""` ,
-    int16 len, char[]
-chars @lengthOf(
-    repeatCount ) ,
-    /// triple
-    @calculatedFrom(""{,}"" ) match body as i64_{ ""x y""
-    :	pack  ,
-//
-// @lengthOf(
-}	,
-    A
-{ i8i8 @calculatedFrom(""a	b"" ),} // c
-, @leftPad( '\x00' ) /// triple
-metadata { repeat Foo	{	Z9_
-//x
-// `tick` ""quote"" 'q'
-trueish , } , }
-, @calculatedFrom(
-// " ++ [27880; 37322]%N ++ runes_of_ascii "
-/// triple
-""" ++ [233]%N ++ runes_of_ascii "t" ++ [233]%N ++ runes_of_ascii """ // " ++ [128512]%N ++ runes_of_ascii " emoji
-)
-@lengthOf( lengthOf	)
-    // packet A { u8 x, }
-    @rightPad  (
-    '\x00' // " ++ [128512]%N ++ runes_of_ascii " emoji
-)
-repeat
-    char[ 255] // c
-string_`a\` ,
-    }
-MetaData
-    trueish {o
-T	,	char[ 1 ] BodyLength`{ , }` , } packet Logon
-{ @calculatedFrom(""a\\"") // `tick` ""quote"" 'q'
-match roots  as
-As { 255:stringy , [ // packet A { u8 x, }
-10 , """" , """ ++ [233]%N ++ runes_of_ascii "t" ++ [233]%N ++ runes_of_ascii """
-, ""a\""b"" ,
-    ""\" ++ [233]%N ++ runes_of_ascii """ ]
-:  _x  , }
-, }	packet
-    i64_	{ // a // b
-@tag( 007
-)float32	metadata`two words`
-// @lengthOf(
-// `tick` ""quote"" 'q'
-,	match Header as matchKey{	""`tick`"" : Pad ,[""a\""b"" ,""a	b""
-    , 65535
-// packet A { u8 x, }
-// packet A { u8 x, }
-,
-10  ,""1""
-,  ""a\""b"" , ""abc"",
-""`tick`""] : rootA	,[255 , ""a\""b"" ]:// trailing space 
-body ,
-    // `tick` ""quote"" 'q'
-    ""\n""	: stringy
-    ,
-    [ 0  , ""\" ++ [233]%N ++ runes_of_ascii """ ,	""\" ++ [233]%N ++ runes_of_ascii """ , 65535 , 3
-    ,0 ,""1"" ,
-//x
-// trailing space 
-42 ]
-:Z9_,
-// a // b
-// @lengthOf(
-""a\""b"" //
-: string_ , } ,len
-MetaDataX ,u @lengthOf(calculatedFrom  ) `a\` , Foo {
-    match crc
-// @lengthOf(
-// `tick` ""quote"" 'q'
-as
-    // trailing space 
-    asx // " ++ [27880; 37322]%N ++ runes_of_ascii "
-{
-""1"":leftPad
-    ,
-""" ++ [128512]%N ++ runes_of_ascii """
-: leftPad
-[ ""{,}""  ] : string_
-, ""CRC32"":
-crc, 42 :u
-    }
-    ,
-    match asx as u {
-    [4294967296 ,1	]:	zchar ,//x
-} ,	string body ,
-    // " ++ [128512]%N ++ runes_of_ascii " emoji
-    lengthOf asx
-    `two words`
-    // trailing space 
-    , } ,charz @calculatedFrom( ""abc"" ) // trailing space 
-`{ , }` ,char[
-// a // b
-//x
-0123456789]
-    // a // b
-    o @lengthOf( packetx )
-    // " ++ [128512]%N ++ runes_of_ascii " emoji
-    , }")).
-Eval vm_compute in ("<<<M1497>>>" ++ check (runes_of_ascii "
-packet msg_type { } MetaData
-leftPad { int32
-calculatedFrom`
-`  ,
-    } /// triple")).
-Eval vm_compute in ("<<<T1497>>>" ++ terms [mkTok 35 "packet" 2 0 false; mkTok 42 "msg_type" 2 7 false; mkTok 2 "{" 2 16 false; mkTok 3 "}" 2 18 false; mkTok 37 "MetaData" 2 20 false; mkTok 42 "leftPad" 3 0 false; mkTok 2 "{" 3 8 false; mkTok 26 "int32" 3 10 false; mkTok 42 "calculatedFrom" 4 0 false; mkTok 43 (string_of_bytes [96; 10; 96]%N) 4 14 false; mkTok 40 "," 5 3 false; mkTok 3 "}" 6 4 false; mkTok 44 "/// triple" 6 6 true; mkTok 0 "<EOF>" 6 16 false] (mkPacket (mkPtok 35 "packet" 2 0 0) (Some (mkPtok 3 "}" 6 4 11)) [(DPacket (mkPacketDef (mkSpan (mkPtok 35 "packet" 2 0 0) (mkPtok 3 "}" 2 18 3)) None (mkPtok 35 "packet" 2 0 0) (mkPtok 42 "msg_type" 2 7 1) (mkPtok 2 "{" 2 16 2) [] (mkPtok 3 "}" 2 18 3))); (DMeta (mkMetaDef (mkSpan (mkPtok 37 "MetaData" 2 20 4) (mkPtok 3 "}" 6 4 11)) (mkPtok 37 "MetaData" 2 20 4) (mkPtok 42 "leftPad" 3 0 5) (mkPtok 2 "{" 3 8 6) [(MIDecl (mkMetaDecl (mkSpan (mkPtok 26 "int32" 3 10 7) (mkPtok 40 "," 5 3 10)) (TyBasic (mkSpan (mkPtok 26 "int32" 3 10 7) (mkPtok 26 "int32" 3 10 7)) (mkBasicType (mkSpan (mkPtok 26 "int32" 3 10 7) (mkPtok 26 "int32" 3 10 7)) (mkPtok 26 "int32" 3 10 7))) (mkPtok 42 "calculatedFrom" 4 0 8) (Some (mkPtok 43 (string_of_bytes [96; 10; 96]%N) 4 14 9)) (mkPtok 40 "," 5 3 10)))] (mkPtok 3 "}" 6 4 11)))])).
-Eval vm_compute in ("<<<M1529>>>" ++ check (runes_of_ascii "
-
-")).
-Eval vm_compute in ("<<<M1561>>>" ++ check (runes_of_ascii "options{
-falsey
-    = true
-    }
-")).
-Eval vm_compute in ("<<<M1593>>>" ++ check (runes_of_ascii "packet msg_type
-{
-    // @lengthOf(
-    @calculatedFrom(
-    ""a	b"" ) a1 @lengthOf( int
-    ) , match Z9_ as metadata	{[ 4294967296 ,""a\\"" ] : u8x , 3 :string_ ,},}")).
-Eval vm_compute in ("<<<M1625>>>" ++ check (runes_of_ascii "options{	repeatCount = uint32 // trailing space 
-; } root
-packet rootA
-    {@lengthOf(
-    options1 )zchar[ 0 ] packetx	,} options {	body
-    =  """" ;
-    } packet	body	{@leftPad ( )	rootA  ,
-    falsey ,
-//	t
-// trailing space 
-@lengthOf(
-BodyLength ) @lengthOf(Pad  ) As@calculatedFrom( ""packet""
-)
-`// not a comment`
-, @lengthOf( metadata )
-match // " ++ [128512]%N ++ runes_of_ascii " emoji
-zchar as
-int { [
-4294967296 ,
-""a\\""
-]:
-metadata
-""it's"" :
-leftPad,  00 : T,} , @calculatedFrom( ""\n"")
-zchar[0 ]zchar,@calculatedFrom( ""CRC32""
-    )// trailing space 
-zchar[
+Eval vm_compute in ("<<<M1433>>>" ++ check (runes_of_ascii "packet uint8x // @lengthOf(
+{ match MetaDataX
+    as T	{0123456789 : options1 , } , zchar[ //x
+255
+] x_y_z ,
+    @lengthOf( Logon ) char[ 255 // a // b
+]
+    x `" ++ [233]%N ++ runes_of_ascii "` ,match Logon as
+pack{
+    ""packet""
+: tag ,} , int@calculatedFrom(""" ++ [233]%N ++ runes_of_ascii "t" ++ [233]%N ++ runes_of_ascii """) `" ++ [28040; 24687; 31867; 22411]%N ++ runes_of_ascii "`, char[ 255 ]
+    trueish
+@calculatedFrom(""a\""b"" ) ,zchar , } options {a1 = zchar[
 7
-] Foo
-    `" ++ [28040; 24687; 31867; 22411]%N ++ runes_of_ascii "` ,	string repeatCount
-// a // b
+    ]
 // @lengthOf(
-`" ++ [28040; 24687; 31867; 22411]%N ++ runes_of_ascii "` , @calculatedFrom( ""packet""
-    ) u32 packetx
-    , // trailing space 
-} //x")).
-Eval vm_compute in ("<<<M1657>>>" ++ check (runes_of_ascii "MetaData metadata {lengthOf
-options1//
-,}
-")).
-Eval vm_compute in ("<<<M1689>>>" ++ check (runes_of_ascii "root
-    packet roots {//	t
-} MetaData float /// triple
-{ char[] matchKey , uint16 packetx ,// c
-} // @lengthOf(")).
-Eval vm_compute in ("<<<M1721>>>" ++ check (runes_of_ascii "root packet i64_
-{
-    }
-    root
-packet //x
-int { match
-    // @lengthOf(
-    i64_ as
-    pack { 7 : //x
-asx,  007 :	body ,
-[ 007 ] : float } ,@tag( 42 ) MetaDataX, stringy@calculatedFrom( """ ++ [233]%N ++ runes_of_ascii "t" ++ [233]%N ++ runes_of_ascii """
-), // " ++ [128512]%N ++ runes_of_ascii " emoji
-roots
-    @calculatedFrom( ""packet"" )`line1
-line2` ,  i8i8 `// not a comment` ,} packet msg_type  {
-    match chars as Z9_ {
-    """"
-: A , }	, @tag( 65535  )
-    u128
-    { string
-T `crlf
-line` ,} , @lengthOf( Pad ) // packet A { u8 x, }
-Foo roots `a\`	,
-    i8 o  `crlf
-line` ,  } packet asx
-    { MetaDataX @calculatedFrom(	""CRC32""
-//
-// @lengthOf(
-) ,@leftPad (
-'0'
-    // " ++ [128512]%N ++ runes_of_ascii " emoji
-    )
-    zchar[ 255 ] BodyLength @calculatedFrom(
-""packet""	)
-`a\`
-, } root packet
-float// trailing space 
-{	float
-/// triple
-/// triple
-,@lengthOf(tag ) // " ++ [128512]%N ++ runes_of_ascii " emoji
-@lengthOf( Header  ) @calculatedFrom( """ ++ [128512]%N ++ runes_of_ascii """
-    ) uint16 x_y_z //x
-@lengthOf( u128)  ,
-    i8
-tag,@calculatedFrom( ""abc"" )char[  0123456789
-]
-body
-, }
-")).
-Eval vm_compute in ("<<<T1721>>>" ++ terms [mkTok 34 "root" 1 0 false; mkTok 35 "packet" 1 5 false; mkTok 42 "i64_" 1 12 false; mkTok 2 "{" 2 0 false; mkTok 3 "}" 3 4 false; mkTok 34 "root" 4 4 false; mkTok 35 "packet" 5 0 false; mkTok 44 "//x" 5 7 true; mkTok 42 "int" 6 0 false; mkTok 2 "{" 6 4 false; mkTok 38 "match" 6 6 false; mkTok 44 "// @lengthOf(" 7 4 true; mkTok 42 "i64_" 8 4 false; mkTok 17 "as" 8 9 false; mkTok 42 "pack" 9 4 false; mkTok 2 "{" 9 9 false; mkTok 30 "7" 9 11 false; mkTok 39 ":" 9 13 false; mkTok 44 "//x" 9 15 true; mkTok 42 "asx" 10 0 false; mkTok 40 "," 10 3 false; mkTok 30 "007" 10 6 false; mkTok 39 ":" 10 10 false; mkTok 42 "body" 10 12 false; mkTok 40 "," 10 17 false; mkTok 18 "[" 11 0 false; mkTok 30 "007" 11 2 false; mkTok 13 "]" 11 6 false; mkTok 39 ":" 11 8 false; mkTok 42 "float" 11 10 false; mkTok 3 "}" 11 16 false; mkTok 40 "," 11 18 false; mkTok 9 "@tag(" 11 19 false; mkTok 30 "42" 11 25 false; mkTok 6 ")" 11 28 false; mkTok 42 "MetaDataX" 11 30 false; mkTok 40 "," 11 39 false; mkTok 42 "stringy" 11 41 false; mkTok 5 "@calculatedFrom(" 11 48 false; mkTok 31 (string_of_bytes [34; 195; 169; 116; 195; 169; 34]%N) 11 65 false; mkTok 6 ")" 12 0 false; mkTok 40 "," 12 1 false; mkTok 44 (string_of_bytes [47; 47; 32; 240; 159; 152; 128; 32; 101; 109; 111; 106; 105]%N) 12 3 true; mkTok 42 "roots" 13 0 false; mkTok 5 "@calculatedFrom(" 14 4 false; mkTok 31 """packet""" 14 21 false; mkTok 6 ")" 14 30 false; mkTok 43 (string_of_bytes [96; 108; 105; 110; 101; 49; 10; 108; 105; 110; 101; 50; 96]%N) 14 31 false; mkTok 40 "," 15 7 false; mkTok 42 "i8i8" 15 10 false; mkTok 43 "`// not a comment`" 15 15 false; mkTok 40 "," 15 34 false; mkTok 3 "}" 15 35 false; mkTok 35 "packet" 15 37 false; mkTok 42 "msg_type" 15 44 false; mkTok 2 "{" 15 54 false; mkTok 38 "match" 16 4 false; mkTok 42 "chars" 16 10 false; mkTok 17 "as" 16 16 false; mkTok 42 "Z9_" 16 19 false; mkTok 2 "{" 16 23 false; mkTok 31 """""" 17 4 false; mkTok 39 ":" 18 0 false; mkTok 42 "A" 18 2 false; mkTok 40 "," 18 4 false; mkTok 3 "}" 18 6 false; mkTok 40 "," 18 8 false; mkTok 9 "@tag(" 18 10 false; mkTok 30 "65535" 18 16 false; mkTok 6 ")" 18 23 false; mkTok 42 "u128" 19 4 false; mkTok 2 "{" 20 4 false; mkTok 15 "string" 20 6 false; mkTok 42 "T" 21 0 false; mkTok 43 (string_of_bytes [96; 99; 114; 108; 102; 13; 10; 108; 105; 110; 101; 96]%N) 21 2 false; mkTok 40 "," 22 6 false; mkTok 3 "}" 22 7 false; mkTok 40 "," 22 9 false; mkTok 7 "@lengthOf(" 22 11 false; mkTok 42 "Pad" 22 22 false; mkTok 6 ")" 22 26 false; mkTok 44 "// packet A { u8 x, }" 22 28 true; mkTok 42 "Foo" 23 0 false; mkTok 42 "roots" 23 4 false; mkTok 43 "`a\`" 23 10 false; mkTok 40 "," 23 15 false; mkTok 24 "i8" 24 4 false; mkTok 42 "o" 24 7 false; mkTok 43 (string_of_bytes [96; 99; 114; 108; 102; 13; 10; 108; 105; 110; 101; 96]%N) 24 10 false; mkTok 40 "," 25 6 false; mkTok 3 "}" 25 9 false; mkTok 35 "packet" 25 11 false; mkTok 42 "asx" 25 18 false; mkTok 2 "{" 26 4 false; mkTok 42 "MetaDataX" 26 6 false; mkTok 5 "@calculatedFrom(" 26 16 false; mkTok 31 """CRC32""" 26 33 false; mkTok 44 "//" 27 0 true; mkTok 44 "// @lengthOf(" 28 0 true; mkTok 6 ")" 29 0 false; mkTok 40 "," 29 2 false; mkTok 32 "@leftPad" 29 3 false; mkTok 8 "(" 29 12 false; mkTok 33 "'0'" 30 0 false; mkTok 44 (string_of_bytes [47; 47; 32; 240; 159; 152; 128; 32; 101; 109; 111; 106; 105]%N) 31 4 true; mkTok 6 ")" 32 4 false; mkTok 14 "zchar[" 33 4 false; mkTok 30 "255" 33 11 false; mkTok 13 "]" 33 15 false; mkTok 42 "BodyLength" 33 17 false; mkTok 5 "@calculatedFrom(" 33 28 false; mkTok 31 """packet""" 34 0 false; mkTok 6 ")" 34 9 false; mkTok 43 "`a\`" 35 0 false; mkTok 40 "," 36 0 false; mkTok 3 "}" 36 2 false; mkTok 34 "root" 36 4 false; mkTok 35 "packet" 36 9 false; mkTok 42 "float" 37 0 false; mkTok 44 "// trailing space " 37 5 true; mkTok 2 "{" 38 0 false; mkTok 42 "float" 38 2 false; mkTok 44 "/// triple" 39 0 true; mkTok 44 "/// triple" 40 0 true; mkTok 40 "," 41 0 false; mkTok 7 "@lengthOf(" 41 1 false; mkTok 42 "tag" 41 11 false; mkTok 6 ")" 41 15 false; mkTok 44 (string_of_bytes [47; 47; 32; 240; 159; 152; 128; 32; 101; 109; 111; 106; 105]%N) 41 17 true; mkTok 7 "@lengthOf(" 42 0 false; mkTok 42 "Header" 42 11 false; mkTok 6 ")" 42 19 false; mkTok 5 "@calculatedFrom(" 42 21 false; mkTok 31 (string_of_bytes [34; 240; 159; 152; 128; 34]%N) 42 38 false; mkTok 6 ")" 43 4 false; mkTok 21 "uint16" 43 6 false; mkTok 42 "x_y_z" 43 13 false; mkTok 44 "//x" 43 19 true; mkTok 7 "@lengthOf(" 44 0 false; mkTok 42 "u128" 44 11 false; mkTok 6 ")" 44 15 false; mkTok 40 "," 44 18 false; mkTok 24 "i8" 45 4 false; mkTok 42 "tag" 46 0 false; mkTok 40 "," 46 3 false; mkTok 5 "@calculatedFrom(" 46 4 false; mkTok 31 """abc""" 46 21 false; mkTok 6 ")" 46 27 false; mkTok 12 "char[" 46 28 false; mkTok 30 "0123456789" 46 35 false; mkTok 13 "]" 47 0 false; mkTok 42 "body" 48 0 false; mkTok 40 "," 49 0 false; mkTok 3 "}" 49 2 false; mkTok 0 "<EOF>" 50 0 false] (mkPacket (mkPtok 34 "root" 1 0 0) (Some (mkPtok 3 "}" 49 2 153)) [(DPacket (mkPacketDef (mkSpan (mkPtok 34 "root" 1 0 0) (mkPtok 3 "}" 3 4 4)) (Some (mkPtok 34 "root" 1 0 0)) (mkPtok 35 "packet" 1 5 1) (mkPtok 42 "i64_" 1 12 2) (mkPtok 2 "{" 2 0 3) [] (mkPtok 3 "}" 3 4 4))); (DPacket (mkPacketDef (mkSpan (mkPtok 34 "root" 4 4 5) (mkPtok 3 "}" 15 35 52)) (Some (mkPtok 34 "root" 4 4 5)) (mkPtok 35 "packet" 5 0 6) (mkPtok 42 "int" 6 0 8) (mkPtok 2 "{" 6 4 9) [(mkFieldWithAttr (mkSpan (mkPtok 38 "match" 6 6 10) (mkPtok 40 "," 11 18 31)) [] (MatchField (mkSpan (mkPtok 38 "match" 6 6 10) (mkPtok 40 "," 11 18 31)) (mkMatchFieldDecl (mkSpan (mkPtok 38 "match" 6 6 10) (mkPtok 3 "}" 11 16 30)) (mkPtok 38 "match" 6 6 10) (mkPtok 42 "i64_" 8 4 12) (mkPtok 17 "as" 8 9 13) (mkPtok 42 "pack" 9 4 14) (mkPtok 2 "{" 9 9 15) [(mkMatchPair (mkSpan (mkPtok 30 "7" 9 11 16) (mkPtok 40 "," 10 3 20)) (MKDigits (mkPtok 30 "7" 9 11 16)) (mkPtok 39 ":" 9 13 17) (mkPtok 42 "asx" 10 0 19) (Some (mkPtok 40 "," 10 3 20))); (mkMatchPair (mkSpan (mkPtok 30 "007" 10 6 21) (mkPtok 40 "," 10 17 24)) (MKDigits (mkPtok 30 "007" 10 6 21)) (mkPtok 39 ":" 10 10 22) (mkPtok 42 "body" 10 12 23) (Some (mkPtok 40 "," 10 17 24))); (mkMatchPair (mkSpan (mkPtok 18 "[" 11 0 25) (mkPtok 42 "float" 11 10 29)) (MKList (mkKeyList (mkSpan (mkPtok 18 "[" 11 0 25) (mkPtok 13 "]" 11 6 27)) (mkPtok 18 "[" 11 0 25) (mkPtok 30 "007" 11 2 26) [] (mkPtok 13 "]" 11 6 27))) (mkPtok 39 ":" 11 8 28) (mkPtok 42 "float" 11 10 29) None)] (mkPtok 3 "}" 11 16 30)) (mkPtok 40 "," 11 18 31))); (mkFieldWithAttr (mkSpan (mkPtok 9 "@tag(" 11 19 32) (mkPtok 40 "," 11 39 36)) [(FATag (mkSpan (mkPtok 9 "@tag(" 11 19 32) (mkPtok 6 ")" 11 28 34)) (mkTagAttr (mkSpan (mkPtok 9 "@tag(" 11 19 32) (mkPtok 6 ")" 11 28 34)) (mkPtok 9 "@tag(" 11 19 32) (mkPtok 30 "42" 11 25 33) (mkPtok 6 ")" 11 28 34)))] (ObjectField (mkSpan (mkPtok 42 "MetaDataX" 11 30 35) (mkPtok 40 "," 11 39 36)) None (mkPtok 42 "MetaDataX" 11 30 35) None None (mkPtok 40 "," 11 39 36))); (mkFieldWithAttr (mkSpan (mkPtok 42 "stringy" 11 41 37) (mkPtok 40 "," 12 1 41)) [] (CheckSumField (mkSpan (mkPtok 42 "stringy" 11 41 37) (mkPtok 40 "," 12 1 41)) (mkChecksumFieldDecl (mkSpan (mkPtok 42 "stringy" 11 41 37) (mkPtok 40 "," 12 1 41)) None (mkPtok 42 "stringy" 11 41 37) (mkCalculatedFrom (mkSpan (mkPtok 5 "@calculatedFrom(" 11 48 38) (mkPtok 6 ")" 12 0 40)) (mkPtok 5 "@calculatedFrom(" 11 48 38) (mkPtok 31 (string_of_bytes [34; 195; 169; 116; 195; 169; 34]%N) 11 65 39) (mkPtok 6 ")" 12 0 40)) None (mkPtok 40 "," 12 1 41)))); (mkFieldWithAttr (mkSpan (mkPtok 42 "roots" 13 0 43) (mkPtok 40 "," 15 7 48)) [] (CheckSumField (mkSpan (mkPtok 42 "roots" 13 0 43) (mkPtok 40 "," 15 7 48)) (mkChecksumFieldDecl (mkSpan (mkPtok 42 "roots" 13 0 43) (mkPtok 40 "," 15 7 48)) None (mkPtok 42 "roots" 13 0 43) (mkCalculatedFrom (mkSpan (mkPtok 5 "@calculatedFrom(" 14 4 44) (mkPtok 6 ")" 14 30 46)) (mkPtok 5 "@calculatedFrom(" 14 4 44) (mkPtok 31 """packet""" 14 21 45) (mkPtok 6 ")" 14 30 46)) (Some (mkPtok 43 (string_of_bytes [96; 108; 105; 110; 101; 49; 10; 108; 105; 110; 101; 50; 96]%N) 14 31 47)) (mkPtok 40 "," 15 7 48)))); (mkFieldWithAttr (mkSpan (mkPtok 42 "i8i8" 15 10 49) (mkPtok 40 "," 15 34 51)) [] (ObjectField (mkSpan (mkPtok 42 "i8i8" 15 10 49) (mkPtok 40 "," 15 34 51)) None (mkPtok 42 "i8i8" 15 10 49) None (Some (mkPtok 43 "`// not a comment`" 15 15 50)) (mkPtok 40 "," 15 34 51)))] (mkPtok 3 "}" 15 35 52))); (DPacket (mkPacketDef (mkSpan (mkPtok 35 "packet" 15 37 53) (mkPtok 3 "}" 25 9 90)) None (mkPtok 35 "packet" 15 37 53) (mkPtok 42 "msg_type" 15 44 54) (mkPtok 2 "{" 15 54 55) [(mkFieldWithAttr (mkSpan (mkPtok 38 "match" 16 4 56) (mkPtok 40 "," 18 8 66)) [] (MatchField (mkSpan (mkPtok 38 "match" 16 4 56) (mkPtok 40 "," 18 8 66)) (mkMatchFieldDecl (mkSpan (mkPtok 38 "match" 16 4 56) (mkPtok 3 "}" 18 6 65)) (mkPtok 38 "match" 16 4 56) (mkPtok 42 "chars" 16 10 57) (mkPtok 17 "as" 16 16 58) (mkPtok 42 "Z9_" 16 19 59) (mkPtok 2 "{" 16 23 60) [(mkMatchPair (mkSpan (mkPtok 31 """""" 17 4 61) (mkPtok 40 "," 18 4 64)) (MKString (mkPtok 31 """""" 17 4 61)) (mkPtok 39 ":" 18 0 62) (mkPtok 42 "A" 18 2 63) (Some (mkPtok 40 "," 18 4 64)))] (mkPtok 3 "}" 18 6 65)) (mkPtok 40 "," 18 8 66))); (mkFieldWithAttr (mkSpan (mkPtok 9 "@tag(" 18 10 67) (mkPtok 40 "," 22 9 77)) [(FATag (mkSpan (mkPtok 9 "@tag(" 18 10 67) (mkPtok 6 ")" 18 23 69)) (mkTagAttr (mkSpan (mkPtok 9 "@tag(" 18 10 67) (mkPtok 6 ")" 18 23 69)) (mkPtok 9 "@tag(" 18 10 67) (mkPtok 30 "65535" 18 16 68) (mkPtok 6 ")" 18 23 69)))] (InerObjectField (mkSpan (mkPtok 42 "u128" 19 4 70) (mkPtok 40 "," 22 9 77)) None (InerObjectDecl (mkSpan (mkPtok 42 "u128" 19 4 70) (mkPtok 3 "}" 22 7 76)) (mkPtok 42 "u128" 19 4 70) (mkPtok 2 "{" 20 4 71) [(MetaField (mkSpan (mkPtok 15 "string" 20 6 72) (mkPtok 40 "," 22 6 75)) None (mkMetaDecl (mkSpan (mkPtok 15 "string" 20 6 72) (mkPtok 40 "," 22 6 75)) (TyDynamic (mkSpan (mkPtok 15 "string" 20 6 72) (mkPtok 15 "string" 20 6 72)) (mkDynamicString (mkSpan (mkPtok 15 "string" 20 6 72) (mkPtok 15 "string" 20 6 72)) (mkPtok 15 "string" 20 6 72))) (mkPtok 42 "T" 21 0 73) (Some (mkPtok 43 (string_of_bytes [96; 99; 114; 108; 102; 13; 10; 108; 105; 110; 101; 96]%N) 21 2 74)) (mkPtok 40 "," 22 6 75)))] (mkPtok 3 "}" 22 7 76)) (mkPtok 40 "," 22 9 77))); (mkFieldWithAttr (mkSpan (mkPtok 7 "@lengthOf(" 22 11 78) (mkPtok 40 "," 23 15 85)) [(FALengthOf (mkSpan (mkPtok 7 "@lengthOf(" 22 11 78) (mkPtok 6 ")" 22 26 80)) (mkLengthOf (mkSpan (mkPtok 7 "@lengthOf(" 22 11 78) (mkPtok 6 ")" 22 26 80)) (mkPtok 7 "@lengthOf(" 22 11 78) (mkPtok 42 "Pad" 22 22 79) (mkPtok 6 ")" 22 26 80)))] (ObjectField (mkSpan (mkPtok 42 "Foo" 23 0 82) (mkPtok 40 "," 23 15 85)) None (mkPtok 42 "Foo" 23 0 82) (Some (mkPtok 42 "roots" 23 4 83)) (Some (mkPtok 43 "`a\`" 23 10 84)) (mkPtok 40 "," 23 15 85))); (mkFieldWithAttr (mkSpan (mkPtok 24 "i8" 24 4 86) (mkPtok 40 "," 25 6 89)) [] (MetaField (mkSpan (mkPtok 24 "i8" 24 4 86) (mkPtok 40 "," 25 6 89)) None (mkMetaDecl (mkSpan (mkPtok 24 "i8" 24 4 86) (mkPtok 40 "," 25 6 89)) (TyBasic (mkSpan (mkPtok 24 "i8" 24 4 86) (mkPtok 24 "i8" 24 4 86)) (mkBasicType (mkSpan (mkPtok 24 "i8" 24 4 86) (mkPtok 24 "i8" 24 4 86)) (mkPtok 24 "i8" 24 4 86))) (mkPtok 42 "o" 24 7 87) (Some (mkPtok 43 (string_of_bytes [96; 99; 114; 108; 102; 13; 10; 108; 105; 110; 101; 96]%N) 24 10 88)) (mkPtok 40 "," 25 6 89))))] (mkPtok 3 "}" 25 9 90))); (DPacket (mkPacketDef (mkSpan (mkPtok 35 "packet" 25 11 91) (mkPtok 3 "}" 36 2 115)) None (mkPtok 35 "packet" 25 11 91) (mkPtok 42 "asx" 25 18 92) (mkPtok 2 "{" 26 4 93) [(mkFieldWithAttr (mkSpan (mkPtok 42 "MetaDataX" 26 6 94) (mkPtok 40 "," 29 2 100)) [] (CheckSumField (mkSpan (mkPtok 42 "MetaDataX" 26 6 94) (mkPtok 40 "," 29 2 100)) (mkChecksumFieldDecl (mkSpan (mkPtok 42 "MetaDataX" 26 6 94) (mkPtok 40 "," 29 2 100)) None (mkPtok 42 "MetaDataX" 26 6 94) (mkCalculatedFrom (mkSpan (mkPtok 5 "@calculatedFrom(" 26 16 95) (mkPtok 6 ")" 29 0 99)) (mkPtok 5 "@calculatedFrom(" 26 16 95) (mkPtok 31 """CRC32""" 26 33 96) (mkPtok 6 ")" 29 0 99)) None (mkPtok 40 "," 29 2 100)))); (mkFieldWithAttr (mkSpan (mkPtok 32 "@leftPad" 29 3 101) (mkPtok 40 "," 36 0 114)) [(FAPadding (mkSpan (mkPtok 32 "@leftPad" 29 3 101) (mkPtok 6 ")" 32 4 105)) (mkPaddingAttr (mkSpan (mkPtok 32 "@leftPad" 29 3 101) (mkPtok 6 ")" 32 4 105)) (mkPtok 32 "@leftPad" 29 3 101) (mkPtok 8 "(" 29 12 102) (Some (mkPtok 33 "'0'" 30 0 103)) (mkPtok 6 ")" 32 4 105)))] (CheckSumField (mkSpan (mkPtok 14 "zchar[" 33 4 106) (mkPtok 40 "," 36 0 114)) (mkChecksumFieldDecl (mkSpan (mkPtok 14 "zchar[" 33 4 106) (mkPtok 40 "," 36 0 114)) (Some (TyFixed (mkSpan (mkPtok 14 "zchar[" 33 4 106) (mkPtok 13 "]" 33 15 108)) (mkFixedString (mkSpan (mkPtok 14 "zchar[" 33 4 106) (mkPtok 13 "]" 33 15 108)) (mkPtok 14 "zchar[" 33 4 106) (mkPtok 30 "255" 33 11 107) (mkPtok 13 "]" 33 15 108)))) (mkPtok 42 "BodyLength" 33 17 109) (mkCalculatedFrom (mkSpan (mkPtok 5 "@calculatedFrom(" 33 28 110) (mkPtok 6 ")" 34 9 112)) (mkPtok 5 "@calculatedFrom(" 33 28 110) (mkPtok 31 """packet""" 34 0 111) (mkPtok 6 ")" 34 9 112)) (Some (mkPtok 43 "`a\`" 35 0 113)) (mkPtok 40 "," 36 0 114))))] (mkPtok 3 "}" 36 2 115))); (DPacket (mkPacketDef (mkSpan (mkPtok 34 "root" 36 4 116) (mkPtok 3 "}" 49 2 153)) (Some (mkPtok 34 "root" 36 4 116)) (mkPtok 35 "packet" 36 9 117) (mkPtok 42 "float" 37 0 118) (mkPtok 2 "{" 38 0 120) [(mkFieldWithAttr (mkSpan (mkPtok 42 "float" 38 2 121) (mkPtok 40 "," 41 0 124)) [] (ObjectField (mkSpan (mkPtok 42 "float" 38 2 121) (mkPtok 40 "," 41 0 124)) None (mkPtok 42 "float" 38 2 121) None None (mkPtok 40 "," 41 0 124))); (mkFieldWithAttr (mkSpan (mkPtok 7 "@lengthOf(" 41 1 125) (mkPtok 40 "," 44 18 141)) [(FALengthOf (mkSpan (mkPtok 7 "@lengthOf(" 41 1 125) (mkPtok 6 ")" 41 15 127)) (mkLengthOf (mkSpan (mkPtok 7 "@lengthOf(" 41 1 125) (mkPtok 6 ")" 41 15 127)) (mkPtok 7 "@lengthOf(" 41 1 125) (mkPtok 42 "tag" 41 11 126) (mkPtok 6 ")" 41 15 127))); (FALengthOf (mkSpan (mkPtok 7 "@lengthOf(" 42 0 129) (mkPtok 6 ")" 42 19 131)) (mkLengthOf (mkSpan (mkPtok 7 "@lengthOf(" 42 0 129) (mkPtok 6 ")" 42 19 131)) (mkPtok 7 "@lengthOf(" 42 0 129) (mkPtok 42 "Header" 42 11 130) (mkPtok 6 ")" 42 19 131))); (FACalculatedFrom (mkSpan (mkPtok 5 "@calculatedFrom(" 42 21 132) (mkPtok 6 ")" 43 4 134)) (mkCalculatedFrom (mkSpan (mkPtok 5 "@calculatedFrom(" 42 21 132) (mkPtok 6 ")" 43 4 134)) (mkPtok 5 "@calculatedFrom(" 42 21 132) (mkPtok 31 (string_of_bytes [34; 240; 159; 152; 128; 34]%N) 42 38 133) (mkPtok 6 ")" 43 4 134)))] (LengthField (mkSpan (mkPtok 21 "uint16" 43 6 135) (mkPtok 40 "," 44 18 141)) (mkLengthFieldDecl (mkSpan (mkPtok 21 "uint16" 43 6 135) (mkPtok 40 "," 44 18 141)) (Some (TyBasic (mkSpan (mkPtok 21 "uint16" 43 6 135) (mkPtok 21 "uint16" 43 6 135)) (mkBasicType (mkSpan (mkPtok 21 "uint16" 43 6 135) (mkPtok 21 "uint16" 43 6 135)) (mkPtok 21 "uint16" 43 6 135)))) (mkPtok 42 "x_y_z" 43 13 136) (mkLengthOf (mkSpan (mkPtok 7 "@lengthOf(" 44 0 138) (mkPtok 6 ")" 44 15 140)) (mkPtok 7 "@lengthOf(" 44 0 138) (mkPtok 42 "u128" 44 11 139) (mkPtok 6 ")" 44 15 140)) None (mkPtok 40 "," 44 18 141)))); (mkFieldWithAttr (mkSpan (mkPtok 24 "i8" 45 4 142) (mkPtok 40 "," 46 3 144)) [] (MetaField (mkSpan (mkPtok 24 "i8" 45 4 142) (mkPtok 40 "," 46 3 144)) None (mkMetaDecl (mkSpan (mkPtok 24 "i8" 45 4 142) (mkPtok 40 "," 46 3 144)) (TyBasic (mkSpan (mkPtok 24 "i8" 45 4 142) (mkPtok 24 "i8" 45 4 142)) (mkBasicType (mkSpan (mkPtok 24 "i8" 45 4 142) (mkPtok 24 "i8" 45 4 142)) (mkPtok 24 "i8" 45 4 142))) (mkPtok 42 "tag" 46 0 143) None (mkPtok 40 "," 46 3 144)))); (mkFieldWithAttr (mkSpan (mkPtok 5 "@calculatedFrom(" 46 4 145) (mkPtok 40 "," 49 0 152)) [(FACalculatedFrom (mkSpan (mkPtok 5 "@calculatedFrom(" 46 4 145) (mkPtok 6 ")" 46 27 147)) (mkCalculatedFrom (mkSpan (mkPtok 5 "@calculatedFrom(" 46 4 145) (mkPtok 6 ")" 46 27 147)) (mkPtok 5 "@calculatedFrom(" 46 4 145) (mkPtok 31 """abc""" 46 21 146) (mkPtok 6 ")" 46 27 147)))] (MetaField (mkSpan (mkPtok 12 "char[" 46 28 148) (mkPtok 40 "," 49 0 152)) None (mkMetaDecl (mkSpan (mkPtok 12 "char[" 46 28 148) (mkPtok 40 "," 49 0 152)) (TyFixed (mkSpan (mkPtok 12 "char[" 46 28 148) (mkPtok 13 "]" 47 0 150)) (mkFixedString (mkSpan (mkPtok 12 "char[" 46 28 148) (mkPtok 13 "]" 47 0 150)) (mkPtok 12 "char[" 46 28 148) (mkPtok 30 "0123456789" 46 35 149) (mkPtok 13 "]" 47 0 150))) (mkPtok 42 "body" 48 0 151) None (mkPtok 40 "," 49 0 152))))] (mkPtok 3 "}" 49 2 153)))])).
-Eval vm_compute in ("<<<M1753>>>" ++ check (runes_of_ascii "packet
-a1{ char[
-10 ] a1 `" ++ [28040; 24687; 31867; 22411]%N ++ runes_of_ascii "`/// triple
-, }")).
-Eval vm_compute in ("<<<M1785>>>" ++ check (runes_of_ascii "options//x
-{
-Foo
-=
-true ;
-} //	t
-packet
-    asx { match
-    asx
-    as
-Header {
-    // " ++ [27880; 37322]%N ++ runes_of_ascii "
-    [ 1,
-""""  , ""// no comment"" ,	""" ++ [28040; 24687]%N ++ runes_of_ascii """ ,
-// `tick` ""quote"" 'q'
-// packet A { u8 x, }
-7 ,	""a\""b"" , 3 , 3]
-:_x 0 :
-charz
-// packet A { u8 x, }
-// a // b
-, [""a	b""
-// " ++ [128512]%N ++ runes_of_ascii " emoji
-// @lengthOf(
-]
-    // " ++ [27880; 37322]%N ++ runes_of_ascii "
-    :
-//x
-//
-packetx , } ,
-// `tick` ""quote"" 'q'
-//
-x ,
-}")).
-Eval vm_compute in ("<<<M1817>>>" ++ check (runes_of_ascii "packet crc {repeat
-int16 charz `it's`
-    // " ++ [128512]%N ++ runes_of_ascii " emoji
-    ,
-    }
-packet zchar
-{ i64 crc , //	t
-}packet matchKey { }
-root
-packet
-falsey {repeat tag body `
-` // " ++ [27880; 37322]%N ++ runes_of_ascii "
-, /// triple
-}root
-packet As { trueish @lengthOf(rootA )
-, }
-")).
-Eval vm_compute in ("<<<M1849>>>" ++ check (runes_of_ascii "MetaData len
-{ trueish uint8x
-,
-}packet  x_y_z //x
-{ char[]	falsey `doc`
-, repeat// trailing space 
-crc// @lengthOf(
-{ Header
-`line1
-line2`
-    ,
-zchar[255]x `it's` , repeat float64 Header , uint8
-options1@lengthOf(// `tick` ""quote"" 'q'
-x_y_z
-) `a\` , }  ,MetaDataX// packet A { u8 x, }
-@calculatedFrom(
-    ""a	b"" )
-    ,u// a // b
-, repeat
-    body `a\` , uint8
-zchar
-@lengthOf(	Foo ) `a\`
-, // packet A { u8 x, }
-u8 uint8x , BodyLength chars , @calculatedFrom(""" ++ [233]%N ++ runes_of_ascii "t" ++ [233]%N ++ runes_of_ascii """)
-u8// `tick` ""quote"" 'q'
-repeatCount @lengthOf(
-options1
-// `tick` ""quote"" 'q'
-// a // b
-) , @lengthOf(
-o
-    ) tag @lengthOf(
-    o
-    ) ,
-//x
-/// triple
-} packet Packet {	} options {Foo // " ++ [27880; 37322]%N ++ runes_of_ascii "
-= '\x00'
-o
-    =65535// @lengthOf(
-;	Z9_=
-true ;	stringy =1 ;	pack =0
-//
 // a // b
 ;
+//	t
+// packet A { u8 x, }
 }
-")).
-Eval vm_compute in ("<<<M1881>>>" ++ check (runes_of_ascii "root
-packet
-metadata  { } packet// " ++ [27880; 37322]%N ++ runes_of_ascii "
-chars { }
-    // c
-    packet a1 { i8i8{
-repeat// a // b
-len{	float {repeat string_	chars , } ,
-string_ {x @calculatedFrom(
-""\" ++ [233]%N ++ runes_of_ascii """
-    // trailing space 
-    ),
-    repeat
-f64
-    i64_
-// `tick` ""quote"" 'q'
+    options { }
+options{ //x
+matchKey = ""it's"" ; } packet calculatedFrom // " ++ [27880; 37322]%N ++ runes_of_ascii "
+{ char[] u8x
+    @calculatedFrom(
+""" ++ [233]%N ++ runes_of_ascii "t" ++ [233]%N ++ runes_of_ascii """ ) ,
+@tag( 0123456789
+)	@tag(	4294967296 ) int64 a1
 // trailing space 
-,
-}, leftPad@calculatedFrom( ""{,}""	) `a\` ,Packet i8i8,
-} , repeat f32 matchKey , string o
-@calculatedFrom( ""abc"")
-// " ++ [27880; 37322]%N ++ runes_of_ascii "
+//	t
+, @lengthOf(	stringy //	t
+)
+As , @lengthOf(
+pack )	u16 u128// 50% %s
+@calculatedFrom( ""a	b"" )
+`u8 x,`
+, MetaDataX
+// a // b
 //
-,
-repeat
-    zchar[
-1
-] string_	`tab	here` , } ,
-}
+@lengthOf( u8x)	`crlf
+line` ,
+    @tag( // 50% %s
+0 ) repeat
+// 50% %s
+//x
+charz	,
+    float@lengthOf( As
+    )
+    //
+    `{ , }`
+    , }
+// 50% %s
 ")).
-Eval vm_compute in ("<<<M1913>>>" ++ check (runes_of_ascii "options { stringy =	true ;  Z9_	=	f32; }
+Eval vm_compute in ("<<<M1465>>>" ++ check (runes_of_ascii "
+root packet chars{
+@lengthOf(As ) @tag(4294967296 ) string tag
+@calculatedFrom(
+//x
+// @lengthOf(
+""{,}"" ) `tab	here`
+,
+} options { u128
+=
+    true
+}packet trueish // a // b
+{}MetaData len
+{ int16 crc`100% of %d`,	}")).
+Eval vm_compute in ("<<<M1497>>>" ++ check (runes_of_ascii "packet Header { }
 
 ")).
-Eval vm_compute in ("<<<M1945>>>" ++ check (runes_of_ascii "
-root // packet A { u8 x, }
-packet calculatedFrom { zchar[
-7 ] repeatCount
-,@rightPad
-    (
-    ) match body as
-pack
-    //
-    {""// no comment"":
-a1
-    ,} ,Pad @calculatedFrom(
-    ""a	b"" ) ,
-@calculatedFrom(
-    ""x y""
-) char[ 0 ]i64_
-    `a\`
-// c
-// a // b
-, i64_ rootA// c
-`crlf
-line`	,	@calculatedFrom(
-""{,}"" ) @lengthOf( repeatCount ) As
-@calculatedFrom(
-""\n"" )`a\` ,  @leftPad ( '0' )	repeat f32a // trailing space 
-asx ,@calculatedFrom(  """") zchar `` ,
-// packet A { u8 x, }
+Eval vm_compute in ("<<<T1497>>>" ++ terms [mkTok 35 "packet" 1 0 false; mkTok 42 "Header" 1 7 false; mkTok 2 "{" 1 14 false; mkTok 3 "}" 1 16 false; mkTok 0 "<EOF>" 3 0 false] (mkPacket (mkPtok 35 "packet" 1 0 0) (Some (mkPtok 3 "}" 1 16 3)) [(DPacket (mkPacketDef (mkSpan (mkPtok 35 "packet" 1 0 0) (mkPtok 3 "}" 1 16 3)) None (mkPtok 35 "packet" 1 0 0) (mkPtok 42 "Header" 1 7 1) (mkPtok 2 "{" 1 14 2) [] (mkPtok 3 "}" 1 16 3)))])).
+Eval vm_compute in ("<<<M1529>>>" ++ check (runes_of_ascii "MetaData crc
+{ u64 Logon`it's` ,
+} options  { metadata=float32
+pack=00 ; len=
+1;
+x =
+    ""abc"" ; } packet
 // " ++ [128512]%N ++ runes_of_ascii " emoji
-@leftPad ( '0'  )char[] Foo
-    @lengthOf( _x )
-`{ , }` ,
-} root packet string_ {uint64 T ,} options {
-    // packet A { u8 x, }
-    BodyLength// c
-=4294967296 ; repeatCount =
-true; a1=
-int32; }
-")).
-Eval vm_compute in ("<<<T1945>>>" ++ terms [mkTok 34 "root" 2 0 false; mkTok 44 "// packet A { u8 x, }" 2 5 true; mkTok 35 "packet" 3 0 false; mkTok 42 "calculatedFrom" 3 7 false; mkTok 2 "{" 3 22 false; mkTok 14 "zchar[" 3 24 false; mkTok 30 "7" 4 0 false; mkTok 13 "]" 4 2 false; mkTok 42 "repeatCount" 4 4 false; mkTok 40 "," 5 0 false; mkTok 32 "@rightPad" 5 1 false; mkTok 8 "(" 6 4 false; mkTok 6 ")" 7 4 false; mkTok 38 "match" 7 6 false; mkTok 42 "body" 7 12 false; mkTok 17 "as" 7 17 false; mkTok 42 "pack" 8 0 false; mkTok 44 "//" 9 4 true; mkTok 2 "{" 10 4 false; mkTok 31 """// no comment""" 10 5 false; mkTok 39 ":" 10 20 false; mkTok 42 "a1" 11 0 false; mkTok 40 "," 12 4 false; mkTok 3 "}" 12 5 false; mkTok 40 "," 12 7 false; mkTok 42 "Pad" 12 8 false; mkTok 5 "@calculatedFrom(" 12 12 false; mkTok 31 (string_of_bytes [34; 97; 9; 98; 34]%N) 13 4 false; mkTok 6 ")" 13 10 false; mkTok 40 "," 13 12 false; mkTok 5 "@calculatedFrom(" 14 0 false; mkTok 31 """x y""" 15 4 false; mkTok 6 ")" 16 0 false; mkTok 12 "char[" 16 2 false; mkTok 30 "0" 16 8 false; mkTok 13 "]" 16 10 false; mkTok 42 "i64_" 16 11 false; mkTok 43 "`a\`" 17 4 false; mkTok 44 "// c" 18 0 true; mkTok 44 "// a // b" 19 0 true; mkTok 40 "," 20 0 false; mkTok 42 "i64_" 20 2 false; mkTok 42 "rootA" 20 7 false; mkTok 44 "// c" 20 12 true; mkTok 43 (string_of_bytes [96; 99; 114; 108; 102; 13; 10; 108; 105; 110; 101; 96]%N) 21 0 false; mkTok 40 "," 22 6 false; mkTok 5 "@calculatedFrom(" 22 8 false; mkTok 31 """{,}""" 23 0 false; mkTok 6 ")" 23 6 false; mkTok 7 "@lengthOf(" 23 8 false; mkTok 42 "repeatCount" 23 19 false; mkTok 6 ")" 23 31 false; mkTok 42 "As" 23 33 false; mkTok 5 "@calculatedFrom(" 24 0 false; mkTok 31 """\n""" 25 0 false; mkTok 6 ")" 25 5 false; mkTok 43 "`a\`" 25 6 false; mkTok 40 "," 25 11 false; mkTok 32 "@leftPad" 25 14 false; mkTok 8 "(" 25 23 false; mkTok 33 "'0'" 25 25 false; mkTok 6 ")" 25 29 false; mkTok 36 "repeat" 25 31 false; mkTok 42 "f32a" 25 38 false; mkTok 44 "// trailing space " 25 43 true; mkTok 42 "asx" 26 0 false; mkTok 40 "," 26 4 false; mkTok 5 "@calculatedFrom(" 26 5 false; mkTok 31 """""" 26 23 false; mkTok 6 ")" 26 25 false; mkTok 42 "zchar" 26 27 false; mkTok 43 "``" 26 33 false; mkTok 40 "," 26 36 false; mkTok 44 "// packet A { u8 x, }" 27 0 true; mkTok 44 (string_of_bytes [47; 47; 32; 240; 159; 152; 128; 32; 101; 109; 111; 106; 105]%N) 28 0 true; mkTok 32 "@leftPad" 29 0 false; mkTok 8 "(" 29 9 false; mkTok 33 "'0'" 29 11 false; mkTok 6 ")" 29 16 false; mkTok 16 "char[]" 29 17 false; mkTok 42 "Foo" 29 24 false; mkTok 7 "@lengthOf(" 30 4 false; mkTok 42 "_x" 30 15 false; mkTok 6 ")" 30 18 false; mkTok 43 "`{ , }`" 31 0 false; mkTok 40 "," 31 8 false; mkTok 3 "}" 32 0 false; mkTok 34 "root" 32 2 false; mkTok 35 "packet" 32 7 false; mkTok 42 "string_" 32 14 false; mkTok 2 "{" 32 22 false; mkTok 23 "uint64" 32 23 false; mkTok 42 "T" 32 30 false; mkTok 40 "," 32 32 false; mkTok 3 "}" 32 33 false; mkTok 1 "options" 32 35 false; mkTok 2 "{" 32 43 false; mkTok 44 "// packet A { u8 x, }" 33 4 true; mkTok 42 "BodyLength" 34 4 false; mkTok 44 "// c" 34 14 true; mkTok 4 "=" 35 0 false; mkTok 30 "4294967296" 35 1 false; mkTok 41 ";" 35 12 false; mkTok 42 "repeatCount" 35 14 false; mkTok 4 "=" 35 26 false; mkTok 10 "true" 36 0 false; mkTok 41 ";" 36 4 false; mkTok 42 "a1" 36 6 false; mkTok 4 "=" 36 8 false; mkTok 26 "int32" 37 0 false; mkTok 41 ";" 37 5 false; mkTok 3 "}" 37 7 false; mkTok 0 "<EOF>" 38 0 false] (mkPacket (mkPtok 34 "root" 2 0 0) (Some (mkPtok 3 "}" 37 7 111)) [(DPacket (mkPacketDef (mkSpan (mkPtok 34 "root" 2 0 0) (mkPtok 3 "}" 32 0 86)) (Some (mkPtok 34 "root" 2 0 0)) (mkPtok 35 "packet" 3 0 2) (mkPtok 42 "calculatedFrom" 3 7 3) (mkPtok 2 "{" 3 22 4) [(mkFieldWithAttr (mkSpan (mkPtok 14 "zchar[" 3 24 5) (mkPtok 40 "," 5 0 9)) [] (MetaField (mkSpan (mkPtok 14 "zchar[" 3 24 5) (mkPtok 40 "," 5 0 9)) None (mkMetaDecl (mkSpan (mkPtok 14 "zchar[" 3 24 5) (mkPtok 40 "," 5 0 9)) (TyFixed (mkSpan (mkPtok 14 "zchar[" 3 24 5) (mkPtok 13 "]" 4 2 7)) (mkFixedString (mkSpan (mkPtok 14 "zchar[" 3 24 5) (mkPtok 13 "]" 4 2 7)) (mkPtok 14 "zchar[" 3 24 5) (mkPtok 30 "7" 4 0 6) (mkPtok 13 "]" 4 2 7))) (mkPtok 42 "repeatCount" 4 4 8) None (mkPtok 40 "," 5 0 9)))); (mkFieldWithAttr (mkSpan (mkPtok 32 "@rightPad" 5 1 10) (mkPtok 40 "," 12 7 24)) [(FAPadding (mkSpan (mkPtok 32 "@rightPad" 5 1 10) (mkPtok 6 ")" 7 4 12)) (mkPaddingAttr (mkSpan (mkPtok 32 "@rightPad" 5 1 10) (mkPtok 6 ")" 7 4 12)) (mkPtok 32 "@rightPad" 5 1 10) (mkPtok 8 "(" 6 4 11) None (mkPtok 6 ")" 7 4 12)))] (MatchField (mkSpan (mkPtok 38 "match" 7 6 13) (mkPtok 40 "," 12 7 24)) (mkMatchFieldDecl (mkSpan (mkPtok 38 "match" 7 6 13) (mkPtok 3 "}" 12 5 23)) (mkPtok 38 "match" 7 6 13) (mkPtok 42 "body" 7 12 14) (mkPtok 17 "as" 7 17 15) (mkPtok 42 "pack" 8 0 16) (mkPtok 2 "{" 10 4 18) [(mkMatchPair (mkSpan (mkPtok 31 """// no comment""" 10 5 19) (mkPtok 40 "," 12 4 22)) (MKString (mkPtok 31 """// no comment""" 10 5 19)) (mkPtok 39 ":" 10 20 20) (mkPtok 42 "a1" 11 0 21) (Some (mkPtok 40 "," 12 4 22)))] (mkPtok 3 "}" 12 5 23)) (mkPtok 40 "," 12 7 24))); (mkFieldWithAttr (mkSpan (mkPtok 42 "Pad" 12 8 25) (mkPtok 40 "," 13 12 29)) [] (CheckSumField (mkSpan (mkPtok 42 "Pad" 12 8 25) (mkPtok 40 "," 13 12 29)) (mkChecksumFieldDecl (mkSpan (mkPtok 42 "Pad" 12 8 25) (mkPtok 40 "," 13 12 29)) None (mkPtok 42 "Pad" 12 8 25) (mkCalculatedFrom (mkSpan (mkPtok 5 "@calculatedFrom(" 12 12 26) (mkPtok 6 ")" 13 10 28)) (mkPtok 5 "@calculatedFrom(" 12 12 26) (mkPtok 31 (string_of_bytes [34; 97; 9; 98; 34]%N) 13 4 27) (mkPtok 6 ")" 13 10 28)) None (mkPtok 40 "," 13 12 29)))); (mkFieldWithAttr (mkSpan (mkPtok 5 "@calculatedFrom(" 14 0 30) (mkPtok 40 "," 20 0 40)) [(FACalculatedFrom (mkSpan (mkPtok 5 "@calculatedFrom(" 14 0 30) (mkPtok 6 ")" 16 0 32)) (mkCalculatedFrom (mkSpan (mkPtok 5 "@calculatedFrom(" 14 0 30) (mkPtok 6 ")" 16 0 32)) (mkPtok 5 "@calculatedFrom(" 14 0 30) (mkPtok 31 """x y""" 15 4 31) (mkPtok 6 ")" 16 0 32)))] (MetaField (mkSpan (mkPtok 12 "char[" 16 2 33) (mkPtok 40 "," 20 0 40)) None (mkMetaDecl (mkSpan (mkPtok 12 "char[" 16 2 33) (mkPtok 40 "," 20 0 40)) (TyFixed (mkSpan (mkPtok 12 "char[" 16 2 33) (mkPtok 13 "]" 16 10 35)) (mkFixedString (mkSpan (mkPtok 12 "char[" 16 2 33) (mkPtok 13 "]" 16 10 35)) (mkPtok 12 "char[" 16 2 33) (mkPtok 30 "0" 16 8 34) (mkPtok 13 "]" 16 10 35))) (mkPtok 42 "i64_" 16 11 36) (Some (mkPtok 43 "`a\`" 17 4 37)) (mkPtok 40 "," 20 0 40)))); (mkFieldWithAttr (mkSpan (mkPtok 42 "i64_" 20 2 41) (mkPtok 40 "," 22 6 45)) [] (ObjectField (mkSpan (mkPtok 42 "i64_" 20 2 41) (mkPtok 40 "," 22 6 45)) None (mkPtok 42 "i64_" 20 2 41) (Some (mkPtok 42 "rootA" 20 7 42)) (Some (mkPtok 43 (string_of_bytes [96; 99; 114; 108; 102; 13; 10; 108; 105; 110; 101; 96]%N) 21 0 44)) (mkPtok 40 "," 22 6 45))); (mkFieldWithAttr (mkSpan (mkPtok 5 "@calculatedFrom(" 22 8 46) (mkPtok 40 "," 25 11 57)) [(FACalculatedFrom (mkSpan (mkPtok 5 "@calculatedFrom(" 22 8 46) (mkPtok 6 ")" 23 6 48)) (mkCalculatedFrom (mkSpan (mkPtok 5 "@calculatedFrom(" 22 8 46) (mkPtok 6 ")" 23 6 48)) (mkPtok 5 "@calculatedFrom(" 22 8 46) (mkPtok 31 """{,}""" 23 0 47) (mkPtok 6 ")" 23 6 48))); (FALengthOf (mkSpan (mkPtok 7 "@lengthOf(" 23 8 49) (mkPtok 6 ")" 23 31 51)) (mkLengthOf (mkSpan (mkPtok 7 "@lengthOf(" 23 8 49) (mkPtok 6 ")" 23 31 51)) (mkPtok 7 "@lengthOf(" 23 8 49) (mkPtok 42 "repeatCount" 23 19 50) (mkPtok 6 ")" 23 31 51)))] (CheckSumField (mkSpan (mkPtok 42 "As" 23 33 52) (mkPtok 40 "," 25 11 57)) (mkChecksumFieldDecl (mkSpan (mkPtok 42 "As" 23 33 52) (mkPtok 40 "," 25 11 57)) None (mkPtok 42 "As" 23 33 52) (mkCalculatedFrom (mkSpan (mkPtok 5 "@calculatedFrom(" 24 0 53) (mkPtok 6 ")" 25 5 55)) (mkPtok 5 "@calculatedFrom(" 24 0 53) (mkPtok 31 """\n""" 25 0 54) (mkPtok 6 ")" 25 5 55)) (Some (mkPtok 43 "`a\`" 25 6 56)) (mkPtok 40 "," 25 11 57)))); (mkFieldWithAttr (mkSpan (mkPtok 32 "@leftPad" 25 14 58) (mkPtok 40 "," 26 4 66)) [(FAPadding (mkSpan (mkPtok 32 "@leftPad" 25 14 58) (mkPtok 6 ")" 25 29 61)) (mkPaddingAttr (mkSpan (mkPtok 32 "@leftPad" 25 14 58) (mkPtok 6 ")" 25 29 61)) (mkPtok 32 "@leftPad" 25 14 58) (mkPtok 8 "(" 25 23 59) (Some (mkPtok 33 "'0'" 25 25 60)) (mkPtok 6 ")" 25 29 61)))] (ObjectField (mkSpan (mkPtok 36 "repeat" 25 31 62) (mkPtok 40 "," 26 4 66)) (Some (mkPtok 36 "repeat" 25 31 62)) (mkPtok 42 "f32a" 25 38 63) (Some (mkPtok 42 "asx" 26 0 65)) None (mkPtok 40 "," 26 4 66))); (mkFieldWithAttr (mkSpan (mkPtok 5 "@calculatedFrom(" 26 5 67) (mkPtok 40 "," 26 36 72)) [(FACalculatedFrom (mkSpan (mkPtok 5 "@calculatedFrom(" 26 5 67) (mkPtok 6 ")" 26 25 69)) (mkCalculatedFrom (mkSpan (mkPtok 5 "@calculatedFrom(" 26 5 67) (mkPtok 6 ")" 26 25 69)) (mkPtok 5 "@calculatedFrom(" 26 5 67) (mkPtok 31 """""" 26 23 68) (mkPtok 6 ")" 26 25 69)))] (ObjectField (mkSpan (mkPtok 42 "zchar" 26 27 70) (mkPtok 40 "," 26 36 72)) None (mkPtok 42 "zchar" 26 27 70) None (Some (mkPtok 43 "``" 26 33 71)) (mkPtok 40 "," 26 36 72))); (mkFieldWithAttr (mkSpan (mkPtok 32 "@leftPad" 29 0 75) (mkPtok 40 "," 31 8 85)) [(FAPadding (mkSpan (mkPtok 32 "@leftPad" 29 0 75) (mkPtok 6 ")" 29 16 78)) (mkPaddingAttr (mkSpan (mkPtok 32 "@leftPad" 29 0 75) (mkPtok 6 ")" 29 16 78)) (mkPtok 32 "@leftPad" 29 0 75) (mkPtok 8 "(" 29 9 76) (Some (mkPtok 33 "'0'" 29 11 77)) (mkPtok 6 ")" 29 16 78)))] (LengthField (mkSpan (mkPtok 16 "char[]" 29 17 79) (mkPtok 40 "," 31 8 85)) (mkLengthFieldDecl (mkSpan (mkPtok 16 "char[]" 29 17 79) (mkPtok 40 "," 31 8 85)) (Some (TyDynamic (mkSpan (mkPtok 16 "char[]" 29 17 79) (mkPtok 16 "char[]" 29 17 79)) (mkDynamicString (mkSpan (mkPtok 16 "char[]" 29 17 79) (mkPtok 16 "char[]" 29 17 79)) (mkPtok 16 "char[]" 29 17 79)))) (mkPtok 42 "Foo" 29 24 80) (mkLengthOf (mkSpan (mkPtok 7 "@lengthOf(" 30 4 81) (mkPtok 6 ")" 30 18 83)) (mkPtok 7 "@lengthOf(" 30 4 81) (mkPtok 42 "_x" 30 15 82) (mkPtok 6 ")" 30 18 83)) (Some (mkPtok 43 "`{ , }`" 31 0 84)) (mkPtok 40 "," 31 8 85))))] (mkPtok 3 "}" 32 0 86))); (DPacket (mkPacketDef (mkSpan (mkPtok 34 "root" 32 2 87) (mkPtok 3 "}" 32 33 94)) (Some (mkPtok 34 "root" 32 2 87)) (mkPtok 35 "packet" 32 7 88) (mkPtok 42 "string_" 32 14 89) (mkPtok 2 "{" 32 22 90) [(mkFieldWithAttr (mkSpan (mkPtok 23 "uint64" 32 23 91) (mkPtok 40 "," 32 32 93)) [] (MetaField (mkSpan (mkPtok 23 "uint64" 32 23 91) (mkPtok 40 "," 32 32 93)) None (mkMetaDecl (mkSpan (mkPtok 23 "uint64" 32 23 91) (mkPtok 40 "," 32 32 93)) (TyBasic (mkSpan (mkPtok 23 "uint64" 32 23 91) (mkPtok 23 "uint64" 32 23 91)) (mkBasicType (mkSpan (mkPtok 23 "uint64" 32 23 91) (mkPtok 23 "uint64" 32 23 91)) (mkPtok 23 "uint64" 32 23 91))) (mkPtok 42 "T" 32 30 92) None (mkPtok 40 "," 32 32 93))))] (mkPtok 3 "}" 32 33 94))); (DOption (mkOptionDef (mkSpan (mkPtok 1 "options" 32 35 95) (mkPtok 3 "}" 37 7 111)) (mkPtok 1 "options" 32 35 95) (mkPtok 2 "{" 32 43 96) [(mkOptionDecl (mkSpan (mkPtok 42 "BodyLength" 34 4 98) (mkPtok 41 ";" 35 12 102)) (mkPtok 42 "BodyLength" 34 4 98) (mkPtok 4 "=" 35 0 100) (VDigits (mkSpan (mkPtok 30 "4294967296" 35 1 101) (mkPtok 30 "4294967296" 35 1 101)) (mkPtok 30 "4294967296" 35 1 101)) (Some (mkPtok 41 ";" 35 12 102))); (mkOptionDecl (mkSpan (mkPtok 42 "repeatCount" 35 14 103) (mkPtok 41 ";" 36 4 106)) (mkPtok 42 "repeatCount" 35 14 103) (mkPtok 4 "=" 35 26 104) (VTrue (mkSpan (mkPtok 10 "true" 36 0 105) (mkPtok 10 "true" 36 0 105)) (mkPtok 10 "true" 36 0 105)) (Some (mkPtok 41 ";" 36 4 106))); (mkOptionDecl (mkSpan (mkPtok 42 "a1" 36 6 107) (mkPtok 41 ";" 37 5 110)) (mkPtok 42 "a1" 36 6 107) (mkPtok 4 "=" 36 8 108) (VType (mkSpan (mkPtok 26 "int32" 37 0 109) (mkPtok 26 "int32" 37 0 109)) (TyBasic (mkSpan (mkPtok 26 "int32" 37 0 109) (mkPtok 26 "int32" 37 0 109)) (mkBasicType (mkSpan (mkPtok 26 "int32" 37 0 109) (mkPtok 26 "int32" 37 0 109)) (mkPtok 26 "int32" 37 0 109)))) (Some (mkPtok 41 ";" 37 5 110)))] (mkPtok 3 "}" 37 7 111)))])).
-Eval vm_compute in ("<<<M1977>>>" ++ check (runes_of_ascii "  packet
-Z9_	{  repeat// trailing space 
-x
-calculatedFrom
-,	len Header,repeat // c
-u16 len ,
-i8 i8i8`{ , }` ,
-    }
-")).
-Eval vm_compute in ("<<<M2009>>>" ++ check (runes_of_ascii "{ i64_ = string ; trueish =
-    '\x00'
-    leftPad = ""a\\"" /// triple
-; crc
-    = 255; uint8x
-=
-""abc""
-    ;}")).
-Eval vm_compute in ("<<<M2041>>>" ++ check (runes_of_ascii "options{ i64_ = string ; = trueish
-    '\x00'
-    leftPad = ""a\\"" /// triple
-; crc
-    = 255; uint8x
-=
-""abc""
-    ;}")).
-Eval vm_compute in ("<<<M2073>>>" ++ check (runes_of_ascii "options{ i64_ = string ; trueish =
-    '\x00'
-    leftPad = ""a\\""")).
-Eval vm_compute in ("<<<M2105>>>" ++ check (runes_of_ascii "options{ i64_ = string ; trueish =
-    '\x00'
-    leftPad = ""a\\"" /// triple
-; crc
-    = 255; uint8x
-=
-""abc"" ""abc""
-    ;}")).
-Eval vm_compute in ("<<<M2137>>>" ++ check (runes_of_ascii "options{ i64_ = string ; trueish =
-    '\x00'
-    leftPad = ""a\\"" /// triple
-; crc
-    = 255; na" ++ [239]%N ++ runes_of_ascii "ve
-=
-""abc""
-    ;}")).
-Eval vm_compute in ("<<<M2169>>>" ++ check (runes_of_ascii "  packet
-asx
-{
-/// triple
-// @lengthOf(
-u32 stringy")).
-Eval vm_compute in ("<<<M2201>>>" ++ check (runes_of_ascii "  packet
-asx
-{
-/// triple
-// @lengthOf(
-u32 stringy
-`" ++ [28040; 24687; 31867; 22411]%N ++ runes_of_ascii "` ,} MetaData
-    A {string  _x _x, zchar Header `a\`
-// @lengthOf(
 // packet A { u8 x, }
-, char[] MetaDataX
-,zchar[ 1 ]
-    matchKey
-    , char[] //
-u,	char[0123456789 ]
-    matchKey
-    `{ , }`, }
-")).
-Eval vm_compute in ("<<<M2233>>>" ++ check (runes_of_ascii "  packet
-asx
-{
-/// triple
-// @lengthOf(
-u32 stringy
-`" ++ [28040; 24687; 31867; 22411]%N ++ runes_of_ascii "` ,} MetaData
-    A {string  _x, zchar Header `a\`
-// @lengthOf(
-// packet A { u8 x, }
-, float32 MetaDataX
-,zchar[ 1 ]
-    matchKey
-    , char[] //
-u,	char[0123456789 ]
-    matchKey
-    `{ , }`, }
-")).
-Eval vm_compute in ("<<<M2265>>>" ++ check (runes_of_ascii "  packet
-asx
-{
-/// triple
-// @lengthOf(
-u32 stringy
-`" ++ [28040; 24687; 31867; 22411]%N ++ runes_of_ascii "` ,} MetaData
-    A {string  _x, zchar Header `a\`
-// @lengthOf(
-// packet A { u8 x, }
-, char[] MetaDataX
-,zchar[ 1 ]
-    matchKey
-     char[] //
-u,	char[0123456789 ]
-    matchKey
-    `{ , }`, }
-")).
-Eval vm_compute in ("<<<M2297>>>" ++ check (runes_of_ascii "  packet
-asx
-{
-/// triple
-// @lengthOf(
-u32 stringy
-`" ++ [28040; 24687; 31867; 22411]%N ++ runes_of_ascii "` ,} MetaData
-    A {string  _x, zchar Header `a\`
-// @lengthOf(
-// packet A { u8 x, }
-, char[] MetaDataX
-,zchar[ 1 ]
-    matchKey
-    , char[] //
-u,	char[0123456789 matchKey
-    ]
-    `{ , }`, }
-")).
-Eval vm_compute in ("<<<M2329>>>" ++ check (runes_of_ascii "  packet
-asx
-{
-/// triple
-// @lengthOf(
-u32 stringy
-`" ++ [28040; 24687; 31867; 22411]%N ++ runes_of_ascii "` ,} MetaData
-    A {string  _x, zchar Header `a\`
-// @lengthOf(
-// packet A { u8 x, }
-, char[] MetaDataX
-,zchar[ 1 ]
-    matchKey
-    , char[] //
-u,	char[0123456789 ]
-    matchKey@
-    `{ , }`, }
-")).
-Eval vm_compute in ("<<<M2361>>>" ++ check (runes_of_ascii "root
-    packet
-Packet
-{ // trailing space 
- `tab	here` ,}")).
-Eval vm_compute in ("<<<M2393>>>" ++ check (runes_of_ascii "root
-    packet
-Packet
-{ // trailing space 
-matchKey `tab	here` ,}/")).
-Eval vm_compute in ("<<<M2425>>>" ++ check (runes_of_ascii "options{ falsey // a // b
-=
-    255 } options { repeatCount =
-true ; string_// a // b
-=
-// c
-// " ++ [27880; 37322]%N ++ runes_of_ascii "
-int64
-// trailing space 
-/// triple
-; } // @lengthOf(")).
-Eval vm_compute in ("<<<M2457>>>" ++ check (runes_of_ascii "options{ falsey // a // b
-=
-    '0' } options { repeatCount =
-true  string_// a // b
-=
-// c
-// " ++ [27880; 37322]%N ++ runes_of_ascii "
-int64
-// trailing space 
-/// triple
-; } // @lengthOf(")).
-Eval vm_compute in ("<<<M2489>>>" ++ check (runes_of_ascii "options{ falsey // a // b
-=
-    '0' } options { repeatCount =
-true ; string_// a // b
-=
-// c
-// " ++ [27880; 37322]%N ++ runes_of_ascii "
-")).
-Eval vm_compute in ("<<<M2521>>>" ++ check (runes_of_ascii "options{i64 root packet
-metadata {
-@lengthOf(x ) float32
-body ``, }
-    MetaData
-Z9_
-    {
-    string string_ , Logon x
+BodyLength { float32
+Pad`` , repeat
+zchar[ 007  ] matchKey ,// " ++ [128512]%N ++ runes_of_ascii " emoji
+@calculatedFrom( ""{,}""
+)
+int8 metadata @calculatedFrom( """" )/// triple
+`crlf
+line`
+, char	f32a , falsey ,// " ++ [27880; 37322]%N ++ runes_of_ascii "
+x_y_z calculatedFrom `
+` , string Foo , i8 repeatCount , Packet  msg_type `a\` , match packetx as
+falsey
+{	3: i64_ ,""packet"" : zchar  007
+:
+// " ++ [128512]%N ++ runes_of_ascii " emoji
+//x
+options1 , ""CRC32"":  metadata ,4294967296 : charz , [""x y"" ]:calculatedFrom , }
 ,
-uint32
-    // packet A { u8 x, }
-    Z9_,asx
-_x
-    `tab	here` , }
-")).
-Eval vm_compute in ("<<<M2553>>>" ++ check (runes_of_ascii "options{}root packet
-metadata {
-@lengthOf(x  float32
-body ``, }
+    } root packet metadata { @calculatedFrom(
+    ""// no comment"")
+    //
+    repeat
+    Packet,
+@leftPad(
+    '0' )	repeat metadata len ,	}
     MetaData
-Z9_
-    {
-    string string_ , Logon x
+    MetaDataX
+    {	falsey zchar `doc`
 ,
-uint32
-    // packet A { u8 x, }
-    Z9_,asx
-_x
-    `tab	here` , }
+}")).
+Eval vm_compute in ("<<<M1561>>>" ++ check (runes_of_ascii "packet
+A{ }")).
+Eval vm_compute in ("<<<M1593>>>" ++ check (runes_of_ascii "packet A
+    { }
 ")).
-Eval vm_compute in ("<<<M2585>>>" ++ check (runes_of_ascii "options{}root packet
-metadata {
-@lengthOf(x ) float32
-body ``, }
+Eval vm_compute in ("<<<M1625>>>" ++ check (runes_of_ascii "packet chars { @tag(
+65535 // c
+)repeat options1 ,
+}
+")).
+Eval vm_compute in ("<<<M1657>>>" ++ check (runes_of_ascii "options { string_
+    /// triple
+    =
+true; uint8x =10
+    msg_type =// " ++ [128512]%N ++ runes_of_ascii " emoji
+""x y"" ; // trailing space 
+}
+")).
+Eval vm_compute in ("<<<M1689>>>" ++ check (runes_of_ascii "MetaData packetx { //	t
+packetx // @lengthOf(
+As `" ++ [233]%N ++ runes_of_ascii "` , zchar[ 1 ]
+    // a // b
+    _x `it's`, u64	x , } MetaData  Foo  { u64 leftPad  , int16 Pad`say ""hi""`
+    ,	} packet
+Foo {
+    @tag( 0) u128 //x
+,}")).
+Eval vm_compute in ("<<<M1721>>>" ++ check (runes_of_ascii "
+")).
+Eval vm_compute in ("<<<T1721>>>" ++ terms [mkTok 0 "<EOF>" 2 0 false] (mkPacket (mkPtok 0 "<EOF>" 2 0 0) None [])).
+Eval vm_compute in ("<<<M1753>>>" ++ check (runes_of_ascii "
+")).
+Eval vm_compute in ("<<<M1785>>>" ++ check (runes_of_ascii "MetaData float {
+float32 A ,
+}")).
+Eval vm_compute in ("<<<M1817>>>" ++ check (runes_of_ascii "
+packet
+    int
+// trailing space 
+//	t
+{ // `tick` ""quote"" 'q'
+} packet
+int	{
+}")).
+Eval vm_compute in ("<<<M1849>>>" ++ check (runes_of_ascii "MetaData msg_type{
+    } options {
+}")).
+Eval vm_compute in ("<<<M1881>>>" ++ check (runes_of_ascii "options
+{
+    // trailing space 
+    stringy  = 255
     Z9_
+= // trailing space 
+'0' options1 =007
+;
+    asx = ""CRC32""} MetaData	calculatedFrom{ zchar[
+    0 ] //x
+len ,options1 len ,
+Packet Pad`two words`
+,
+string _x , rootA zchar
+// @lengthOf(
+//
+`crlf
+line` ,//	t
+}
+")).
+Eval vm_compute in ("<<<M1913>>>" ++ check (runes_of_ascii "  MetaData int
+{}
+")).
+Eval vm_compute in ("<<<M1945>>>" ++ check (runes_of_ascii "options { repeatCount
+    = char[] len =
+""`tick`"" ; roots
+    =
+    ""// no comment""; Foo= '\x00'; }
+root //
+packet
+    roots	{ repeat
+    // `tick` ""quote"" 'q'
+    Foo trueish	,string repeatCount ,@tag(0 // " ++ [27880; 37322]%N ++ runes_of_ascii "
+) string
+    T
+@lengthOf(
+u)
+    ,
+    repeat uint16
+f32a , x_y_z `doc` ,
+i64 Pad // packet A { u8 x, }
+, match rootA //
+as Logon {
+    [ 65535 ,
+007] : trueish
+    [ """ ++ [233]%N ++ runes_of_ascii "t" ++ [233]%N ++ runes_of_ascii """ , 1 ] /// triple
+: len
+} //x
+,}")).
+Eval vm_compute in ("<<<T1945>>>" ++ terms [mkTok 1 "options" 1 0 false; mkTok 2 "{" 1 8 false; mkTok 42 "repeatCount" 1 10 false; mkTok 4 "=" 2 4 false; mkTok 16 "char[]" 2 6 false; mkTok 42 "len" 2 13 false; mkTok 4 "=" 2 17 false; mkTok 31 """`tick`""" 3 0 false; mkTok 41 ";" 3 9 false; mkTok 42 "roots" 3 11 false; mkTok 4 "=" 4 4 false; mkTok 31 """// no comment""" 5 4 false; mkTok 41 ";" 5 19 false; mkTok 42 "Foo" 5 21 false; mkTok 4 "=" 5 24 false; mkTok 33 "'\x00'" 5 26 false; mkTok 41 ";" 5 32 false; mkTok 3 "}" 5 34 false; mkTok 34 "root" 6 0 false; mkTok 44 "//" 6 5 true; mkTok 35 "packet" 7 0 false; mkTok 42 "roots" 8 4 false; mkTok 2 "{" 8 10 false; mkTok 36 "repeat" 8 12 false; mkTok 44 "// `tick` ""quote"" 'q'" 9 4 true; mkTok 42 "Foo" 10 4 false; mkTok 42 "trueish" 10 8 false; mkTok 40 "," 10 16 false; mkTok 15 "string" 10 17 false; mkTok 42 "repeatCount" 10 24 false; mkTok 40 "," 10 36 false; mkTok 9 "@tag(" 10 37 false; mkTok 30 "0" 10 42 false; mkTok 44 (string_of_bytes [47; 47; 32; 230; 179; 168; 233; 135; 138]%N) 10 44 true; mkTok 6 ")" 11 0 false; mkTok 15 "string" 11 2 false; mkTok 42 "T" 12 4 false; mkTok 7 "@lengthOf(" 13 0 false; mkTok 42 "u" 14 0 false; mkTok 6 ")" 14 1 false; mkTok 40 "," 15 4 false; mkTok 36 "repeat" 16 4 false; mkTok 21 "uint16" 16 11 false; mkTok 42 "f32a" 17 0 false; mkTok 40 "," 17 5 false; mkTok 42 "x_y_z" 17 7 false; mkTok 43 "`doc`" 17 13 false; mkTok 40 "," 17 19 false; mkTok 27 "i64" 18 0 false; mkTok 42 "Pad" 18 4 false; mkTok 44 "// packet A { u8 x, }" 18 8 true; mkTok 40 "," 19 0 false; mkTok 38 "match" 19 2 false; mkTok 42 "rootA" 19 8 false; mkTok 44 "//" 19 14 true; mkTok 17 "as" 20 0 false; mkTok 42 "Logon" 20 3 false; mkTok 2 "{" 20 9 false; mkTok 18 "[" 21 4 false; mkTok 30 "65535" 21 6 false; mkTok 40 "," 21 12 false; mkTok 30 "007" 22 0 false; mkTok 13 "]" 22 3 false; mkTok 39 ":" 22 5 false; mkTok 42 "trueish" 22 7 false; mkTok 18 "[" 23 4 false; mkTok 31 (string_of_bytes [34; 195; 169; 116; 195; 169; 34]%N) 23 6 false; mkTok 40 "," 23 12 false; mkTok 30 "1" 23 14 false; mkTok 13 "]" 23 16 false; mkTok 44 "/// triple" 23 18 true; mkTok 39 ":" 24 0 false; mkTok 42 "len" 24 2 false; mkTok 3 "}" 25 0 false; mkTok 44 "//x" 25 2 true; mkTok 40 "," 26 0 false; mkTok 3 "}" 26 1 false; mkTok 0 "<EOF>" 26 2 false] (mkPacket (mkPtok 1 "options" 1 0 0) (Some (mkPtok 3 "}" 26 1 76)) [(DOption (mkOptionDef (mkSpan (mkPtok 1 "options" 1 0 0) (mkPtok 3 "}" 5 34 17)) (mkPtok 1 "options" 1 0 0) (mkPtok 2 "{" 1 8 1) [(mkOptionDecl (mkSpan (mkPtok 42 "repeatCount" 1 10 2) (mkPtok 16 "char[]" 2 6 4)) (mkPtok 42 "repeatCount" 1 10 2) (mkPtok 4 "=" 2 4 3) (VType (mkSpan (mkPtok 16 "char[]" 2 6 4) (mkPtok 16 "char[]" 2 6 4)) (TyDynamic (mkSpan (mkPtok 16 "char[]" 2 6 4) (mkPtok 16 "char[]" 2 6 4)) (mkDynamicString (mkSpan (mkPtok 16 "char[]" 2 6 4) (mkPtok 16 "char[]" 2 6 4)) (mkPtok 16 "char[]" 2 6 4)))) None); (mkOptionDecl (mkSpan (mkPtok 42 "len" 2 13 5) (mkPtok 41 ";" 3 9 8)) (mkPtok 42 "len" 2 13 5) (mkPtok 4 "=" 2 17 6) (VString (mkSpan (mkPtok 31 """`tick`""" 3 0 7) (mkPtok 31 """`tick`""" 3 0 7)) (mkPtok 31 """`tick`""" 3 0 7)) (Some (mkPtok 41 ";" 3 9 8))); (mkOptionDecl (mkSpan (mkPtok 42 "roots" 3 11 9) (mkPtok 41 ";" 5 19 12)) (mkPtok 42 "roots" 3 11 9) (mkPtok 4 "=" 4 4 10) (VString (mkSpan (mkPtok 31 """// no comment""" 5 4 11) (mkPtok 31 """// no comment""" 5 4 11)) (mkPtok 31 """// no comment""" 5 4 11)) (Some (mkPtok 41 ";" 5 19 12))); (mkOptionDecl (mkSpan (mkPtok 42 "Foo" 5 21 13) (mkPtok 41 ";" 5 32 16)) (mkPtok 42 "Foo" 5 21 13) (mkPtok 4 "=" 5 24 14) (VPaddingChar (mkSpan (mkPtok 33 "'\x00'" 5 26 15) (mkPtok 33 "'\x00'" 5 26 15)) (mkPtok 33 "'\x00'" 5 26 15)) (Some (mkPtok 41 ";" 5 32 16)))] (mkPtok 3 "}" 5 34 17))); (DPacket (mkPacketDef (mkSpan (mkPtok 34 "root" 6 0 18) (mkPtok 3 "}" 26 1 76)) (Some (mkPtok 34 "root" 6 0 18)) (mkPtok 35 "packet" 7 0 20) (mkPtok 42 "roots" 8 4 21) (mkPtok 2 "{" 8 10 22) [(mkFieldWithAttr (mkSpan (mkPtok 36 "repeat" 8 12 23) (mkPtok 40 "," 10 16 27)) [] (ObjectField (mkSpan (mkPtok 36 "repeat" 8 12 23) (mkPtok 40 "," 10 16 27)) (Some (mkPtok 36 "repeat" 8 12 23)) (mkPtok 42 "Foo" 10 4 25) (Some (mkPtok 42 "trueish" 10 8 26)) None (mkPtok 40 "," 10 16 27))); (mkFieldWithAttr (mkSpan (mkPtok 15 "string" 10 17 28) (mkPtok 40 "," 10 36 30)) [] (MetaField (mkSpan (mkPtok 15 "string" 10 17 28) (mkPtok 40 "," 10 36 30)) None (mkMetaDecl (mkSpan (mkPtok 15 "string" 10 17 28) (mkPtok 40 "," 10 36 30)) (TyDynamic (mkSpan (mkPtok 15 "string" 10 17 28) (mkPtok 15 "string" 10 17 28)) (mkDynamicString (mkSpan (mkPtok 15 "string" 10 17 28) (mkPtok 15 "string" 10 17 28)) (mkPtok 15 "string" 10 17 28))) (mkPtok 42 "repeatCount" 10 24 29) None (mkPtok 40 "," 10 36 30)))); (mkFieldWithAttr (mkSpan (mkPtok 9 "@tag(" 10 37 31) (mkPtok 40 "," 15 4 40)) [(FATag (mkSpan (mkPtok 9 "@tag(" 10 37 31) (mkPtok 6 ")" 11 0 34)) (mkTagAttr (mkSpan (mkPtok 9 "@tag(" 10 37 31) (mkPtok 6 ")" 11 0 34)) (mkPtok 9 "@tag(" 10 37 31) (mkPtok 30 "0" 10 42 32) (mkPtok 6 ")" 11 0 34)))] (LengthField (mkSpan (mkPtok 15 "string" 11 2 35) (mkPtok 40 "," 15 4 40)) (mkLengthFieldDecl (mkSpan (mkPtok 15 "string" 11 2 35) (mkPtok 40 "," 15 4 40)) (Some (TyDynamic (mkSpan (mkPtok 15 "string" 11 2 35) (mkPtok 15 "string" 11 2 35)) (mkDynamicString (mkSpan (mkPtok 15 "string" 11 2 35) (mkPtok 15 "string" 11 2 35)) (mkPtok 15 "string" 11 2 35)))) (mkPtok 42 "T" 12 4 36) (mkLengthOf (mkSpan (mkPtok 7 "@lengthOf(" 13 0 37) (mkPtok 6 ")" 14 1 39)) (mkPtok 7 "@lengthOf(" 13 0 37) (mkPtok 42 "u" 14 0 38) (mkPtok 6 ")" 14 1 39)) None (mkPtok 40 "," 15 4 40)))); (mkFieldWithAttr (mkSpan (mkPtok 36 "repeat" 16 4 41) (mkPtok 40 "," 17 5 44)) [] (MetaField (mkSpan (mkPtok 36 "repeat" 16 4 41) (mkPtok 40 "," 17 5 44)) (Some (mkPtok 36 "repeat" 16 4 41)) (mkMetaDecl (mkSpan (mkPtok 21 "uint16" 16 11 42) (mkPtok 40 "," 17 5 44)) (TyBasic (mkSpan (mkPtok 21 "uint16" 16 11 42) (mkPtok 21 "uint16" 16 11 42)) (mkBasicType (mkSpan (mkPtok 21 "uint16" 16 11 42) (mkPtok 21 "uint16" 16 11 42)) (mkPtok 21 "uint16" 16 11 42))) (mkPtok 42 "f32a" 17 0 43) None (mkPtok 40 "," 17 5 44)))); (mkFieldWithAttr (mkSpan (mkPtok 42 "x_y_z" 17 7 45) (mkPtok 40 "," 17 19 47)) [] (ObjectField (mkSpan (mkPtok 42 "x_y_z" 17 7 45) (mkPtok 40 "," 17 19 47)) None (mkPtok 42 "x_y_z" 17 7 45) None (Some (mkPtok 43 "`doc`" 17 13 46)) (mkPtok 40 "," 17 19 47))); (mkFieldWithAttr (mkSpan (mkPtok 27 "i64" 18 0 48) (mkPtok 40 "," 19 0 51)) [] (MetaField (mkSpan (mkPtok 27 "i64" 18 0 48) (mkPtok 40 "," 19 0 51)) None (mkMetaDecl (mkSpan (mkPtok 27 "i64" 18 0 48) (mkPtok 40 "," 19 0 51)) (TyBasic (mkSpan (mkPtok 27 "i64" 18 0 48) (mkPtok 27 "i64" 18 0 48)) (mkBasicType (mkSpan (mkPtok 27 "i64" 18 0 48) (mkPtok 27 "i64" 18 0 48)) (mkPtok 27 "i64" 18 0 48))) (mkPtok 42 "Pad" 18 4 49) None (mkPtok 40 "," 19 0 51)))); (mkFieldWithAttr (mkSpan (mkPtok 38 "match" 19 2 52) (mkPtok 40 "," 26 0 75)) [] (MatchField (mkSpan (mkPtok 38 "match" 19 2 52) (mkPtok 40 "," 26 0 75)) (mkMatchFieldDecl (mkSpan (mkPtok 38 "match" 19 2 52) (mkPtok 3 "}" 25 0 73)) (mkPtok 38 "match" 19 2 52) (mkPtok 42 "rootA" 19 8 53) (mkPtok 17 "as" 20 0 55) (mkPtok 42 "Logon" 20 3 56) (mkPtok 2 "{" 20 9 57) [(mkMatchPair (mkSpan (mkPtok 18 "[" 21 4 58) (mkPtok 42 "trueish" 22 7 64)) (MKList (mkKeyList (mkSpan (mkPtok 18 "[" 21 4 58) (mkPtok 13 "]" 22 3 62)) (mkPtok 18 "[" 21 4 58) (mkPtok 30 "65535" 21 6 59) [((mkPtok 40 "," 21 12 60), (mkPtok 30 "007" 22 0 61))] (mkPtok 13 "]" 22 3 62))) (mkPtok 39 ":" 22 5 63) (mkPtok 42 "trueish" 22 7 64) None); (mkMatchPair (mkSpan (mkPtok 18 "[" 23 4 65) (mkPtok 42 "len" 24 2 72)) (MKList (mkKeyList (mkSpan (mkPtok 18 "[" 23 4 65) (mkPtok 13 "]" 23 16 69)) (mkPtok 18 "[" 23 4 65) (mkPtok 31 (string_of_bytes [34; 195; 169; 116; 195; 169; 34]%N) 23 6 66) [((mkPtok 40 "," 23 12 67), (mkPtok 30 "1" 23 14 68))] (mkPtok 13 "]" 23 16 69))) (mkPtok 39 ":" 24 0 71) (mkPtok 42 "len" 24 2 72) None)] (mkPtok 3 "}" 25 0 73)) (mkPtok 40 "," 26 0 75)))] (mkPtok 3 "}" 26 1 76)))])).
+Eval vm_compute in ("<<<M1977>>>" ++ check (@nil rune)).
+Eval vm_compute in ("<<<M2009>>>" ++ check (runes_of_ascii " repeatCount { float64 packetx,
+} root packet  metadata {
+char _x @lengthOf( trueish ), @leftPad
+( ' '// " ++ [27880; 37322]%N ++ runes_of_ascii "
+)/// triple
+char[] len`doc` , // packet A { u8 x, }
+repeatCount , }
+")).
+Eval vm_compute in ("<<<M2041>>>" ++ check (runes_of_ascii "MetaData repeatCount { float64 packetx,
+root } packet  metadata {
+char _x @lengthOf( trueish ), @leftPad
+( ' '// " ++ [27880; 37322]%N ++ runes_of_ascii "
+)/// triple
+char[] len`doc` , // packet A { u8 x, }
+repeatCount , }
+")).
+Eval vm_compute in ("<<<M2073>>>" ++ check (runes_of_ascii "MetaData repeatCount { float64 packetx,
+} root packet  metadata {
+char")).
+Eval vm_compute in ("<<<M2105>>>" ++ check (runes_of_ascii "MetaData repeatCount { float64 packetx,
+} root packet  metadata {
+char _x @lengthOf( trueish ), @leftPad
+( ' ' ' '// " ++ [27880; 37322]%N ++ runes_of_ascii "
+)/// triple
+char[] len`doc` , // packet A { u8 x, }
+repeatCount , }
+")).
+Eval vm_compute in ("<<<M2137>>>" ++ check (runes_of_ascii "MetaData repeatCount { float64 packetx,
+} root packet  metadata {
+char _x @lengthOf( trueish ), @leftPad
+( ' '// " ++ [27880; 37322]%N ++ runes_of_ascii "
+)/// triple
+char[] len`doc` , // packet A { u8 x, }
+true , }
+")).
+Eval vm_compute in ("<<<M2169>>>" ++ check (runes_of_ascii "MetaData repeatCount { float64 packetx,
+} root packet  caf" ++ [233]%N ++ runes_of_ascii "_1 {
+char _x @lengthOf( trueish ), @leftPad
+( ' '// " ++ [27880; 37322]%N ++ runes_of_ascii "
+)/// triple
+char[] len`doc` , // packet A { u8 x, }
+repeatCount , }
+")).
+Eval vm_compute in ("<<<M2201>>>" ++ check (runes_of_ascii "options{
+leftPad
+    =65535
+;
+a1 a1 = true ; packetx=  '\x00' ; packetx
+=  """ ++ [28040; 24687]%N ++ runes_of_ascii """MetaDataX= // " ++ [27880; 37322]%N ++ runes_of_ascii "
+false }root // c
+packet // packet A { u8 x, }
+Pad { repeat
+u8 Header
+// packet A { u8 x, }
+//	t
+`{ , }`
+// a // b
+//x
+, }
+")).
+Eval vm_compute in ("<<<M2233>>>" ++ check (runes_of_ascii "options{
+leftPad
+    =65535
+;
+a1 = true ; packetx=  zchar[ ; packetx
+=  """ ++ [28040; 24687]%N ++ runes_of_ascii """MetaDataX= // " ++ [27880; 37322]%N ++ runes_of_ascii "
+false }root // c
+packet // packet A { u8 x, }
+Pad { repeat
+u8 Header
+// packet A { u8 x, }
+//	t
+`{ , }`
+// a // b
+//x
+, }
+")).
+Eval vm_compute in ("<<<M2265>>>" ++ check (runes_of_ascii "options{
+leftPad
+    =65535
+;
+a1 = true ; packetx=  '\x00' ; packetx
+=  """ ++ [28040; 24687]%N ++ runes_of_ascii """MetaDataX= // " ++ [27880; 37322]%N ++ runes_of_ascii "
+ }root // c
+packet // packet A { u8 x, }
+Pad { repeat
+u8 Header
+// packet A { u8 x, }
+//	t
+`{ , }`
+// a // b
+//x
+, }
+")).
+Eval vm_compute in ("<<<M2297>>>" ++ check (runes_of_ascii "options{
+leftPad
+    =65535
+;
+a1 = true ; packetx=  '\x00' ; packetx
+=  """ ++ [28040; 24687]%N ++ runes_of_ascii """MetaDataX= // " ++ [27880; 37322]%N ++ runes_of_ascii "
+false }root // c
+packet // packet A { u8 x, }
+Pad { u8
+repeat Header
+// packet A { u8 x, }
+//	t
+`{ , }`
+// a // b
+//x
+, }
+")).
+Eval vm_compute in ("<<<M2329>>>" ++ check (runes_of_ascii "options{
+leftPad
+    =65535
+;
+a1 = true ; packetx=  '\x00' ; ` packetx
+=  """ ++ [28040; 24687]%N ++ runes_of_ascii """MetaDataX= // " ++ [27880; 37322]%N ++ runes_of_ascii "
+false }root // c
+packet // packet A { u8 x, }
+Pad { repeat
+u8 Header
+// packet A { u8 x, }
+//	t
+`{ , }`
+// a // b
+//x
+, }
+")).
+Eval vm_compute in ("<<<M2361>>>" ++ check (runes_of_ascii "
+packet float
+{	 """ ++ [233]%N ++ runes_of_ascii "t" ++ [233]%N ++ runes_of_ascii """ )
+@rightPad ( '\x00' )
+    @calculatedFrom( ""x y"" ) string chars  ,
+    // a // b
+    char[0 ]
+    u	@lengthOf( i8i8 ) `{ , }` ,repeat char[] o //x
+`// not a comment`, } // c")).
+Eval vm_compute in ("<<<M2393>>>" ++ check (runes_of_ascii "
+packet float
+{	@calculatedFrom( """ ++ [233]%N ++ runes_of_ascii "t" ++ [233]%N ++ runes_of_ascii """ )
+@rightPad ( '\x00' @calculatedFrom(
+    ) ""x y"" ) string chars  ,
+    // a // b
+    char[0 ]
+    u	@lengthOf( i8i8 ) `{ , }` ,repeat char[] o //x
+`// not a comment`, } // c")).
+Eval vm_compute in ("<<<M2425>>>" ++ check (runes_of_ascii "
+packet float
+{	@calculatedFrom( """ ++ [233]%N ++ runes_of_ascii "t" ++ [233]%N ++ runes_of_ascii """ )
+@rightPad ( '\x00' )
+    @calculatedFrom( ""x y"" ) string chars")).
+Eval vm_compute in ("<<<M2457>>>" ++ check (runes_of_ascii "
+packet float
+{	@calculatedFrom( """ ++ [233]%N ++ runes_of_ascii "t" ++ [233]%N ++ runes_of_ascii """ )
+@rightPad ( '\x00' )
+    @calculatedFrom( ""x y"" ) string chars  ,
+    // a // b
+    char[0 ]
+    u	@lengthOf( i8i8 ) ) `{ , }` ,repeat char[] o //x
+`// not a comment`, } // c")).
+Eval vm_compute in ("<<<M2489>>>" ++ check (runes_of_ascii "
+packet float
+{	@calculatedFrom( """ ++ [233]%N ++ runes_of_ascii "t" ++ [233]%N ++ runes_of_ascii """ )
+@rightPad ( '\x00' )
+    @calculatedFrom( ""x y"" ) string chars  ,
+    // a // b
+    char[0 ]
+    u	@lengthOf( i8i8 ) `{ , }` ,repeat char[] o //x
+string, } // c")).
+Eval vm_compute in ("<<<M2521>>>" ++ check (runes_of_ascii "
+packet float
+{	@calculatedFrom( """ ++ [233]%N ++ runes_of_ascii "t" ++ [233]%N ++ runes_of_ascii """ )
+@rightPad ( '\x00' )
+    @calculatedFrom( ""x y"" ) string chars  ,
+    // a // b
+    char[0 ]
+    u	@lengthOf( i8i8 ) `{ , }` ,repeat char[] " ++ [252]%N ++ runes_of_ascii "ber //x
+`// not a comment`, } // c")).
+Eval vm_compute in ("<<<M2553>>>" ++ check (runes_of_ascii "root packet u128{
+    repeat
+    zchar[ 65535 65535 ] u `" ++ [28040; 24687; 31867; 22411]%N ++ runes_of_ascii "` ,// `tick` ""quote"" 'q'
+} packet i64_ {repeatCount
+    `
+` ,	} // " ++ [128512]%N ++ runes_of_ascii " emoji")).
+Eval vm_compute in ("<<<M2585>>>" ++ check (runes_of_ascii "root packet u128{
+    repeat
+    zchar[ 65535 ] u `" ++ [28040; 24687; 31867; 22411]%N ++ runes_of_ascii "` ,// `tick` ""quote"" 'q'
+} match i64_ {repeatCount
+    `
+` ,	} // " ++ [128512]%N ++ runes_of_ascii " emoji")).
+Eval vm_compute in ("<<<M2617>>>" ++ check (runes_of_ascii "root packet u128{
+    repeat
+    zchar[ 65535 ] u `" ++ [28040; 24687; 31867; 22411]%N ++ runes_of_ascii "` ,// `tick")).
+Eval vm_compute in ("<<<M2649>>>" ++ check (runes_of_ascii "
 MetaData
-    {
-    string string_ , Logon x
-,
-uint32
-    // packet A { u8 x, }
-    Z9_,asx
-_x
-    `tab	here` , }
-")).
-Eval vm_compute in ("<<<M2617>>>" ++ check (runes_of_ascii "options{}root packet
-metadata {
-@lengthOf(x ) float32
-body ``, }
-    MetaData
-Z9_
-    {
-    string string_ ,")).
-Eval vm_compute in ("<<<M2649>>>" ++ check (runes_of_ascii "options{}root packet
-metadata {
-@lengthOf(x ) float32
-body ``, }
-    MetaData
-Z9_
-    {
-    string string_ , Logon x
-,
-uint32
-    // packet A { u8 x, }
-    Z9_,asx
-_x _x
-    `tab	here` , }
-")).
-Eval vm_compute in ("<<<M2681>>>" ++ check (runes_of_ascii "options{}root packet
-metadata {
-@lengthOf(x ) float32
-body ``, }
-    MetaData
-Z9_
-    {
-  " ++ [0]%N ++ runes_of_ascii "  string string_ , Logon x
-,
-uint32
-    // packet A { u8 x, }
-    Z9_,asx
-_x
-    `tab	here` , }
-")).
-Eval vm_compute in ("<<<M2713>>>" ++ check (runes_of_ascii "options {
-    falsey=")).
-Eval vm_compute in ("<<<M2745>>>" ++ check (runes_of_ascii " f32a
-{
-    //	t
-    }root
-    packet tag  {
+roots { { int8
+    BodyLength ,//	t
 }
 ")).
-Eval vm_compute in ("<<<M2777>>>" ++ check (runes_of_ascii "MetaData f32a
-{
-    //	t
-    }root
-    packet {  tag
+Eval vm_compute in ("<<<M2681>>>" ++ check (runes_of_ascii "
+MetaData
+roots \{ int8
+    BodyLength ,//	t
 }
 ")).
-Eval vm_compute in ("<<<M2809>>>" ++ check (runes_of_ascii "MetaData f32a
-{
-    //	t
-    }root
-    packet a" ++ [769]%N ++ runes_of_ascii "b  {
-}
+Eval vm_compute in ("<<<M2713>>>" ++ check (runes_of_ascii "options {Packet")).
+Eval vm_compute in ("<<<M2745>>>" ++ check (runes_of_ascii "options {Packet = ""CRC32""i8i8 = false; leftPad = =
+    '\x00'
+    // `tick` ""quote"" 'q'
+    ; o=255  ;
+    // packet A { u8 x, }
+    }")).
+Eval vm_compute in ("<<<M2777>>>" ++ check (runes_of_ascii "options {Packet = ""CRC32""i8i8 = false; leftPad =
+    '\x00'
+    // `tick` ""quote"" 'q'
+    ; o=255  @rightPad
+    // packet A { u8 x, }
+    }")).
+Eval vm_compute in ("<<<M2809>>>" ++ check (runes_of_ascii "
 ")).
 Eval vm_compute in ("<<<M2841>>>" ++ check (runes_of_ascii "
-options
-    {msg_type =
-    float32  }
-packet Z9_{ char /// triple
-crc @lengthOf(
-options1 ) //
-,} MetaData a1{}
-")).
+packet metadata { @rightPad (
+    // packet A { u8 x, }
+    ' ' ) repeat repeat u32	A
+,matchKey ,
+    @lengthOf( string_ ) @lengthOf( body )
+    // a // b
+    @lengthOf(float  )	repeat
+int32 u8x
+    // c
+    `tab	here`
+, } // a // b")).
 Eval vm_compute in ("<<<M2873>>>" ++ check (runes_of_ascii "
-options
-    {msg_type =
-    float32  }root
-packet Z9_{ char /// triple
-crc options1
-@lengthOf( ) //
-,} MetaData a1{}
-")).
+packet metadata { @rightPad (
+    // packet A { u8 x, }
+    ' ' ) repeat u32	A
+,matchKey ,
+    zchar[ string_ ) @lengthOf( body )
+    // a // b
+    @lengthOf(float  )	repeat
+int32 u8x
+    // c
+    `tab	here`
+, } // a // b")).
 Eval vm_compute in ("<<<M2905>>>" ++ check (runes_of_ascii "
-options
-    {msg_type =
-    float32  }root
-packet Z9_{ char /// triple
-crc @lengthOf(
-options1 ) //
-,} MetaData")).
-Eval vm_compute in ("<<<M2937>>>" ++ check (runes_of_ascii " crc{ // " ++ [128512]%N ++ runes_of_ascii " emoji
-repeat string i8i8
-`a\`, }
+packet metadata { @rightPad (
+    // packet A { u8 x, }
+    ' ' ) repeat u32	A
+,matchKey ,
+    @lengthOf( string_ ) @lengthOf( body )
+    // a // b
+    @lengthOf(  )	repeat
+int32 u8x
+    // c
+    `tab	here`
+, } // a // b")).
+Eval vm_compute in ("<<<M2937>>>" ++ check (runes_of_ascii "
+packet metadata { @rightPad (
+    // packet A { u8 x, }
+    ' ' ) repeat u32	A
+,matchKey ,
+    @lengthOf( string_ ) @lengthOf( body )
+    // a // b
+    @lengthOf(float  )	repeat
+int32 u8x
+    // c
+    `tab	here`
+} , // a // b")).
+Eval vm_compute in ("<<<M2969>>>" ++ check (runes_of_ascii "= x{
+string
+zchar , //	t
+}
 ")).
-Eval vm_compute in ("<<<M2969>>>" ++ check (runes_of_ascii "packet crc{ // " ++ [128512]%N ++ runes_of_ascii " emoji
-repeat string i8i8
-,`a\` }
-")).
-Eval vm_compute in ("<<<M3001>>>" ++ check (runes_of_ascii "packet " ++ [21517; 23383]%N ++ runes_of_ascii "{ // " ++ [128512]%N ++ runes_of_ascii " emoji
-repeat string i8i8
-`a\`, }
-")).
-Eval vm_compute in ("<<<M3033>>>" ++ check (runes_of_ascii "packet BodyLength {} MetaData zchar zchar[// @lengthOf(
-42 ]
-    pack , string_
-A , char[]crc , _x trueish ,
-// " ++ [27880; 37322]%N ++ runes_of_ascii "
-// " ++ [128512]%N ++ runes_of_ascii " emoji
-zchar[
-    3 ]	T // trailing space 
-, } packet body
+Eval vm_compute in ("<<<M3001>>>" ++ check (runes_of_ascii "p")).
+Eval vm_compute in ("<<<M3033>>>" ++ check (runes_of_ascii "
+MetaData Logon
+{ { // c
+}root packet
+    Pad {
+    } options
 {
-    }
-")).
-Eval vm_compute in ("<<<M3065>>>" ++ check (runes_of_ascii "packet BodyLength {} MetaData zchar{ zchar[// @lengthOf(
-42 ]
-    pack , A
-string_ , char[]crc , _x trueish ,
-// " ++ [27880; 37322]%N ++ runes_of_ascii "
-// " ++ [128512]%N ++ runes_of_ascii " emoji
-zchar[
-    3 ]	T // trailing space 
-, } packet body
+u
+    =
+    ""CRC32""
+    // " ++ [128512]%N ++ runes_of_ascii " emoji
+    i64_ = u16;
+T =65535 x = ' '
+    ; u128
+= true ; }")).
+Eval vm_compute in ("<<<M3065>>>" ++ check (runes_of_ascii "
+MetaData Logon
+{ // c
+}root packet
+    Pad {
+    ] options
 {
-    }
-")).
-Eval vm_compute in ("<<<M3097>>>" ++ check (runes_of_ascii "packet BodyLength {} MetaData zchar{ zchar[// @lengthOf(
-42 ]
-    pack , string_
-A , char[]crc ,")).
-Eval vm_compute in ("<<<M3129>>>" ++ check (runes_of_ascii "packet BodyLength {} MetaData zchar{ zchar[// @lengthOf(
-42 ]
-    pack , string_
-A , char[]crc , _x trueish ,
-// " ++ [27880; 37322]%N ++ runes_of_ascii "
-// " ++ [128512]%N ++ runes_of_ascii " emoji
-zchar[
-    3 ]	T // trailing space 
-, , } packet body
+u
+    =
+    ""CRC32""
+    // " ++ [128512]%N ++ runes_of_ascii " emoji
+    i64_ = u16;
+T =65535 x = ' '
+    ; u128
+= true ; }")).
+Eval vm_compute in ("<<<M3097>>>" ++ check (runes_of_ascii "
+MetaData Logon
+{ // c
+}root packet
+    Pad {
+    } options
 {
-    }
+u
+    =
+    ""CRC32""
+    // " ++ [128512]%N ++ runes_of_ascii " emoji
+    i64_  u16;
+T =65535 x = ' '
+    ; u128
+= true ; }")).
+Eval vm_compute in ("<<<M3129>>>" ++ check (runes_of_ascii "
+MetaData Logon
+{ // c
+}root packet
+    Pad {
+    } options
+{
+u
+    =
+    ""CRC32""
+    // " ++ [128512]%N ++ runes_of_ascii " emoji
+    i64_ = u16;
+T =65535 = x ' '
+    ; u128
+= true ; }")).
+Eval vm_compute in ("<<<M3161>>>" ++ check (runes_of_ascii "
+MetaData Logon
+{ // c
+}root packet
+    Pad {
+    } options
+{
+u
+    =
+    ""CRC32""
+    // " ++ [128512]%N ++ runes_of_ascii " emoji
+    i64_ = u16;
+T =65535 x = ' '
+    ; u128
+=")).
+Eval vm_compute in ("<<<M3193>>>" ++ check (runes_of_ascii " body{}
+packet	Packet { x_y_z @calculatedFrom(  ""a\\"")// `tick` ""quote"" 'q'
+, }
 ")).
-Eval vm_compute in ("<<<M3161>>>" ++ check (runes_of_ascii "packet BodyLength {} MetaData zchar{ zchar[// @lengthOf(
-42 ]
-    pack , string_
-A , char[]crc , _x trueish ,
-// " ++ [27880; 37322]%N ++ runes_of_ascii "
-// " ++ [128512]%N)).
-Eval vm_compute in ("<<<M3193>>>" ++ check (runes_of_ascii "packet
-string_")).
-Eval vm_compute in ("<<<M3225>>>" ++ check (runes_of_ascii "packet
-string_ {@lengthOf( int ) match packetx as f32a f32a {
-    1 :	calculatedFrom , }  ,
-    } packet len
-    //	t
-    { @calculatedFrom( """ ++ [233]%N ++ runes_of_ascii "t" ++ [233]%N ++ runes_of_ascii """ ) body Header , char[] lengthOf  `two words` ,chars{repeat string_ matchKey ,
-    } ,
-    }
+Eval vm_compute in ("<<<M3225>>>" ++ check (runes_of_ascii "MetaData body{}
+packet	Packet x_y_z { @calculatedFrom(  ""a\\"")// `tick` ""quote"" 'q'
+, }
 ")).
-Eval vm_compute in ("<<<M3257>>>" ++ check (runes_of_ascii "packet
-string_ {@lengthOf( int ) match packetx as f32a {
-    1 :	calculatedFrom , =  ,
-    } packet len
-    //	t
-    { @calculatedFrom( """ ++ [233]%N ++ runes_of_ascii "t" ++ [233]%N ++ runes_of_ascii """ ) body Header , char[] lengthOf  `two words` ,chars{repeat string_ matchKey ,
-    } ,
-    }
+Eval vm_compute in ("<<<M3257>>>" ++ check (runes_of_ascii "MetaData body{}
+packet	Packe")).
+Eval vm_compute in ("<<<M3289>>>" ++ check (runes_of_ascii "packet f32a } root packet len {repeat u // " ++ [128512]%N ++ runes_of_ascii " emoji
+`{ , }` , }
 ")).
-Eval vm_compute in ("<<<M3289>>>" ++ check (runes_of_ascii "packet
-string_ {@lengthOf( int ) match packetx as f32a {
-    1 :	calculatedFrom , }  ,
-    } packet len
-    //	t
-    { @calculatedFrom(  ) body Header , char[] lengthOf  `two words` ,chars{repeat string_ matchKey ,
-    } ,
-    }
+Eval vm_compute in ("<<<M3321>>>" ++ check (runes_of_ascii "packet f32a {} root packet len {u repeat // " ++ [128512]%N ++ runes_of_ascii " emoji
+`{ , }` , }
 ")).
-Eval vm_compute in ("<<<M3321>>>" ++ check (runes_of_ascii "packet
-string_ {@lengthOf( int ) match packetx as f32a {
-    1 :	calculatedFrom , }  ,
-    } packet len
-    //	t
-    { @calculatedFrom( """ ++ [233]%N ++ runes_of_ascii "t" ++ [233]%N ++ runes_of_ascii """ ) body Header , char[] `two words`  lengthOf ,chars{repeat string_ matchKey ,
-    } ,
-    }
+Eval vm_compute in ("<<<M3353>>>" ++ check (runes_of_ascii "`packet f32a {} root packet len {repeat u // " ++ [128512]%N ++ runes_of_ascii " emoji
+`{ , }` , }
 ")).
-Eval vm_compute in ("<<<M3353>>>" ++ check (runes_of_ascii "packet
-string_ {@lengthOf( int ) match packetx as f32a {
-    1 :	calculatedFrom , }  ,
-    } packet len
-    //	t
-    { @calculatedFrom( """ ++ [233]%N ++ runes_of_ascii "t" ++ [233]%N ++ runes_of_ascii """ ) body Header , char[] lengthOf  `two words` ,chars{repeat")).
-Eval vm_compute in ("<<<M3385>>>" ++ check (runes_of_ascii "packet
-string_ {@lengthOf( int ) match packetx as f32a {
-    1 :	calculatedFrom , }  ,
-    } packet len
-    //	t
-    { @calculatedFrom( """ ++ [233]%N ++ runes_of_ascii "t" ++ [233]%N ++ runes_of_ascii """ ) body Header , char[] @leftpad lengthOf  `two words` ,chars{repeat string_ matchKey ,
-    } ,
-    }
-")).
-Eval vm_compute in ("<<<M3417>>>" ++ check (runes_of_ascii "/// triple
-root
-packet // packet A { u8 x, }
-chars { @lengthOf(charz )
-stringy,  @tag(  0 { // a // b
-asx
-    As
-,
-// trailing space 
-// trailing space 
-x_y_z {
-repeat i16 charz , } ,	int16  crc ,}
-")).
-Eval vm_compute in ("<<<M3449>>>" ++ check (runes_of_ascii "/// triple
-root
-packet // packet A { u8 x, }
-chars { @lengthOf(charz )
-stringy,  @tag(  0 ) // a // b
-asx
-    As
-,")).
-Eval vm_compute in ("<<<M3481>>>" ++ check (runes_of_ascii "/// triple
-root
-packet // packet A { u8 x, }
-chars { @lengthOf(charz )
-stringy,  @tag(  0 ) // a // b
-asx asx
-    As
-,
-// trailing space 
-// trailing space 
-x_y_z {
-repeat i16 charz , } ,	int16  crc ,}
-")).
+Eval vm_compute in ("<<<M3385>>>" ++ check (runes_of_ascii "options{ _x=""\" ++ [233]%N ++ runes_of_ascii """;
+    Logon = 10	; Foo= 7;
+i64_= char[]} options {
+matchKey = ""// no comment"" // a // b
+ = string
+; trueish =
+    4294967296
+options1=
+    ""it's"" string_	= true } options {
+    /// triple
+    }")).
+Eval vm_compute in ("<<<M3417>>>" ++ check (runes_of_ascii "options{ _x=""\" ++ [233]%N ++ runes_of_ascii """;
+    Logon = ")).
+Eval vm_compute in ("<<<M3449>>>" ++ check (runes_of_ascii "options{ _x=""\" ++ [233]%N ++ runes_of_ascii """;
+    Logon = 10	; Foo= 7;
+i64_= char[]} options {
+matchKey = ""// no comment"" // a // b
+falsey = string
+; false =
+    4294967296
+options1=
+    ""it's"" string_	= true } options {
+    /// triple
+    }")).
+Eval vm_compute in ("<<<M3481>>>" ++ check (runes_of_ascii "options{ _x=""\" ++ [233]%N ++ runes_of_ascii """;
+    Logon = 10	; Foo= 7;
+i64_= char[]} options {
+ = ""// no comment"" // a // b
+falsey = string
+; trueish =
+    4294967296
+options1=
+    ""it's"" string_	= true } options {
+    /// triple
+    }")).
 Eval vm_compute in ("<<<M3513>>>" ++ check (runes_of_ascii "true1")).
 Eval vm_compute in ("<<<M3545>>>" ++ check (runes_of_ascii "'  '")).
 Eval vm_compute in ("<<<M3577>>>" ++ check (runes_of_ascii """a\""""")).
@@ -1785,11 +1646,11 @@ Eval vm_compute in ("<<<M3641>>>" ++ check (runes_of_ascii "packet A { x y `d`, 
 Eval vm_compute in ("<<<M3673>>>" ++ check (runes_of_ascii "packet A { match k as n { 1 : B,, }, }")).
 Eval vm_compute in ("<<<M3705>>>" ++ check (runes_of_ascii "packet")).
 Eval vm_compute in ("<<<M3737>>>" ++ check (runes_of_ascii "options { options = 1; }")).
-Eval vm_compute in ("<<<M3769>>>" ++ check (runes_of_ascii "&T a?uF8pWmsTf<`$3C-")).
-Eval vm_compute in ("<<<M3801>>>" ++ check (runes_of_ascii "I'Qi?0""""]SuMf9A7")).
-Eval vm_compute in ("<<<M3833>>>" ++ check (runes_of_ascii "v=OfM)k")).
-Eval vm_compute in ("<<<M3865>>>" ++ check (runes_of_ascii "qPL\*R[5!eBJGT12|4fS@-zF(")).
-Eval vm_compute in ("<<<M3897>>>" ++ check (runes_of_ascii "sJY6o?<(W|0l)MK:c^Vy.rhm7")).
-Eval vm_compute in ("<<<M3929>>>" ++ check (runes_of_ascii "@Ld-ha-gX*n")).
-Eval vm_compute in ("<<<M3961>>>" ++ check (runes_of_ascii ">&""v{S^62?^1Aq0Ju0oU?S>ncXP!]-&B+=")).
-Eval vm_compute in ("<<<M3993>>>" ++ check (runes_of_ascii "6x*bn$)}h{{")).
+Eval vm_compute in ("<<<M3769>>>" ++ check (runes_of_ascii ")w-I`ZWzC7 R")).
+Eval vm_compute in ("<<<M3801>>>" ++ check (runes_of_ascii "j+sAFURb|Q3P\9o#5")).
+Eval vm_compute in ("<<<M3833>>>" ++ check (runes_of_ascii "Uqc&!5o(3qo16SHn1,GI.is'q""VhDArQaX")).
+Eval vm_compute in ("<<<M3865>>>" ++ check (runes_of_ascii "^")).
+Eval vm_compute in ("<<<M3897>>>" ++ check (runes_of_ascii "ye_MpyZEI*5mPQg?W'n&KXH=0o6xDYFgJ#_")).
+Eval vm_compute in ("<<<M3929>>>" ++ check (runes_of_ascii "s|MhSNAe{2NU>x|]%K4~470q:HbIbID5F|Jxg")).
+Eval vm_compute in ("<<<M3961>>>" ++ check (runes_of_ascii "A)@ 0.]""w?[cG.8{A;bd'")).
+Eval vm_compute in ("<<<M3993>>>" ++ check (runes_of_ascii "W_")).
